@@ -2,10 +2,27 @@
     every history outside the trigger pattern K; rolled-back address issuance
     never advances an index; the next committed issuance equals what a
     restarted manager issues outside K_idx; witnesses inside K.  Everything is
-    proved for both values of the model parameter [rb] (see MemDisk.v). *)
+    proved for every value of the model parameters [params] (see MemDisk.v). *)
 From stdpp Require Import gmap list numbers.
 From Coq Require Import ZArith NArith Lia.
 From Verif Require Import Addr.MemDisk.
+
+(** ** Field lemmas *)
+
+Lemma np_accts k a m : m_accts (note_pending k a m) = m_accts m.
+Proof. unfold note_pending. destruct (_ && _); reflexivity. Qed.
+Lemma np_addrs k a m : m_addrs (note_pending k a m) = m_addrs m.
+Proof. unfold note_pending. destruct (_ && _); reflexivity. Qed.
+Lemma np_synced k a m : m_synced (note_pending k a m) = m_synced m.
+Proof. unfold note_pending. destruct (_ && _); reflexivity. Qed.
+Lemma np_start k a m : m_start (note_pending k a m) = m_start m.
+Proof. unfold note_pending. destruct (_ && _); reflexivity. Qed.
+Lemma np_birthday k a m : m_birthday (note_pending k a m) = m_birthday m.
+Proof. unfold note_pending. destruct (_ && _); reflexivity. Qed.
+Lemma np_locked k a m : m_locked (note_pending k a m) = m_locked m.
+Proof. unfold note_pending. destruct (_ && _); reflexivity. Qed.
+Ltac np := rewrite ?np_accts, ?np_addrs, ?np_synced, ?np_start, ?np_birthday, ?np_locked.
+Ltac np_in H := rewrite ?np_accts, ?np_addrs, ?np_synced, ?np_start, ?np_birthday, ?np_locked in H.
 
 (** ** Coherence of memory with a database, and what it gives *)
 
@@ -15,6 +32,16 @@ Definition wfL (d : disk) : Prop := forall a, is_Some (d_accts d !! a) -> (a <= 
 Definition wfA (d : disk) : Prop := forall a b i, Chain a b i ∈ d_addrs d -> is_Some (d_accts d !! a).
 Definition wf_disk (d : disk) : Prop := wfL d /\ wfA d.
 
+(** What an address object of the database [d] records: the type and the
+    fingerprint that follow from its account's row. *)
+Definition kind_row (d : disk) (a : N) : option wo :=
+  match d_accts d !! a with Some r => r_kind r | None => None end.
+Definition meta_of (d : disk) (x : addr) : ameta :=
+  match x with
+  | Chain a b _ => meta_of_kind (d_schema d) (kind_row d a) b
+  | _ => meta_imp (d_schema d) x
+  end.
+
 Definition coh_idx (m : mem) (d : disk) : Prop :=
   forall a ai, m_accts m !! a = Some ai ->
     exists r, d_accts d !! a = Some r /\
@@ -22,7 +49,10 @@ Definition coh_idx (m : mem) (d : disk) : Prop :=
 Definition coh_name (m : mem) (d : disk) : Prop :=
   forall a ai r, m_accts m !! a = Some ai -> d_accts d !! a = Some r ->
     (ai_name ai, ai_kind ai) = (r_name r, r_kind r).
-Definition coh_addr (m : mem) (d : disk) : Prop := m_addrs m ⊆ d_addrs d.
+(** Every cached address object is in the database and records what its
+    account's row says. *)
+Definition coh_addr (m : mem) (d : disk) : Prop :=
+  forall x mt, m_addrs m !! x = Some mt -> x ∈ d_addrs d /\ mt = meta_of d x.
 Definition coh_sync (m : mem) (d : disk) : Prop :=
   m_synced m = d_synced d /\ (s_height (m_start m), s_hash (m_start m)) = d_start d.
 Definition coh_bday (m : mem) (d : disk) : Prop := m_birthday m = d_birthday d.
@@ -38,47 +68,10 @@ Proof.
   destruct ai, r; simpl in *. unfold info_of_row; simpl. congruence.
 Qed.
 
-(** With coherent account entries the kind a chained address is reported with
-    is the kind of the account's row. *)
-Lemma kind_view_row m d a :
-  coh_idx m d -> coh_name m d ->
-  kind_view d m a = match d_accts d !! a with Some r => r_kind r | None => None end.
+Lemma coherent_reopen l d : coherent (reopen_as l d) d.
 Proof.
-  intros Hi Hn. unfold kind_view. destruct (m_accts m !! a) as [ai|] eqn:E; [|reflexivity].
-  destruct (Hi a ai E) as (r & Hr & _). rewrite Hr. pose proof (Hn a ai r E Hr) as Hp. injection Hp; auto.
-Qed.
-
-Lemma kind_view_load d m a m1 o a' :
-  load_acct d m a = (m1, o) -> kind_view d m1 a' = kind_view d m a'.
-Proof.
-  unfold load_acct, kind_view. destruct (m_accts m !! a) as [ai|] eqn:E; [intros [= <- <-]; reflexivity|].
-  destruct (d_accts d !! a) as [r|] eqn:Er; intros [= <- <-]; [|reflexivity].
-  simpl. destruct (decide (a' = a)) as [->|Hne].
-  - rewrite lookup_insert, E, Er. reflexivity.
-  - rewrite lookup_insert_ne by congruence. reflexivity.
-Qed.
-
-Lemma found_row m d x :
-  coh_idx m d -> coh_name m d -> found d m x = found d (reopen d) x.
-Proof.
-  intros Hi Hn. destruct x as [a b i|k|k]; simpl; try reflexivity.
-  rewrite (kind_view_row m d a Hi Hn). unfold kind_view; simpl. rewrite lookup_empty. reflexivity.
-Qed.
-
-Lemma found_load d m a m1 o x :
-  load_acct d m a = (m1, o) -> found d m1 x = found d m x.
-Proof.
-  intros HL. destruct x as [a' b i|k|k]; simpl; try reflexivity.
-  rewrite (kind_view_load _ _ _ _ _ a' HL). reflexivity.
-Qed.
-
-Lemma found_addrs d m v x : found d (set_m_addrs v m) x = found d m x.
-Proof. destruct x; reflexivity. Qed.
-
-Lemma coherent_reopen d : coherent (reopen d) d.
-Proof.
-  unfold coherent, coh_idx, coh_name, coh_addr, coh_sync, coh_bday, reopen; simpl.
-  repeat split; try (intros; rewrite lookup_empty in *; congruence); try set_solver.
+  unfold coherent, coh_idx, coh_name, coh_addr, coh_sync, coh_bday, reopen_as; simpl.
+  repeat split; try (intros; rewrite lookup_empty in *; congruence).
   destruct (d_start d); reflexivity.
 Qed.
 
@@ -86,63 +79,148 @@ Lemma load_acct_cached d m a ai :
   m_accts m !! a = Some ai -> load_acct d m a = (m, Some ai).
 Proof. unfold load_acct. intros ->. reflexivity. Qed.
 
+(** The answer part of [load_acct]. *)
+Lemma load_acct_ans d m a :
+  (load_acct d m a).2 = match m_accts m !! a with
+                        | Some ai => Some ai
+                        | None => info_of_row <$> d_accts d !! a
+                        end.
+Proof. unfold load_acct. destruct (m_accts m !! a); [reflexivity|]. destruct (d_accts d !! a); reflexivity. Qed.
+
+(** With coherent entries, what [loadAccountInfo] hands out is what the row says. *)
+Lemma load_acct_ans_coh d m a :
+  coh_idx m d -> coh_name m d -> (load_acct d m a).2 = info_of_row <$> d_accts d !! a.
+Proof.
+  intros Hi Hn. rewrite load_acct_ans. destruct (m_accts m !! a) as [ai|] eqn:E; [|reflexivity].
+  destruct (Hi a ai E) as (r & Hr & Hf). rewrite Hr. simpl. f_equal. apply info_eq; [eapply Hn; eauto|exact Hf].
+Qed.
+
+Lemma read_ans_load q d m :
+  (read q d m).2 =
+  match q with
+  | QLookup x =>
+      match m_addrs m !! x with
+      | Some mt => found d x mt
+      | None =>
+          if bool_decide (x ∈ d_addrs d) then
+            match x with
+            | Chain a b _ =>
+                match (load_acct d m a).2 with
+                | Some ai => found d x (meta_of_kind (d_schema d) (ai_kind ai) b)
+                | None => AErr EAccountNotFound
+                end
+            | _ => found d x (meta_imp (d_schema d) x)
+            end
+          else AErr EAddressNotFound
+      end
+  | QLast a b =>
+      match (load_acct d m a).2 with
+      | Some ai => if (0 <? next_of ai b)%N
+                   then ALast (Chain a b (last_of ai b)) (meta_of_kind (d_schema d) (ai_kind ai) b).1
+                              (meta_of_kind (d_schema d) (ai_kind ai) b).2
+                   else AErr EAddressNotFound
+      | None => AErr EAccountNotFound
+      end
+  | QProps a =>
+      if (a =? imported_acct)%N then AProps name_imported 0 0 (imported_count d) None false
+      else match (load_acct d m a).2 with
+           | Some ai => AProps (ai_name ai) (ai_ext ai) (ai_int ai) 0 (ai_kind ai)
+                          (negb (has_priv (ai_kind ai)) || m_locked m)
+           | None => AErr EAccountNotFound
+           end
+  | QLookupName nm => match d_nameidx d !! nm with Some a => AAcct a | None => AErr EAccountNotFound end
+  | QAcctName a => match d_ididx d !! a with Some nm => AName nm | None => AErr EAccountNotFound end
+  | QLastAcct => AAcct (d_lastacct d)
+  | QSynced => AStamp (m_synced m)
+  | QBlockHash h => match d_hashes d !! h with Some x => AHash x | None => AErr EBlockNotFound end
+  | QBirthday => ATime (m_birthday m)
+  | QBdayBlock => match d_bdayblock d with Some s => ABday s (d_bdayverified d) | None => AErr EBirthdayBlockNotSet end
+  end.
+Proof.
+  destruct q as [x|a b|a|nm|a| | |h| | ]; simpl; try reflexivity.
+  - destruct (m_addrs m !! x); [reflexivity|]. case_bool_decide; [|reflexivity].
+    destruct x as [a b i|k|k]; try reflexivity.
+    destruct (load_acct d m a) as [m1 [ai|]]; reflexivity.
+  - destruct (load_acct d m a) as [m1 [ai|]]; reflexivity.
+  - destruct (a =? imported_acct)%N; [reflexivity|].
+    destruct (load_acct d m a) as [m1 [ai|]]; reflexivity.
+Qed.
+
 Lemma observe_coherent m d q :
-  coherent m d -> wfA d -> observe m d q = observe (reopen d) d q.
+  coherent m d -> wfA d -> observe m d q = observe (restart m d) d q.
 Proof.
   intros (Hi & Hn & Ha & [Hs1 Hs2] & Hb) HA.
-  unfold observe. destruct q as [x|a b|a|nm|a| | |h| | ]; simpl; try reflexivity.
+  assert (HL : forall a, (load_acct d m a).2 = (load_acct d (restart m d) a).2).
+  { intros a. rewrite load_acct_ans_coh by assumption. rewrite load_acct_ans. simpl. rewrite lookup_empty. reflexivity. }
+  unfold observe. rewrite 2!read_ans_load.
+  destruct q as [x|a b|a|nm|a| | |h| | ]; try reflexivity.
   - (* lookup *)
-    assert (HE : forall y : addr, y ∈ (∅ : gset addr) -> False) by (intros y; apply not_elem_of_empty).
-    assert (HF : forall m1 o a, load_acct d m a = (m1, o) -> found d m1 x = found d (reopen d) x).
-    { intros m1 o a HL. rewrite (found_load _ _ _ _ _ x HL). apply found_row; assumption. }
-    assert (HG : forall m1 o a, load_acct d (reopen d) a = (m1, o) -> found d m1 x = found d (reopen d) x).
-    { intros m1 o a HL. apply (found_load _ _ _ _ _ x HL). }
-    repeat case_bool_decide; try (exfalso; eauto; fail).
-    all: try (exfalso; match goal with H : ~ (_ ∈ d_addrs _) |- _ => apply H, Ha; assumption end).
-    all: try reflexivity.
-    all: destruct x as [a b i|k|k]; try reflexivity.
-    all: match goal with H : Chain _ _ _ ∈ d_addrs _ |- _ => destruct (HA _ _ _ H) as [r Hr] end.
-    all: destruct (load_acct d (reopen d) a) as [mf [aif|]] eqn:ELf;
-      [|exfalso; revert ELf; unfold load_acct; simpl; rewrite lookup_empty, Hr; discriminate].
-    all: cbn [snd].
-    + (* cached in the running manager *)
-      rewrite (HG _ _ _ ELf). apply found_row; assumption.
-    + (* loaded by both *)
-      destruct (load_acct d m a) as [m1 [ai1|]] eqn:EL1.
-      * cbn [snd]. rewrite (HF _ _ _ EL1), (HG _ _ _ ELf). reflexivity.
-      * exfalso. revert EL1. unfold load_acct. destruct (m_accts m !! a); [discriminate|].
-        rewrite Hr. discriminate.
-  - (* last *)
-    unfold load_acct; simpl. rewrite lookup_empty.
-    destruct (m_accts m !! a) as [ai|] eqn:E.
-    + destruct (Hi a ai E) as (r & Hr & Hf). rewrite Hr. simpl.
-      destruct (Hf b) as [H1 H2].
-      assert (next_of (info_of_row r) b = row_next r b) by (destruct b; reflexivity).
-      assert (last_of (info_of_row r) b = N.pred (row_next r b)) by (destruct b; reflexivity).
-      rewrite H1, H2, H, H0. reflexivity.
-    + destruct (d_accts d !! a); reflexivity.
-  - (* props *)
-    destruct (a =? imported_acct)%N; [reflexivity|].
-    unfold load_acct; simpl. rewrite lookup_empty.
-    destruct (m_accts m !! a) as [ai|] eqn:E.
-    + destruct (Hi a ai E) as (r & Hr & Hf). rewrite Hr. simpl.
-      rewrite (info_eq ai r (Hn a ai r E Hr) Hf). reflexivity.
-    + destruct (d_accts d !! a); reflexivity.
-  - rewrite Hs1. reflexivity.
-  - rewrite Hb. reflexivity.
+    simpl (m_addrs (restart m d) !! x). rewrite lookup_empty.
+    destruct (m_addrs m !! x) as [mt|] eqn:E.
+    + destruct (Ha x mt E) as [Hx ->]. rewrite bool_decide_eq_true_2 by exact Hx.
+      destruct x as [a b i|k|k]; try reflexivity.
+      destruct (HA a b i Hx) as [r Hr].
+      rewrite load_acct_ans. simpl. rewrite lookup_empty, Hr. simpl.
+      unfold kind_row. rewrite Hr. reflexivity.
+    + case_bool_decide; [|reflexivity]. destruct x as [a b i|k|k]; try reflexivity.
+      rewrite HL. reflexivity.
+  - rewrite HL. reflexivity.
+  - rewrite HL. reflexivity.
+  - simpl. rewrite Hs1. reflexivity.
+  - simpl. rewrite Hb. reflexivity.
+Qed.
+
+(** The derivation information a coherent manager reports for an address is
+    the one that follows from the account row in the database: the address
+    type of the account's (or the scope's) schema and the master-key
+    fingerprint of the row. *)
+Lemma lookup_reports_row_meta m d x y a i im u ty fp :
+  coherent m d -> wfA d ->
+  observe m d (QLookup x) = AAddr y a i im u ty fp -> (ty, fp) = meta_of d x.
+Proof.
+  intros HC HA. rewrite (observe_coherent m d _ HC HA). unfold observe. rewrite read_ans_load.
+  simpl (m_addrs (restart m d) !! x). rewrite lookup_empty.
+  case_bool_decide as Hx; [|discriminate].
+  destruct x as [a' b' i'|k|k].
+  - destruct (HA a' b' i' Hx) as [r Hr].
+    rewrite load_acct_ans. simpl. rewrite lookup_empty, Hr. simpl.
+    unfold found, kind_row. rewrite Hr. intros [= <- <- <- <- <- <- <-]. apply surjective_pairing.
+  - unfold found. intros [= <- <- <- <- <- <- <-]. apply surjective_pairing.
+  - unfold found. intros [= <- <- <- <- <- <- <-]. apply surjective_pairing.
 Qed.
 
 (** ** Reads only extend the caches, from the rows they see *)
+
+(** An address object built from the database [d] by a manager whose account
+    cache is [m']: a chained one takes type and fingerprint from the entry of
+    its account. *)
+Definition built_from (d : disk) (m' : mem) (x : addr) (mt : ameta) : Prop :=
+  match x with
+  | Chain a b _ => exists ai, m_accts m' !! a = Some ai /\ mt = meta_of_kind (d_schema d) (ai_kind ai) b
+  | _ => mt = meta_imp (d_schema d) x
+  end.
 
 Definition mem_ext (d : disk) (m m' : mem) : Prop :=
   (forall a ai, m_accts m !! a = Some ai -> m_accts m' !! a = Some ai) /\
   (forall a ai, m_accts m' !! a = Some ai -> m_accts m !! a = Some ai \/
        (m_accts m !! a = None /\ exists r, d_accts d !! a = Some r /\ ai = info_of_row r)) /\
-  (forall x, x ∈ m_addrs m' -> x ∈ m_addrs m \/ x ∈ d_addrs d) /\
+  (forall x mt, m_addrs m' !! x = Some mt -> m_addrs m !! x = Some mt \/ (x ∈ d_addrs d /\ built_from d m' x mt)) /\
   m_synced m' = m_synced m /\ m_start m' = m_start m /\ m_birthday m' = m_birthday m.
 
+Lemma mem_ext_fields d m m' :
+  m_accts m' = m_accts m -> m_addrs m' = m_addrs m -> m_synced m' = m_synced m ->
+  m_start m' = m_start m -> m_birthday m' = m_birthday m -> mem_ext d m m'.
+Proof.
+  intros E1 E2 E3 E4 E5. unfold mem_ext. rewrite E1, E2, E3, E4, E5. repeat split; auto.
+Qed.
+
 Lemma mem_ext_refl d m : mem_ext d m m.
-Proof. unfold mem_ext. repeat split; auto. Qed.
+Proof. apply mem_ext_fields; reflexivity. Qed.
+
+Lemma built_from_mono d m m' x mt :
+  (forall a ai, m_accts m !! a = Some ai -> m_accts m' !! a = Some ai) ->
+  built_from d m x mt -> built_from d m' x mt.
+Proof. intros H. destruct x as [a b i|k|k]; simpl; auto. intros (ai & H1 & H2). eauto. Qed.
 
 Lemma mem_ext_trans d m1 m2 m3 : mem_ext d m1 m2 -> mem_ext d m2 m3 -> mem_ext d m1 m3.
 Proof.
@@ -154,63 +232,67 @@ Proof.
     + destruct (m_accts m1 !! a) as [ai1|] eqn:E.
       * apply A1 in E. congruence.
       * right. split; [reflexivity|]. eauto.
-  - intros x H. destruct (C2 x H) as [H2|H2]; auto.
+  - intros x mt H. destruct (C2 x mt H) as [H2|H2]; [|auto].
+    destruct (C1 x mt H2) as [H1|[H1 H1']]; [auto|]. right. split; [exact H1|].
+    eapply built_from_mono; eauto.
 Qed.
 
-Lemma load_acct_spec d m a :
-  match m_accts m !! a with
-  | Some ai => load_acct d m a = (m, Some ai)
-  | None =>
-      match d_accts d !! a with
-      | Some r => load_acct d m a = (set_m_accts (<[a := info_of_row r]> (m_accts m)) m, Some (info_of_row r))
-      | None => load_acct d m a = (m, None)
-      end
-  end.
-Proof. unfold load_acct. destruct (m_accts m !! a); [reflexivity|]. destruct (d_accts d !! a); reflexivity. Qed.
+(** [load_acct] touches the account cache at [a] only, and nothing else that
+    is observable. *)
+Definition same_but (a : N) (m m' : mem) : Prop :=
+  (forall a', a' <> a -> m_accts m' !! a' = m_accts m !! a') /\
+  m_addrs m' = m_addrs m /\ m_synced m' = m_synced m /\ m_start m' = m_start m /\
+  m_birthday m' = m_birthday m /\ m_locked m' = m_locked m.
 
 Lemma load_acct_ext d m a m' o :
   load_acct d m a = (m', o) ->
-  mem_ext d m m' /\ m_addrs m' = m_addrs m /\
+  mem_ext d m m' /\ same_but a m m' /\
   match o with
   | Some ai => m_accts m' !! a = Some ai
-  | None => m' = m /\ m_accts m !! a = None /\ d_accts d !! a = None
+  | None => m_accts m' = m_accts m /\ m_accts m !! a = None /\ d_accts d !! a = None
   end.
 Proof.
-  pose proof (load_acct_spec d m a) as S.
+  unfold load_acct.
   destruct (m_accts m !! a) as [ai|] eqn:E1.
-  - rewrite S. intros [= <- <-]. split; [apply mem_ext_refl|]. auto.
-  - destruct (d_accts d !! a) as [r|] eqn:E2; rewrite S; intros [= <- <-].
-    + split; [|split; [reflexivity|simpl; apply lookup_insert]].
-      unfold mem_ext; simpl. repeat split; auto.
-      * intros a' ai' H. destruct (decide (a' = a)) as [->|Hne]; [congruence|].
-        rewrite lookup_insert_ne by congruence. exact H.
-      * intros a' ai' H. destruct (decide (a' = a)) as [->|Hne].
-        -- rewrite lookup_insert in H. injection H as <-. right. eauto.
-        -- rewrite lookup_insert_ne in H by congruence. auto.
-    + split; [apply mem_ext_refl|]. auto.
-Qed.
-
-Lemma mem_ext_add_addr d m x :
-  x ∈ d_addrs d -> mem_ext d m (set_m_addrs ({[x]} ∪ m_addrs m) m).
-Proof.
-  intros Hx. unfold mem_ext; simpl. repeat split; auto.
-  intros y Hy. apply elem_of_union in Hy as [Hy|Hy]; [|auto].
-  apply elem_of_singleton in Hy. subst. auto.
+  - intros [= <- <-]. split; [apply mem_ext_refl|]. split; [repeat split; auto|exact E1].
+  - destruct (d_accts d !! a) as [r|] eqn:E2; intros [= <- <-].
+    + split; [|split].
+      * unfold mem_ext. np. simpl. repeat split; auto.
+        -- intros a' ai' H. destruct (decide (a' = a)) as [->|Hne]; [congruence|].
+           rewrite lookup_insert_ne by congruence. exact H.
+        -- intros a' ai' H. destruct (decide (a' = a)) as [->|Hne].
+           ++ rewrite lookup_insert in H. injection H as <-. right. eauto.
+           ++ rewrite lookup_insert_ne in H by congruence. auto.
+      * unfold same_but. np. simpl. repeat split; auto.
+        intros a' Hne. rewrite lookup_insert_ne by congruence. reflexivity.
+      * np. simpl. apply lookup_insert.
+    + split; [apply mem_ext_refl|]. split; [repeat split; auto|auto].
 Qed.
 
 Lemma read_ext d m q m' r : read q d m = (m', r) -> mem_ext d m m'.
 Proof.
   destruct q as [x|a b|a|nm|a| | |h| | ]; simpl;
     try (intros [= <- <-]; apply mem_ext_refl).
-  - case_bool_decide as E1; [intros [= <- <-]; apply mem_ext_refl|].
+  - destruct (m_addrs m !! x) as [mt|] eqn:E1; [intros [= <- <-]; apply mem_ext_refl|].
     case_bool_decide as E2; [|intros [= <- <-]; apply mem_ext_refl].
     destruct x as [a b i|k|k].
     + destruct (load_acct d m a) as [m1 o] eqn:EL.
-      apply load_acct_ext in EL as (HE & HA & _).
-      destruct o; intros [= <- <-]; [|exact HE].
-      eapply mem_ext_trans; [exact HE|]. apply mem_ext_add_addr. exact E2.
-    + intros [= <- <-]. apply mem_ext_add_addr. exact E2.
-    + intros [= <- <-]. apply mem_ext_add_addr. exact E2.
+      apply load_acct_ext in EL as (HE & HS & Ho).
+      destruct o as [ai|]; intros [= <- <-]; [|exact HE].
+      eapply mem_ext_trans; [exact HE|].
+      unfold mem_ext. np. simpl. repeat split; auto.
+      intros y mt Hy. destruct (decide (y = Chain a b i)) as [->|Hne].
+      * rewrite lookup_insert in Hy. injection Hy as <-. right. split; [exact E2|].
+        simpl. np. simpl. eauto.
+      * rewrite lookup_insert_ne in Hy by congruence. auto.
+    + intros [= <- <-]. unfold mem_ext. simpl. repeat split; auto.
+      intros y mt Hy. destruct (decide (y = ImpKey k)) as [->|Hne].
+      * rewrite lookup_insert in Hy. injection Hy as <-. right. split; [exact E2|reflexivity].
+      * rewrite lookup_insert_ne in Hy by congruence. auto.
+    + intros [= <- <-]. unfold mem_ext. simpl. repeat split; auto.
+      intros y mt Hy. destruct (decide (y = ImpScript k)) as [->|Hne].
+      * rewrite lookup_insert in Hy. injection Hy as <-. right. split; [exact E2|reflexivity].
+      * rewrite lookup_insert_ne in Hy by congruence. auto.
   - destruct (load_acct d m a) as [m1 o] eqn:EL.
     apply load_acct_ext in EL as (HE & _). destruct o; intros [= <- <-]; exact HE.
   - destruct (a =? imported_acct)%N; [intros [= <- <-]; apply mem_ext_refl|].
@@ -226,6 +308,38 @@ Proof.
   - destruct (read q d m) as [m1 x] eqn:E1.
     destruct (run_queries qs d m1) as [m2 xs] eqn:E2.
     intros [= <- <-]. eapply mem_ext_trans; [eapply read_ext; eauto|eapply IH; eauto].
+Qed.
+
+Lemma run_queries_locked qs : forall d m, m_locked (run_queries qs d m).1 = m_locked m.
+Proof.
+  induction qs as [|q qs IH]; simpl; intros d m; [reflexivity|].
+  destruct (read q d m) as [m1 x] eqn:E1.
+  destruct (run_queries qs d m1) as [m2 xs] eqn:E2. simpl.
+  specialize (IH d m1). rewrite E2 in IH. simpl in IH. rewrite IH.
+  clear -E1. destruct q as [y|a b|a|nm|a| | |h| | ]; simpl in E1; try (injection E1 as <- _; reflexivity).
+  - destruct (m_addrs m !! y); [injection E1 as <- _; reflexivity|].
+    case_bool_decide; [|injection E1 as <- _; reflexivity].
+    destruct y as [a b i|k|k]; try (injection E1 as <- _; reflexivity).
+    destruct (load_acct d m a) as [m0 o] eqn:EL. apply load_acct_ext in EL as (_ & (_ & _ & _ & _ & _ & HL) & _).
+    destruct o; injection E1 as <- _; np; simpl; exact HL.
+  - destruct (load_acct d m a) as [m0 o] eqn:EL. apply load_acct_ext in EL as (_ & (_ & _ & _ & _ & _ & HL) & _).
+    destruct o; injection E1 as <- _; exact HL.
+  - destruct (a =? imported_acct)%N; [injection E1 as <- _; reflexivity|].
+    destruct (load_acct d m a) as [m0 o] eqn:EL. apply load_acct_ext in EL as (_ & (_ & _ & _ & _ & _ & HL) & _).
+    destruct o; injection E1 as <- _; exact HL.
+Qed.
+
+(** [Unlock]'s loads. *)
+Lemma load_all_ext d l : forall m m' ok,
+  load_all d m l = (m', ok) -> mem_ext d m m' /\ m_addrs m' = m_addrs m.
+Proof.
+  induction l as [|a l IH]; simpl; intros m m' ok.
+  - intros [= <- <-]. split; [apply mem_ext_refl|reflexivity].
+  - destruct (load_acct d m a) as [m1 o] eqn:EL.
+    apply load_acct_ext in EL as (HE & (_ & HA & _) & _).
+    destruct o as [ai|].
+    + intros H. apply IH in H as [H1 H2]. split; [eapply mem_ext_trans; eauto|congruence].
+    + intros [= <- <-]. auto.
 Qed.
 
 (** Projections of an account row *)
@@ -260,10 +374,34 @@ Proof.
   specialize (HU a H1). rewrite Hr, Hr0 in HU. simpl in HU. injection HU as HU1 HU2. simpl. congruence.
 Qed.
 
-Lemma coh_addr_ext m m' d0 d :
-  coh_addr m d0 -> mem_ext d m m' -> d_addrs d ⊆ d_addrs d0 -> coh_addr m' d0.
+(** Every cached account entry has a row, of its kind. *)
+Definition kinds_ok (m : mem) (d : disk) : Prop :=
+  forall a ai, m_accts m !! a = Some ai -> exists r, d_accts d !! a = Some r /\ ai_kind ai = r_kind r.
+
+Lemma kinds_ok_coh m d : coh_idx m d -> coh_name m d -> kinds_ok m d.
 Proof.
-  intros HC (_ & _ & C & _) HS x Hx. destruct (C x Hx) as [H|H]; [apply HC, H|apply HS, H].
+  intros Hi Hn a ai Hai. destruct (Hi a ai Hai) as (r & Hr & _). exists r. split; [exact Hr|].
+  pose proof (Hn a ai r Hai Hr) as Hp. injection Hp as _ Hk. exact Hk.
+Qed.
+
+(** An object built from [d] through account entries of the right kind records
+    what the rows of [d0] say, when [d] shows the same schema. *)
+Lemma built_from_meta d d0 m' x mt :
+  kinds_ok m' d0 -> d_schema d = d_schema d0 ->
+  built_from d m' x mt -> mt = meta_of d0 x.
+Proof.
+  intros Hk Hs. destruct x as [a b i|k|k]; simpl; try (intros ->; rewrite ?Hs; reflexivity).
+  intros (ai & Hai & ->). destruct (Hk a ai Hai) as (r & Hr & Hkk).
+  unfold kind_row. rewrite Hr, Hkk, Hs. reflexivity.
+Qed.
+
+Lemma coh_addr_ext m m' d0 d :
+  coh_addr m d0 -> mem_ext d m m' -> d_addrs d ⊆ d_addrs d0 ->
+  kinds_ok m' d0 -> d_schema d = d_schema d0 -> coh_addr m' d0.
+Proof.
+  intros HC (_ & _ & C & _) HS Hk Hsch x mt Hx.
+  destruct (C x mt Hx) as [H|[H1 H2]]; [apply HC, H|].
+  split; [apply HS, H1|]. eapply built_from_meta; eauto.
 Qed.
 
 Lemma coh_sync_ext m m' d0 d : coh_sync m d0 -> mem_ext d m m' -> coh_sync m' d0.
@@ -274,49 +412,215 @@ Proof. intros H (_ & _ & _ & _ & _ & F). unfold coh_bday. rewrite F. exact H. Qe
 
 Lemma coherent_ext m m' d : coherent m d -> mem_ext d m m' -> coherent m' d.
 Proof.
-  intros (A & B & C & D & E) HE. split; [|split; [|split; [|split]]].
-  - eapply coh_idx_ext; eauto.
-  - eapply coh_name_ext; eauto.
-  - eapply coh_addr_ext; eauto.
+  intros (A & B & C & D & E) HE.
+  assert (A' : coh_idx m' d) by (eapply coh_idx_ext; eauto).
+  assert (B' : coh_name m' d) by (eapply coh_name_ext; eauto).
+  split; [exact A'|split; [exact B'|split; [|split]]].
+  - eapply coh_addr_ext; eauto. apply kinds_ok_coh; assumption.
   - eapply coh_sync_ext; eauto.
   - eapply coh_bday_ext; eauto.
+Qed.
+
+(** ** Facts every step shares *)
+
+(** The schema of the scope never changes; an account row keeps its kind. *)
+Definition kinds_kept (d d' : disk) : Prop :=
+  d_schema d' = d_schema d /\
+  forall a r, d_accts d !! a = Some r -> exists r', d_accts d' !! a = Some r' /\ r_kind r' = r_kind r.
+
+Lemma kinds_kept_refl d : kinds_kept d d.
+Proof. split; eauto. Qed.
+
+Lemma kinds_kept_meta d d' x :
+  kinds_kept d d' -> wfA d -> x ∈ d_addrs d -> meta_of d' x = meta_of d x.
+Proof.
+  intros [Hs Hk] HA Hx. destruct x as [a b i|k|k]; simpl; rewrite ?Hs; try reflexivity.
+  destruct (HA a b i Hx) as [r Hr]. destruct (Hk a r Hr) as (r' & Hr' & Hkk).
+  unfold kind_row. rewrite Hr, Hr', Hkk. reflexivity.
+Qed.
+
+Lemma r_name_set_next b nx r : r_name (row_set_next b nx r) = r_name r.
+Proof. destruct b; reflexivity. Qed.
+Lemma ai_name_set_branch b nx la ai : ai_name (set_branch b nx la ai) = ai_name ai.
+Proof. destruct b; reflexivity. Qed.
+Lemma r_kind_set_next b nx r : r_kind (row_set_next b nx r) = r_kind r.
+Proof. destruct b; reflexivity. Qed.
+Lemma ai_kind_set_branch b nx la ai : ai_kind (set_branch b nx la ai) = ai_kind ai.
+Proof. destruct b; reflexivity. Qed.
+
+Lemma put_chain_kinds a b i cnt d d' :
+  put_chain a b i cnt d = inl d' \/ put_chain a b i cnt d = inr d' -> kinds_kept d d'.
+Proof.
+  unfold put_chain. destruct (d_accts d !! a) as [r0|] eqn:E; intros [H|H]; try discriminate;
+    injection H as <-; split; simpl; auto.
+  - intros a' r Hr. destruct (decide (a' = a)) as [->|Hne].
+    + rewrite lookup_insert. eexists. split; [reflexivity|]. rewrite r_kind_set_next. congruence.
+    + rewrite lookup_insert_ne by congruence. eauto.
+  - eauto.
+Qed.
+
+Lemma rename_switch_eq a nm r d : rename_switch a nm r d = rename_rows a nm r d.
+Proof. unfold rename_switch. destruct (r_kind r); reflexivity. Qed.
+
+Lemma set_synced_fields s t t' r :
+  set_synced s t = (t', r) ->
+  d_accts (t_disk t') = d_accts (t_disk t) /\ d_addrs (t_disk t') = d_addrs (t_disk t) /\
+  m_accts (t_mem t') = m_accts (t_mem t) /\ m_addrs (t_mem t') = m_addrs (t_mem t) /\
+  t_cbs t' = t_cbs t /\ t_ncbs t' = t_ncbs t /\ d_lastacct (t_disk t') = d_lastacct (t_disk t) /\
+  d_schema (t_disk t') = d_schema (t_disk t).
+Proof.
+  unfold set_synced. case_match; intros [= <- <-]; simpl; auto 12.
+Qed.
+
+Lemma new_account_kinds k nm t t' r :
+  wfL (t_disk t) -> new_account k nm t = (t', r) -> kinds_kept (t_disk t) (t_disk t').
+Proof.
+  intros HL H. unfold new_account in H. repeat case_match; simplify_eq; simpl; try apply kinds_kept_refl.
+  split; simpl; auto. intros a r1 Hr1.
+  assert (a <= d_lastacct (t_disk t))%N by (apply HL; eauto).
+  rewrite lookup_insert_ne by lia. eauto.
+Qed.
+
+Lemma rename_rows_kinds a nm r d : d_accts d !! a = Some r -> kinds_kept d (rename_rows a nm r d).
+Proof.
+  intros Hr. split; simpl; auto. intros a' r' Hr'. destruct (decide (a' = a)) as [->|Hne].
+  - rewrite lookup_insert. eexists. split; [reflexivity|]. simpl. congruence.
+  - rewrite lookup_insert_ne by congruence. eauto.
+Qed.
+
+Lemma issue_kinds rbf a b i cnt ai ok t t' r :
+  issue rbf a b i cnt ai ok t = (t', r) -> kinds_kept (t_disk t) (t_disk t').
+Proof.
+  unfold issue. destruct (put_chain a b i cnt (t_disk t)) as [d'|d'] eqn:E; intros [= <- <-]; simpl;
+    eapply put_chain_kinds; eauto.
+Qed.
+
+Lemma step_kinds P o t t' r :
+  wfL (t_disk t) -> step P o t = (t', r) -> kinds_kept (t_disk t) (t_disk t').
+Proof.
+  intros HL.
+  destruct o as [nm|a nm|a b n|a b last|x|s| |tm|s v|x bs pv|q|nm wk| | |a]; simpl; intros HS.
+  - destruct (m_locked (t_mem t)); [injection HS as <- <-; apply kinds_kept_refl|].
+    eapply new_account_kinds; eauto.
+  - repeat case_match; simplify_eq; simpl; try apply kinds_kept_refl;
+      rewrite rename_switch_eq; apply rename_rows_kinds; assumption.
+  - destruct (load_acct (t_disk t) (t_mem t) a) as [m1 [ai|]]; [|injection HS as <- <-; apply kinds_kept_refl].
+    repeat case_match; simplify_eq; simpl; try apply kinds_kept_refl.
+    eapply issue_kinds in HS. exact HS.
+  - destruct (load_acct (t_disk t) (t_mem t) a) as [m1 [ai|]]; [|injection HS as <- <-; apply kinds_kept_refl].
+    destruct (last <? next_of ai b)%N; [injection HS as <- <-; apply kinds_kept_refl|].
+    destruct (max_addrs <? last)%N; [injection HS as <- <-; apply kinds_kept_refl|].
+    destruct (p_ee P).
+    + destruct (put_chain a b (next_of ai b) (last - next_of ai b + 1) (t_disk t)) as [d'|d'] eqn:E;
+        injection HS as <- <-; simpl; eapply put_chain_kinds; eauto.
+    + eapply issue_kinds in HS. exact HS.
+  - injection HS as <- <-. split; simpl; eauto.
+  - apply set_synced_fields in HS as (E1 & _ & _ & _ & _ & _ & _ & E8). split; [exact E8|]. rewrite E1. eauto.
+  - apply set_synced_fields in HS as (E1 & _ & _ & _ & _ & _ & _ & E8). split; [exact E8|]. rewrite E1. eauto.
+  - injection HS as <- <-. split; simpl; eauto.
+  - injection HS as <- <-. split; simpl; eauto.
+  - repeat case_match; simplify_eq; simpl; try apply kinds_kept_refl; split; simpl; eauto.
+  - destruct (read q (t_disk t) (t_mem t)). injection HS as <- <-. apply kinds_kept_refl.
+  - eapply new_account_kinds; eauto.
+  - repeat case_match; simplify_eq; simpl; apply kinds_kept_refl.
+  - repeat case_match; simplify_eq; simpl; apply kinds_kept_refl.
+  - injection HS as <- <-. apply kinds_kept_refl.
+Qed.
+
+Lemma coh_addr_transfer m d d' :
+  coh_addr m d -> wfA d -> kinds_kept d d' -> d_addrs d ⊆ d_addrs d' -> coh_addr m d'.
+Proof.
+  intros HC HA HK HS x mt Hx. destruct (HC x mt Hx) as [H1 ->].
+  split; [apply HS, H1|]. symmetry. apply kinds_kept_meta; assumption.
+Qed.
+
+Definition cb_ok (d : disk) (c : callback) : Prop :=
+  forall x mt, (x, mt) ∈ cb_addrs c -> x ∈ d_addrs d /\ mt = meta_of d x.
+
+Lemma cbs_transfer cbs d d' :
+  Forall (cb_ok d) cbs -> wfA d -> kinds_kept d d' -> d_addrs d ⊆ d_addrs d' -> Forall (cb_ok d') cbs.
+Proof.
+  intros HF HA HK HS. eapply Forall_impl; [|exact HF]. intros c Hc x mt Hx.
+  destruct (Hc x mt Hx) as [H1 ->]. split; [apply HS, H1|]. symmetry. apply kinds_kept_meta; assumption.
 Qed.
 
 (** ** Rolled-back transactions outside K leave memory coherent with the
     committed database *)
 
-Definition AIK (d0 d : disk) (m : mem) (armed issued : bool) : Prop :=
-  coherent m d0 /\ (issued = false -> d_addrs d = d_addrs d0) /\
-  (armed = false -> forall a, m_accts m !! a = None -> d_accts d !! a = d_accts d0 !! a).
+(** Coherence of the account entries outside a set [T] of tainted accounts. *)
+Definition coh_idx_ex (T : list N) (m : mem) (d : disk) : Prop :=
+  forall a ai, a ∉ T -> m_accts m !! a = Some ai ->
+    exists r, d_accts d !! a = Some r /\
+      forall b, next_of ai b = row_next r b /\ last_of ai b = N.pred (row_next r b).
+Definition coh_name_ex (T : list N) (m : mem) (d : disk) : Prop :=
+  forall a ai r, a ∉ T -> m_accts m !! a = Some ai -> d_accts d !! a = Some r ->
+    (ai_name ai, ai_kind ai) = (r_name r, r_kind r).
+
+(** [d0]: the committed database; [d]: the transaction's view; [m]: memory.
+    [armed]: the transaction changed account rows that need not be cached;
+    [issued]: it wrote address rows; [T]: accounts loaded since it was armed
+    and not evicted since. *)
+Definition AIK (d0 d : disk) (m : mem) (armed issued : bool) (T : list N) : Prop :=
+  coh_idx_ex T m d0 /\ coh_name_ex T m d0 /\ coh_addr m d0 /\ coh_sync m d0 /\ coh_bday m d0 /\
+  d_schema d = d_schema d0 /\
+  (issued = false -> d_addrs d = d_addrs d0) /\
+  (armed = false -> T = [] /\ forall a, m_accts m !! a = None -> d_accts d !! a = d_accts d0 !! a).
+
+Lemma coh_idx_ex_nil m d : coh_idx_ex [] m d <-> coh_idx m d.
+Proof. split; intros H a ai; [intros Ha; apply H; [apply not_elem_of_nil|exact Ha]|intros _ Ha; apply H, Ha]. Qed.
+Lemma coh_name_ex_nil m d : coh_name_ex [] m d <-> coh_name m d.
+Proof. split; intros H a ai r; [intros Ha; apply H; [apply not_elem_of_nil|exact Ha]|intros _ Ha; apply H, Ha]. Qed.
 
 Definition arm (o : op) (armed : bool) : bool :=
-  match o with ONewAccount _ | ONewAccountWO _ _ => true | _ => armed end.
+  match o with ONewAccount _ | ONewAccountWO _ _ | ORename _ _ | OInvalidate _ => true | _ => armed end.
 Definition iss (o : op) (issued : bool) : bool :=
-  match o with ONext _ _ _ => true | _ => issued end.
+  match o with ONext _ _ _ | OExtend _ _ _ => true | _ => issued end.
+Definition tnt (o : op) (armed : bool) (T : list N) : list N :=
+  match o with
+  | OExtend a _ _ | ONext a _ _ | ORead (QLast a _) => taint_if armed a T
+  | ORead (QProps a) => if (a =? imported_acct)%N then T else taint_if armed a T
+  | OInvalidate a => rm_taint a T
+  | _ => T
+  end.
 
-Lemma set_synced_accts s t t' r :
-  set_synced s t = (t', r) ->
-  d_accts (t_disk t') = d_accts (t_disk t) /\ d_addrs (t_disk t') = d_addrs (t_disk t) /\
-  m_accts (t_mem t') = m_accts (t_mem t) /\ m_addrs (t_mem t') = m_addrs (t_mem t) /\
-  t_cbs t' = t_cbs t /\ d_lastacct (t_disk t') = d_lastacct (t_disk t).
+Lemma abort_k_next P o ops armed issued T :
+  abort_k P armed issued T (o :: ops) = false ->
+  abort_k P (arm o armed) (iss o issued) (tnt o armed T) ops = false.
 Proof.
-  unfold set_synced. case_match; intros [= <- <-]; simpl; auto 10.
+  destruct o as [nm|a nm|a b n|a b last|x|s| |tm|s v|x bs pv|q|nm wk| | |a]; simpl; try discriminate; auto.
+  - intros H. apply orb_false_iff in H as [_ H]. exact H.
+  - intros H. apply orb_false_iff in H as [_ H]. exact H.
+  - intros H. apply orb_false_iff in H as [_ H]. exact H.
+  - destruct q; simpl; auto. intros H. apply orb_false_iff in H as [_ H]. exact H.
+  - intros H. apply orb_false_iff in H as [_ H]. exact H.
 Qed.
 
-Lemma read_nonloading q d m :
-  loads_cache (ORead q) = false -> (read q d m).1 = m.
-Proof. destruct q; simpl; try discriminate; reflexivity. Qed.
-
-Lemma read_addrs_same q d m :
-  (forall x, q <> QLookup x) -> m_addrs (read q d m).1 = m_addrs m.
+(** Memory changes that keep everything but possibly the lock state and the
+    waiting list, and may drop cached addresses. *)
+Lemma AIK_cong d0 d m armed issued T d' m' :
+  d_accts d' = d_accts d -> d_addrs d' = d_addrs d -> d_schema d' = d_schema d ->
+  m_accts m' = m_accts m -> (forall x mt, m_addrs m' !! x = Some mt -> m_addrs m !! x = Some mt) ->
+  m_synced m' = m_synced m -> m_start m' = m_start m -> m_birthday m' = m_birthday m ->
+  AIK d0 d m armed issued T -> AIK d0 d' m' armed issued T.
 Proof.
-  intros Hq. destruct q as [x|a b|a|nm|a| | |h| | ]; simpl; try reflexivity.
-  - exfalso. eapply Hq. reflexivity.
-  - destruct (load_acct d m a) as [m1 o] eqn:EL. apply load_acct_ext in EL as (_ & HA & _).
-    destruct o; exact HA.
-  - destruct (a =? imported_acct)%N; [reflexivity|].
-    destruct (load_acct d m a) as [m1 o] eqn:EL. apply load_acct_ext in EL as (_ & HA & _).
-    destruct o; exact HA.
+  intros E1 E2 E2' E3 E4 E5 E6 E7 (A & B & C & D & E & S & H2 & H3).
+  unfold AIK, coh_idx_ex, coh_name_ex, coh_sync, coh_bday. rewrite E1, E2, E2', E3, E5, E6, E7.
+  split; [exact A|split; [exact B|split; [|split; [exact D|split; [exact E|split; [exact S|split; [exact H2|exact H3]]]]]]].
+  intros y mt Hy. apply C, E4, Hy.
+Qed.
+
+Lemma AIK_disk d0 d m armed issued T d' armed' issued' :
+  d_schema d' = d_schema d ->
+  (issued' = false -> issued = false /\ d_addrs d' = d_addrs d) ->
+  (armed' = false -> armed = false /\ forall a, m_accts m !! a = None -> d_accts d' !! a = d_accts d !! a) ->
+  AIK d0 d m armed issued T -> AIK d0 d' m armed' issued' T.
+Proof.
+  intros ES HI HA (A & B & C & D & E & S & H2 & H3).
+  unfold AIK.
+  split; [exact A|split; [exact B|split; [exact C|split; [exact D|split; [exact E|split; [congruence|split]]]]]].
+  - intros Hi. destruct (HI Hi) as [-> ->]. auto.
+  - intros Ha. destruct (HA Ha) as [-> HH]. destruct (H3 eq_refl) as [HT H4]. split; [exact HT|].
+    intros a Hn. rewrite (HH a Hn). apply H4, Hn.
 Qed.
 
 Lemma mem_ext_uncached d m m' a :
@@ -329,144 +633,197 @@ Qed.
 (** Cache extension from rows that, for uncached accounts, are the committed
     ones; the address cache does not grow. *)
 Lemma AIK_ext_accts d0 d m m' issued :
-  AIK d0 d m false issued -> mem_ext d m m' -> m_addrs m' = m_addrs m ->
-  AIK d0 d m' false issued.
+  AIK d0 d m false issued [] -> mem_ext d m m' ->
+  (forall x mt, m_addrs m' !! x = Some mt -> m_addrs m !! x = Some mt) ->
+  AIK d0 d m' false issued [].
 Proof.
-  intros ((A & B & C & D & E) & H2 & H3) HE HA. specialize (H3 eq_refl).
-  split; [|split; [exact H2|]].
-  - split; [|split; [|split; [|split]]].
-    + eapply coh_idx_ext; eauto. intros a Ha. rewrite (H3 a Ha). reflexivity.
-    + eapply coh_name_ext; eauto. intros a Ha. rewrite (H3 a Ha). reflexivity.
-    + unfold coh_addr. rewrite HA. exact C.
-    + eapply coh_sync_ext; eauto.
-    + eapply coh_bday_ext; eauto.
-  - intros _ a Ha. apply H3. eapply mem_ext_uncached; eauto.
+  intros (A & B & C & D & E & S & H2 & H3) HE HA. destruct (H3 eq_refl) as [_ H4].
+  apply coh_idx_ex_nil in A. apply coh_name_ex_nil in B.
+  unfold AIK. rewrite coh_idx_ex_nil, coh_name_ex_nil.
+  split; [|split; [|split; [|split; [|split; [|split; [exact S|split; [exact H2|]]]]]]].
+  - eapply coh_idx_ext; eauto. intros a Ha. rewrite (H4 a Ha). reflexivity.
+  - eapply coh_name_ext; eauto. intros a Ha. rewrite (H4 a Ha). reflexivity.
+  - intros x mt Hx. apply C, HA, Hx.
+  - eapply coh_sync_ext; eauto.
+  - eapply coh_bday_ext; eauto.
+  - intros _. split; [reflexivity|]. intros a Ha. apply H4. eapply mem_ext_uncached; eauto.
 Qed.
 
 Lemma AIK_ext_full d0 d m m' :
-  AIK d0 d m false false -> mem_ext d m m' -> AIK d0 d m' false false.
+  AIK d0 d m false false [] -> mem_ext d m m' -> AIK d0 d m' false false [].
 Proof.
-  intros ((A & B & C & D & E) & H2 & H3) HE. specialize (H3 eq_refl). specialize (H2 eq_refl).
-  split; [|split; [auto|]].
-  - split; [|split; [|split; [|split]]].
-    + eapply coh_idx_ext; eauto. intros a Ha. rewrite (H3 a Ha). reflexivity.
-    + eapply coh_name_ext; eauto. intros a Ha. rewrite (H3 a Ha). reflexivity.
-    + eapply coh_addr_ext; eauto. rewrite H2. reflexivity.
-    + eapply coh_sync_ext; eauto.
-    + eapply coh_bday_ext; eauto.
-  - intros _ a Ha. apply H3. eapply mem_ext_uncached; eauto.
+  intros (A & B & C & D & E & S & H2 & H3) HE. destruct (H3 eq_refl) as [_ H4]. specialize (H2 eq_refl).
+  apply coh_idx_ex_nil in A. apply coh_name_ex_nil in B.
+  assert (A' : coh_idx m' d0) by (eapply coh_idx_ext; eauto; intros a Ha; rewrite (H4 a Ha); reflexivity).
+  assert (B' : coh_name m' d0) by (eapply coh_name_ext; eauto; intros a Ha; rewrite (H4 a Ha); reflexivity).
+  unfold AIK. rewrite coh_idx_ex_nil, coh_name_ex_nil.
+  split; [exact A'|split; [exact B'|split; [|split; [|split; [|split; [exact S|split; [auto|]]]]]]].
+  - eapply coh_addr_ext; eauto; [rewrite H2; reflexivity|apply kinds_ok_coh; assumption].
+  - eapply coh_sync_ext; eauto.
+  - eapply coh_bday_ext; eauto.
+  - intros _. split; [reflexivity|]. intros a Ha. apply H4. eapply mem_ext_uncached; eauto.
 Qed.
 
-Lemma AIK_cong d0 d m armed issued d' m' :
-  d_accts d' = d_accts d -> d_addrs d' = d_addrs d ->
-  m_accts m' = m_accts m -> m_addrs m' ⊆ m_addrs m ->
-  m_synced m' = m_synced m -> m_start m' = m_start m -> m_birthday m' = m_birthday m ->
-  AIK d0 d m armed issued -> AIK d0 d' m' armed issued.
+(** After arming, a load of account [a] taints it. *)
+Lemma AIK_taint d0 d m m' issued T a :
+  AIK d0 d m true issued T -> same_but a m m' -> AIK d0 d m' true issued (a :: T).
 Proof.
-  intros E1 E2 E3 E4 E5 E6 E7 ((A & B & C & D & E) & H2 & H3).
-  split; [|split].
-  - split; [|split; [|split; [|split]]].
-    + unfold coh_idx. rewrite E3. exact A.
-    + unfold coh_name. rewrite E3. exact B.
-    + intros x Hx. apply C, E4, Hx.
-    + unfold coh_sync. rewrite E5, E6. exact D.
-    + unfold coh_bday. rewrite E7. exact E.
-  - rewrite E2. exact H2.
-  - rewrite E1, E3. exact H3.
+  intros (A & B & C & D & E & S & H2 & _) (S1 & S2 & S3 & S4 & S5 & _).
+  unfold AIK, coh_sync, coh_bday, coh_addr. rewrite S2, S3, S4, S5.
+  split; [|split; [|split; [exact C|split; [exact D|split; [exact E|split; [exact S|split; [exact H2|discriminate]]]]]]].
+  - intros a' ai Hn Ha'. apply not_elem_of_cons in Hn as [Hne Hn]. rewrite S1 in Ha' by exact Hne. eapply A; eauto.
+  - intros a' ai r Hn Ha'. apply not_elem_of_cons in Hn as [Hne Hn]. rewrite S1 in Ha' by exact Hne. eapply B; eauto.
 Qed.
 
-Lemma AIK_arm d0 d m armed issued : AIK d0 d m armed issued -> AIK d0 d m true issued.
-Proof. intros (A & B & _). split; [exact A|split; [exact B|discriminate]]. Qed.
+Lemma AIK_arm d0 d m armed issued T : AIK d0 d m armed issued T -> AIK d0 d m true issued T.
+Proof.
+  intros (A & B & C & D & E & S & H2 & _). unfold AIK.
+  split; [exact A|split; [exact B|split; [exact C|split; [exact D|split; [exact E|split; [exact S|split; [exact H2|discriminate]]]]]]].
+Qed.
 
-Lemma new_account_AIK d0 k nm t t' r armed issued :
+(** A load ([loadAccountInfo] of [a]) in an aborted transaction. *)
+Lemma AIK_load d0 d m m' o a armed issued T :
+  load_acct d m a = (m', o) -> AIK d0 d m armed issued T ->
+  AIK d0 d m' armed issued (taint_if armed a T).
+Proof.
+  intros HL HI. apply load_acct_ext in HL as (HE & HS & _).
+  destruct armed; simpl.
+  - eapply AIK_taint; eauto.
+  - assert (T = []) as -> by (apply HI; reflexivity).
+    eapply AIK_ext_accts; eauto. destruct HS as (_ & -> & _). auto.
+Qed.
+
+Lemma new_account_AIK d0 k nm t t' r armed issued T :
   new_account k nm t = (t', r) ->
-  AIK d0 (t_disk t) (t_mem t) armed issued -> AIK d0 (t_disk t') (t_mem t') true issued.
+  AIK d0 (t_disk t) (t_mem t) armed issued T -> AIK d0 (t_disk t') (t_mem t') true issued T.
 Proof.
   intros HS HI. apply AIK_arm in HI. unfold new_account in HS.
   repeat case_match; simplify_eq; simpl; try exact HI.
-  destruct HI as (A & B & _). split; [exact A|split; [exact B|discriminate]].
+  eapply AIK_disk; [..|exact HI]; simpl; auto. discriminate.
 Qed.
 
-Lemma abort_k_step rb d0 o ops t t' r armed issued :
-  abort_k rb armed issued (o :: ops) = false ->
-  step rb o t = (t', r) ->
-  AIK d0 (t_disk t) (t_mem t) armed issued ->
-  AIK d0 (t_disk t') (t_mem t') (arm o armed) (iss o issued) /\
-  abort_k rb (arm o armed) (iss o issued) ops = false.
+(** The shared body of issuance / deferred extension, in an aborted
+    transaction, without the read-back. *)
+Lemma issue_AIK d0 a b i cnt ai ok t t' r armed T :
+  issue false a b i cnt ai ok t = (t', r) ->
+  m_accts (t_mem t) !! a = Some ai ->
+  AIK d0 (t_disk t) (t_mem t) armed true T ->
+  AIK d0 (t_disk t') (t_mem t') armed true T.
+Proof.
+  intros HS Ha HI. unfold issue in HS. unfold put_chain in HS.
+  destruct (d_accts (t_disk t) !! a) as [r0|] eqn:Er0; injection HS as <- <-; simpl.
+  - eapply AIK_disk; [..|exact HI]; simpl; auto; try discriminate.
+    intros ->. split; [reflexivity|]. intros a' Ha'. assert (a' <> a) by congruence.
+    rewrite lookup_insert_ne by congruence. reflexivity.
+  - eapply AIK_disk; [..|exact HI]; simpl; auto; discriminate.
+Qed.
+
+Lemma AIK_issued d0 d m armed issued T : AIK d0 d m armed issued T -> AIK d0 d m armed true T.
+Proof. intros HI. eapply AIK_disk; [..|exact HI]; auto; discriminate. Qed.
+
+Lemma rm_taint_spec a a' T : a' ∈ rm_taint a T <-> a' ∈ T /\ a' <> a.
+Proof.
+  unfold rm_taint. rewrite elem_of_list_filter. split.
+  - intros [H1 H2]. split; [exact H2|]. apply negb_prop_elim in H1. intros ->. apply H1. rewrite N.eqb_refl. exact I.
+  - intros [H1 H2]. split; [|exact H1]. apply negb_prop_intro. intros H. apply Is_true_true in H.
+    apply N.eqb_eq in H. contradiction.
+Qed.
+
+Lemma abort_k_step P d0 o ops t t' r armed issued T :
+  abort_k P armed issued T (o :: ops) = false ->
+  step P o t = (t', r) ->
+  AIK d0 (t_disk t) (t_mem t) armed issued T ->
+  AIK d0 (t_disk t') (t_mem t') (arm o armed) (iss o issued) (tnt o armed T).
 Proof.
   intros HK HS HI.
-  destruct o as [nm|a nm|a b n|a b last|x|s| |tm|s v|x bs|q|nm wk]; simpl in HK; try discriminate.
+  destruct o as [nm|a nm|a b n|a b last|x|s| |tm|s v|x bs pv|q|nm wk| | |a]; simpl in HK; try discriminate.
   - (* new account *)
-    split; [|exact HK]. simpl in HS. eapply new_account_AIK; eauto.
+    simpl in HS. destruct (m_locked (t_mem t)); [injection HS as <- <-; eapply AIK_arm; exact HI|].
+    eapply new_account_AIK; eauto.
+  - (* rename, deferred *)
+    apply orb_false_iff in HK as [Hre HK]. simpl in HS. rewrite Hre in HS. apply AIK_arm in HI.
+    repeat case_match; simplify_eq; simpl; try exact HI.
+    rewrite rename_switch_eq. eapply AIK_disk; [..|exact HI]; simpl; auto; discriminate.
   - (* next *)
-    apply orb_false_iff in HK as [HK HK2]. apply orb_false_iff in HK as [-> ->].
-    split; [|exact HK2]. simpl in HS.
+    apply orb_false_iff in HK as [Hrb HK]. simpl in HS. rewrite Hrb in HS.
     destruct (load_acct (t_disk t) (t_mem t) a) as [m1 o] eqn:EL.
-    apply load_acct_ext in EL as (HE & HAd & Ho).
-    pose proof (AIK_ext_accts _ _ _ _ _ HI HE HAd) as HI1.
-    assert (HW : forall d', d_accts d' = d_accts (t_disk t) -> AIK d0 d' m1 false true).
-    { intros d' Hd. destruct HI1 as (A & _ & C). split; [exact A|split; [discriminate|]].
-      intros _ a' Ha'. rewrite Hd. apply C; auto. }
-    destruct o as [ai|]; [|injection HS as <- <-; apply HW; reflexivity].
-    destruct ((max_addrs <? n)%N || (max_addrs <? next_of ai b + n)%N); [injection HS as <- <-; apply HW; reflexivity|].
-    destruct (n =? 0)%N; [injection HS as <- <-; apply HW; reflexivity|].
-    unfold put_chain in HS.
-    destruct (d_accts (t_disk t) !! a) as [r0|] eqn:Er0; injection HS as <- <-; simpl.
-    + destruct HI1 as (A & _ & C). split; [exact A|split; [discriminate|]].
-      intros _ a' Ha'. simpl. assert (a' <> a) by congruence.
-      rewrite lookup_insert_ne by congruence. apply C; auto.
-    + apply HW. reflexivity.
+    pose proof (AIK_load _ _ _ _ _ _ _ _ _ EL HI) as HI1.
+    apply load_acct_ext in EL as (_ & _ & Ho).
+    destruct o as [ai|]; [|injection HS as <- <-; eapply AIK_issued; exact HI1].
+    destruct ((max_addrs <? n)%N || (max_addrs <? next_of ai b + n)%N); [injection HS as <- <-; eapply AIK_issued; exact HI1|].
+    destruct (n =? 0)%N; [injection HS as <- <-; eapply AIK_issued; exact HI1|].
+    eapply issue_AIK in HS; [exact HS|exact Ho|]. eapply AIK_issued. exact HI1.
+  - (* extend, deferred *)
+    apply orb_false_iff in HK as [Hee HK]. simpl in HS. rewrite Hee in HS.
+    destruct (load_acct (t_disk t) (t_mem t) a) as [m1 o] eqn:EL.
+    pose proof (AIK_load _ _ _ _ _ _ _ _ _ EL HI) as HI1.
+    apply load_acct_ext in EL as (_ & _ & Ho).
+    destruct o as [ai|]; [|injection HS as <- <-; eapply AIK_issued; exact HI1].
+    destruct (last <? next_of ai b)%N; [injection HS as <- <-; eapply AIK_issued; exact HI1|].
+    destruct (max_addrs <? last)%N; [injection HS as <- <-; eapply AIK_issued; exact HI1|].
+    eapply issue_AIK in HS; [exact HS|exact Ho|]. eapply AIK_issued. exact HI1.
   - (* mark used *)
-    apply orb_false_iff in HK as [_ HK]. split; [|exact HK].
     simpl in HS. injection HS as <- <-. simpl.
-    eapply AIK_cong; [..|exact HI]; try reflexivity. simpl. set_solver.
+    eapply AIK_cong; [..|exact HI]; try reflexivity. simpl. intros y mt Hy.
+    apply lookup_delete_Some in Hy as [_ Hy]. exact Hy.
   - (* birthday block *)
-    apply orb_false_iff in HK as [_ HK]. split; [|exact HK].
     simpl in HS. injection HS as <- <-. simpl.
-    eapply AIK_cong; [..|exact HI]; reflexivity.
+    eapply AIK_cong; [..|exact HI]; auto.
   - (* read *)
     simpl in HS. destruct (read q (t_disk t) (t_mem t)) as [m' x] eqn:ER. injection HS as <- <-. simpl.
-    destruct q as [y|a b|a|nm|a| | |h| | ]; simpl in HK.
+    destruct q as [y|a b|a|nm|a| | |h| | ]; simpl in HK; simpl tnt;
+      try (simpl in ER; injection ER as <- <-; exact HI).
     + (* lookup: nothing issued, nothing created *)
       apply orb_false_iff in HK as [HK HK2]. apply orb_false_iff in HK as [-> ->].
-      split; [|exact HK2]. eapply AIK_ext_full; [exact HI|]. eapply read_ext; exact ER.
-    + apply orb_false_iff in HK as [HL HK]. split; [|exact HK].
-      rewrite andb_true_r in HL. subst armed.
-      eapply AIK_ext_accts; [exact HI|eapply read_ext; exact ER|].
-      pose proof (read_addrs_same (QLast a b) (t_disk t) (t_mem t)) as HA. rewrite ER in HA.
-      apply HA. discriminate.
-    + apply orb_false_iff in HK as [HL HK]. split; [|exact HK].
-      rewrite andb_true_r in HL. subst armed.
-      eapply AIK_ext_accts; [exact HI|eapply read_ext; exact ER|].
-      pose proof (read_addrs_same (QProps a) (t_disk t) (t_mem t)) as HA. rewrite ER in HA.
-      apply HA. discriminate.
-    + apply orb_false_iff in HK as [_ HK]. split; [|exact HK]. simpl in ER. injection ER as <- <-. exact HI.
-    + apply orb_false_iff in HK as [_ HK]. split; [|exact HK]. simpl in ER. injection ER as <- <-. exact HI.
-    + apply orb_false_iff in HK as [_ HK]. split; [|exact HK]. simpl in ER. injection ER as <- <-. exact HI.
-    + apply orb_false_iff in HK as [_ HK]. split; [|exact HK]. simpl in ER. injection ER as <- <-. exact HI.
-    + apply orb_false_iff in HK as [_ HK]. split; [|exact HK]. simpl in ER. injection ER as <- <-. exact HI.
-    + apply orb_false_iff in HK as [_ HK]. split; [|exact HK]. simpl in ER. injection ER as <- <-. exact HI.
-    + apply orb_false_iff in HK as [_ HK]. split; [|exact HK]. simpl in ER. injection ER as <- <-. exact HI.
+      assert (T = []) as -> by (apply HI; reflexivity).
+      eapply AIK_ext_full; [exact HI|]. eapply read_ext; exact ER.
+    + simpl in ER. destruct (load_acct (t_disk t) (t_mem t) a) as [m1 o] eqn:EL.
+      pose proof (AIK_load _ _ _ _ _ _ _ _ _ EL HI) as HI1.
+      destruct o; injection ER as <- <-; exact HI1.
+    + simpl in ER. destruct (a =? imported_acct)%N; [injection ER as <- <-; exact HI|].
+      destruct (load_acct (t_disk t) (t_mem t) a) as [m1 o] eqn:EL.
+      pose proof (AIK_load _ _ _ _ _ _ _ _ _ EL HI) as HI1.
+      destruct o; injection ER as <- <-; exact HI1.
   - (* new watch-only account *)
-    split; [|exact HK]. simpl in HS. eapply new_account_AIK; eauto.
+    simpl in HS. eapply new_account_AIK; eauto.
+  - (* lock *)
+    simpl in HS. destruct (m_locked (t_mem t)); injection HS as <- <-; [exact HI|].
+    simpl. eapply AIK_cong; [..|exact HI]; auto.
+  - (* unlock *)
+    apply orb_false_iff in HK as [-> HK]. simpl in HS.
+    destruct (negb (m_locked (t_mem t))); [injection HS as <- <-; exact HI|].
+    destruct (load_all (t_disk t) (t_mem t) (m_pending (t_mem t))) as [m1 ok] eqn:EL.
+    apply load_all_ext in EL as [HE HA].
+    assert (T = []) as -> by (apply HI; reflexivity).
+    assert (HI1 : AIK d0 (t_disk t) m1 false issued []).
+    { eapply AIK_ext_accts; eauto. rewrite HA. auto. }
+    destruct ok; injection HS as <- <-; simpl; [|exact HI1].
+    eapply AIK_cong; [..|exact HI1]; auto.
+  - (* invalidate *)
+    simpl in HS. injection HS as <- <-. simpl.
+    destruct HI as (A & B & C & D & E & S & H2 & _).
+    unfold AIK. split; [|split; [|split; [exact C|split; [exact D|split; [exact E|split; [exact S|split; [exact H2|discriminate]]]]]]].
+    + intros a' ai Hn Ha'. simpl in Ha'. apply lookup_delete_Some in Ha' as [Hne Ha'].
+      eapply A; eauto. intros Hin. apply Hn, rm_taint_spec. auto.
+    + intros a' ai r0 Hn Ha'. simpl in Ha'. apply lookup_delete_Some in Ha' as [Hne Ha'].
+      eapply B; eauto. intros Hin. apply Hn, rm_taint_spec. auto.
 Qed.
 
-Lemma abort_k_ops rb d0 ops : forall t t' outs armed issued,
-  abort_k rb armed issued ops = false ->
-  run_ops rb ops t = (t', outs) ->
-  AIK d0 (t_disk t) (t_mem t) armed issued ->
+Lemma abort_k_ops P d0 ops : forall t t' outs armed issued T,
+  abort_k P armed issued T ops = false ->
+  run_ops P ops t = (t', outs) ->
+  AIK d0 (t_disk t) (t_mem t) armed issued T ->
   coherent (t_mem t') d0.
 Proof.
-  induction ops as [|o ops IH]; simpl; intros t t' outs armed issued HK HR HI.
-  - injection HR as <- <-. apply HI.
-  - destruct (step rb o t) as [t1 x] eqn:ES.
-    destruct (run_ops rb ops t1) as [t2 xs] eqn:ER. injection HR as <- <-.
-    destruct (abort_k_step rb d0 o ops t t1 x armed issued HK ES HI) as [HI1 HK1].
-    eapply IH; eauto.
+  induction ops as [|o ops IH]; simpl; intros t t' outs armed issued T HK HR HI.
+  - injection HR as <- <-. destruct T; [|discriminate].
+    destruct HI as (A & B & C & D & E & _). apply coh_idx_ex_nil in A. apply coh_name_ex_nil in B.
+    split; [exact A|split; [exact B|split; [exact C|split; [exact D|exact E]]]].
+  - destruct (step P o t) as [t1 x] eqn:ES.
+    destruct (run_ops P ops t1) as [t2 xs] eqn:ER. injection HR as <- <-.
+    pose proof (abort_k_step P d0 o ops t t1 x armed issued T HK ES HI) as HI1.
+    eapply IH; [|exact ER|exact HI1]. apply abort_k_next. exact HK.
 Qed.
-
-Lemma rename_switch_eq a nm r d : rename_switch a nm r d = rename_rows a nm r d.
-Proof. unfold rename_switch. destruct (r_kind r); reflexivity. Qed.
 
 (** ** Committed transactions: next indices *)
 
@@ -566,17 +923,27 @@ Proof. destruct b; reflexivity. Qed.
 Lemma last_of_set_name nm ai b : last_of (set_name nm ai) b = last_of ai b.
 Proof. destruct b; reflexivity. Qed.
 
+Lemma run_cb_accts c m :
+  m_accts (run_cb c m) =
+  match m_accts m !! cb_acct c with
+  | Some ai => <[cb_acct c := set_branch (cb_branch c) (cb_next c) (cb_last c) ai]> (m_accts m)
+  | None => m_accts m
+  end.
+Proof.
+  unfold run_cb. destruct (m_locked m && cb_priv c); simpl; destruct (m_accts m !! cb_acct c); reflexivity.
+Qed.
+
 Lemma TI_idx_run_cb d m c cbs pend :
   TI_idx d m (c :: cbs) pend -> TI_idx d (run_cb c m) cbs pend.
 Proof.
   intros (A & B & C). inversion B as [|c0 l [[ai Hai] Hp] B']; subst.
-  unfold run_cb. simpl. rewrite Hai.
+  unfold TI_idx, cached. rewrite run_cb_accts, Hai.
   split; [exact A|]. split.
   - eapply Forall_impl; [|exact B']. intros c' [[ai' H1] H2]. split; [|exact H2].
-    unfold cached. simpl. destruct (decide (cb_acct c' = cb_acct c)) as [->|Hne].
+    destruct (decide (cb_acct c' = cb_acct c)) as [->|Hne].
     + rewrite lookup_insert. eauto.
     + rewrite lookup_insert_ne by congruence. eauto.
-  - simpl. intros a ai' Ha. destruct (decide (a = cb_acct c)) as [->|Hne].
+  - intros a ai' Ha. destruct (decide (a = cb_acct c)) as [->|Hne].
     + rewrite lookup_insert in Ha. injection Ha as <-.
       destruct (C _ _ Hai) as (r & Hr & Hb). exists r. split; [exact Hr|].
       intros b. specialize (Hb b). rewrite eff_cons in Hb.
@@ -588,18 +955,45 @@ Proof.
       intros b. specialize (Hb b). rewrite eff_cons, cb_match_acct in Hb by congruence. exact Hb.
 Qed.
 
-Lemma TI_idx_settle cbs : forall d m pend,
-  TI_idx d m cbs pend -> TI_idx d (settle cbs m) [] pend.
+Lemma TI_idx_run_ncb d m c cbs pend :
+  TI_idx d m cbs pend -> TI_idx d (run_ncb c m) cbs pend.
 Proof.
-  induction cbs as [|c cbs IH]; intros d m pend H; [exact H|].
-  simpl. apply IH. apply TI_idx_run_cb. exact H.
+  intros (A & B & C). unfold run_ncb. destruct (m_accts m !! c.1) as [ai|] eqn:Eai; [|split; auto].
+  split; [exact A|]. split.
+  - eapply Forall_impl; [|exact B]. intros c' [[ai' H1] H2]. split; [|exact H2].
+    unfold cached; simpl. destruct (decide (cb_acct c' = c.1)) as [->|Hne].
+    + rewrite lookup_insert. eauto.
+    + rewrite lookup_insert_ne by congruence. eauto.
+  - simpl. intros a ai' Ha. destruct (decide (a = c.1)) as [->|Hne].
+    + rewrite lookup_insert in Ha. injection Ha as <-.
+      destruct (C _ _ Eai) as (r & Hr & Hb). exists r. split; [exact Hr|].
+      intros b. rewrite next_of_set_name, last_of_set_name. apply Hb.
+    + rewrite lookup_insert_ne in Ha by congruence. apply C; exact Ha.
 Qed.
 
-Definition pend_of (o : op) (pend : list (N * bool)) : list (N * bool) :=
-  match o with ONext a b _ => (a, b) :: pend | _ => pend end.
+Lemma TI_idx_settle cbs : forall ncbs d m pend,
+  TI_idx d m cbs pend -> TI_idx d (settle cbs ncbs m) [] pend.
+Proof.
+  induction cbs as [|c cbs IH]; intros ncbs d m pend H.
+  - unfold settle. simpl. revert m H. induction ncbs as [|n ncbs IHn]; intros m H; [exact H|].
+    simpl. apply IHn. apply TI_idx_run_ncb. exact H.
+  - unfold settle. simpl. apply (IH ncbs). apply TI_idx_run_cb. exact H.
+Qed.
 
-Lemma pred_plus i n : (n <> 0)%N -> N.pred (i + n) = (i + n - 1)%N.
-Proof. lia. Qed.
+Definition pend_of (P : params) (o : op) (pend : list (N * bool)) : list (N * bool) :=
+  match o with
+  | ONext a b _ => (a, b) :: pend
+  | OExtend a b _ => if p_ee P then pend else (a, b) :: pend
+  | _ => pend
+  end.
+
+Lemma commit_k_idx_next P o ops pend :
+  commit_k_idx P pend (o :: ops) = false -> commit_k_idx P (pend_of P o pend) ops = false.
+Proof.
+  destruct o as [nm|a nm|a b n|a b last|x|s| |tm|s v|x bs pv|q|nm wk| | |a]; simpl; auto.
+  - destruct (p_ee P); auto. intros H. apply orb_false_iff in H as [_ H]. exact H.
+  - intros H. apply orb_false_iff in H as [_ H]. exact H.
+Qed.
 
 Lemma new_account_TI_idx k nm t t' r pend :
   new_account k nm t = (t', r) ->
@@ -615,48 +1009,75 @@ Proof.
     rewrite lookup_insert_ne by lia. exact Hr0.
 Qed.
 
-Lemma commit_idx_step rb o ops t t' r pend :
-  commit_k_idx pend (o :: ops) = false ->
-  step rb o t = (t', r) ->
+(** The shared body of issuance / deferred extension in a committed
+    transaction: a closure is appended whose values are the new row's. *)
+Lemma issue_TI_idx rbf a b i cnt ai ok t t' r pend :
+  issue rbf a b i cnt ai ok t = (t', r) ->
+  m_accts (t_mem t) !! a = Some ai -> (cnt <> 0)%N ->
   TI_idx (t_disk t) (t_mem t) (t_cbs t) pend ->
-  TI_idx (t_disk t') (t_mem t') (t_cbs t') (pend_of o pend) /\
-  commit_k_idx (pend_of o pend) ops = false.
+  TI_idx (t_disk t') (t_mem t') (t_cbs t') ((a, b) :: pend).
+Proof.
+  intros HS Ho Hcnt (A & B & C).
+  destruct (C a ai Ho) as (r0 & Hr0 & Hb0).
+  unfold issue, put_chain in HS. rewrite Hr0 in HS. injection HS as <- <-. simpl.
+  match goal with |- TI_idx ?d' _ ?cbs' ?pend' => assert (G : TI_idx d' (t_mem t) cbs' pend') end.
+  2:{ eapply TI_idx_cong; [..|exact G]; try reflexivity. destruct rbf; [np; reflexivity|reflexivity]. }
+  split; [|split].
+  - intros a' Ha'. simpl in *. destruct (decide (a' = a)) as [->|Hne]; [apply A; eauto|].
+    rewrite lookup_insert_ne in Ha' by congruence. apply A; exact Ha'.
+  - apply Forall_app. split.
+    + eapply Forall_impl; [|exact B]. intros c [Hq1 Hq2]. split; [exact Hq1|]. apply elem_of_cons; auto.
+    + constructor; [|constructor]. simpl. split; [eexists; exact Ho|]. apply elem_of_cons; auto.
+  - simpl. intros a' ai' Ha'. destruct (decide (a' = a)) as [->|Hne].
+    + assert (ai' = ai) by congruence. subst ai'.
+      rewrite lookup_insert. eexists. split; [reflexivity|].
+      intros b'. rewrite eff_snoc, row_next_set. unfold cb_match. simpl. rewrite N.eqb_refl. simpl.
+      destruct (Bool.eqb b b') eqn:Eb.
+      * reflexivity.
+      * apply Hb0.
+    + rewrite lookup_insert_ne by congruence.
+      destruct (C a' ai' Ha') as (r1 & Hr1 & Hb1). exists r1. split; [exact Hr1|].
+      intros b'. rewrite eff_snoc, cb_match_acct by (simpl; congruence). apply Hb1.
+Qed.
+
+Lemma cache_all_accts l m : m_accts (cache_all l m) = m_accts m.
+Proof. reflexivity. Qed.
+
+Lemma commit_idx_step P o ops t t' r pend :
+  commit_k_idx P pend (o :: ops) = false ->
+  step P o t = (t', r) ->
+  TI_idx (t_disk t) (t_mem t) (t_cbs t) pend ->
+  TI_idx (t_disk t') (t_mem t') (t_cbs t') (pend_of P o pend).
 Proof.
   intros HK HS HT.
-  destruct o as [nm|a nm|a b n|a b last|x|s| |tm|s v|x bs|q|nm wk]; simpl in HK.
+  destruct o as [nm|a nm|a b n|a b last|x|s| |tm|s v|x bs pv|q|nm wk| | |a]; simpl in HK.
   - (* new account *)
-    split; [|exact HK]. simpl in HS. eapply new_account_TI_idx; eauto.
+    simpl in HS. destruct (m_locked (t_mem t)); [injection HS as <- <-; exact HT|].
+    eapply new_account_TI_idx; eauto.
   - (* rename *)
-    split; [|exact HK]. simpl in HS.
-    repeat case_match; simplify_eq; simpl; try exact HT.
-    all: rewrite rename_switch_eq; unfold rename_rows; simpl.
-    + (* cached *)
-      destruct HT as (A & B & C). split; [|split].
-      * intros a' Ha'. simpl in *. destruct (decide (a' = a)) as [->|Hne]; [apply A; eauto|].
+    simpl in HS.
+    destruct (a =? imported_acct)%N; [injection HS as <- <-; exact HT|].
+    destruct (bool_decide (is_Some (d_nameidx (t_disk t) !! nm))); [injection HS as <- <-; exact HT|].
+    destruct (bad_name nm); [injection HS as <- <-; exact HT|].
+    destruct (d_accts (t_disk t) !! a) as [r0|] eqn:Er0; [|injection HS as <- <-; exact HT].
+    rewrite rename_switch_eq in HS.
+    (* the rows: same indices under a new name *)
+    assert (HD : TI_idx (rename_rows a nm r0 (t_disk t)) (t_mem t) (t_cbs t) pend).
+    { destruct HT as (A & B & C). split; [|split; [exact B|]].
+      - intros a' Ha'. simpl in *. destruct (decide (a' = a)) as [->|Hne]; [apply A; eauto|].
         rewrite lookup_insert_ne in Ha' by congruence. apply A; exact Ha'.
-      * eapply Forall_impl; [|exact B]. intros c [[ai' Hq1] Hq2]. split; [|exact Hq2].
-        unfold cached; simpl. destruct (decide (cb_acct c = a)) as [->|Hne].
-        -- rewrite lookup_insert. eauto.
-        -- rewrite lookup_insert_ne by congruence. eauto.
-      * simpl. intros a' ai' Ha'. destruct (decide (a' = a)) as [->|Hne].
-        -- rewrite lookup_insert in Ha'. injection Ha' as <-.
-           match goal with H : m_accts (t_mem t) !! a = Some ?ai0 |- _ =>
-             destruct (C a ai0 H) as (r0 & Hr0 & Hb) end.
-           rewrite lookup_insert. eexists. split; [reflexivity|].
-           intros b0. rewrite next_of_set_name, last_of_set_name, row_next_set_name.
-           assert (r0 = a0) by congruence. subst. apply Hb.
-        -- rewrite lookup_insert_ne in Ha' by congruence. rewrite lookup_insert_ne by congruence.
-           apply C; exact Ha'.
-    + (* not cached *)
-      destruct HT as (A & B & C). split; [|split; [exact B|]].
-      * intros a' Ha'. simpl in *. destruct (decide (a' = a)) as [->|Hne]; [apply A; eauto|].
-        rewrite lookup_insert_ne in Ha' by congruence. apply A; exact Ha'.
-      * simpl. intros a' ai' Ha'. assert (a' <> a) by congruence.
-        rewrite lookup_insert_ne by congruence. apply C; exact Ha'.
+      - simpl. intros a' ai' Ha'. destruct (decide (a' = a)) as [->|Hne].
+        + rewrite lookup_insert. eexists. split; [reflexivity|].
+          destruct (C a ai' Ha') as (r1 & Hr1 & Hb1). assert (r1 = r0) by congruence. subst r1.
+          intros b0. rewrite row_next_set_name. apply Hb1.
+        + rewrite lookup_insert_ne by congruence. apply C; exact Ha'. }
+    destruct (p_re P); injection HS as <- <-; simpl; [|exact HD].
+    destruct (m_accts (t_mem t) !! a) as [ai|] eqn:Eai; [|exact HD].
+    apply (TI_idx_run_ncb _ _ (a, nm)) in HD. unfold run_ncb in HD. simpl in HD. rewrite Eai in HD. exact HD.
   - (* next *)
-    split; [|exact HK]. simpl in HS.
+    simpl in HS.
     destruct (load_acct (t_disk t) (t_mem t) a) as [m1 o] eqn:EL.
-    apply load_acct_ext in EL as (HE & HAd & Ho).
+    apply load_acct_ext in EL as (HE & _ & Ho).
     pose proof (TI_idx_ext _ _ _ _ _ HT HE) as HT1.
     destruct o as [ai|].
     2:{ injection HS as <- <-. simpl. apply TI_idx_pend. exact HT1. }
@@ -665,43 +1086,25 @@ Proof.
     destruct (n =? 0)%N eqn:En.
     { injection HS as <- <-. simpl. apply TI_idx_pend. exact HT1. }
     apply N.eqb_neq in En.
-    destruct HT1 as (A & B & C).
-    destruct (C a ai Ho) as (r0 & Hr0 & Hb0).
-    unfold put_chain in HS. rewrite Hr0 in HS. injection HS as <- <-. simpl.
-    match goal with |- TI_idx ?d' _ ?cbs' ?pend' => assert (G : TI_idx d' m1 cbs' pend') end.
-    2:{ eapply TI_idx_cong; [..|exact G]; try reflexivity. destruct rb; reflexivity. }
-    split; [|split].
-    + intros a' Ha'. simpl in *. destruct (decide (a' = a)) as [->|Hne]; [apply A; eauto|].
-      rewrite lookup_insert_ne in Ha' by congruence. apply A; exact Ha'.
-    + apply Forall_app. split.
-      * eapply Forall_impl; [|exact B]. intros c [Hq1 Hq2]. split; [exact Hq1|]. apply elem_of_cons; auto.
-      * constructor; [|constructor]. simpl. split; [eexists; exact Ho|]. apply elem_of_cons; auto.
-    + simpl. intros a' ai' Ha'. destruct (decide (a' = a)) as [->|Hne].
-      * assert (ai' = ai) by congruence. subst ai'.
-        rewrite lookup_insert. eexists. split; [reflexivity|].
-        intros b'. rewrite eff_snoc, row_next_set. unfold cb_match. simpl. rewrite N.eqb_refl. simpl.
-        destruct (Bool.eqb b b') eqn:Eb.
-        -- reflexivity.
-        -- apply Hb0.
-      * rewrite lookup_insert_ne by congruence.
-        destruct (C a' ai' Ha') as (r1 & Hr1 & Hb1). exists r1. split; [exact Hr1|].
-        intros b'. rewrite eff_snoc, cb_match_acct by (simpl; congruence). apply Hb1.
+    eapply issue_TI_idx in HS; [exact HS|exact Ho|exact En|exact HT1].
   - (* extend *)
-    apply orb_false_iff in HK as [HP HK]. split; [|exact HK].
-    apply bool_decide_eq_false in HP.
     simpl in HS.
+    change (pend_of P (OExtend a b last) pend) with (if p_ee P then pend else (a, b) :: pend).
     destruct (load_acct (t_disk t) (t_mem t) a) as [m1 o] eqn:EL.
-    apply load_acct_ext in EL as (HE & HAd & Ho).
+    apply load_acct_ext in EL as (HE & _ & Ho).
     pose proof (TI_idx_ext _ _ _ _ _ HT HE) as HT1.
+    assert (HW : TI_idx (t_disk t) m1 (t_cbs t) (if p_ee P then pend else (a, b) :: pend)).
+    { destruct (p_ee P); [exact HT1|apply TI_idx_pend; exact HT1]. }
     destruct o as [ai|].
-    2:{ injection HS as <- <-. simpl. exact HT1. }
+    2:{ injection HS as <- <-. simpl. exact HW. }
     destruct (last <? next_of ai b)%N eqn:El.
-    { injection HS as <- <-. simpl. exact HT1. }
+    { injection HS as <- <-. simpl. exact HW. }
     apply N.ltb_ge in El.
     destruct (max_addrs <? last)%N.
-    { injection HS as <- <-. simpl. exact HT1. }
-    destruct (bool_decide (is_Some (ai_kind ai))).
-    { injection HS as <- <-. simpl. exact HT1. }
+    { injection HS as <- <-. simpl. exact HW. }
+    destruct (p_ee P) eqn:Eee.
+    2:{ eapply issue_TI_idx in HS; [exact HS|exact Ho|lia|exact HT1]. }
+    apply orb_false_iff in HK as [HP HK]. apply bool_decide_eq_false in HP.
     destruct HT1 as (A & B & C).
     destruct (C a ai Ho) as (r0 & Hr0 & Hb0).
     unfold put_chain in HS. rewrite Hr0 in HS. injection HS as <- <-. simpl.
@@ -712,10 +1115,10 @@ Proof.
     + intros a' Ha'. simpl in *. destruct (decide (a' = a)) as [->|Hne]; [apply A; eauto|].
       rewrite lookup_insert_ne in Ha' by congruence. apply A; exact Ha'.
     + eapply Forall_impl; [|exact B]. intros c [[ai' Hq1] Hq2]. split; [|exact Hq2].
-      unfold cached; simpl. destruct (decide (cb_acct c = a)) as [->|Hne].
+      unfold cached; simpl. np. simpl. destruct (decide (cb_acct c = a)) as [->|Hne].
       * rewrite lookup_insert. eauto.
       * rewrite lookup_insert_ne by congruence. eauto.
-    + simpl. intros a' ai' Ha'. destruct (decide (a' = a)) as [->|Hne].
+    + simpl. np. simpl. intros a' ai' Ha'. destruct (decide (a' = a)) as [->|Hne].
       * rewrite lookup_insert in Ha'. injection Ha' as <-.
         rewrite lookup_insert. eexists. split; [reflexivity|].
         intros b'. rewrite next_of_set_branch, last_of_set_branch, row_next_set.
@@ -726,46 +1129,131 @@ Proof.
       * rewrite lookup_insert_ne in Ha' by congruence. rewrite lookup_insert_ne by congruence.
         apply C; exact Ha'.
   - (* mark used *)
-    split; [|exact HK]. simpl in HS. injection HS as <- <-. simpl.
+    simpl in HS. injection HS as <- <-. simpl.
     eapply TI_idx_cong; [..|exact HT]; reflexivity.
   - (* set synced *)
-    split; [|exact HK]. simpl in HS. apply set_synced_accts in HS as (E1 & _ & E3 & _ & E5 & E6).
+    simpl in HS. apply set_synced_fields in HS as (E1 & _ & E3 & _ & E5 & _ & E6 & _).
     rewrite E5. eapply TI_idx_cong; [..|exact HT]; assumption.
-  - split; [|exact HK]. simpl in HS. apply set_synced_accts in HS as (E1 & _ & E3 & _ & E5 & E6).
+  - simpl in HS. apply set_synced_fields in HS as (E1 & _ & E3 & _ & E5 & _ & E6 & _).
     rewrite E5. eapply TI_idx_cong; [..|exact HT]; assumption.
-  - split; [|exact HK]. simpl in HS. injection HS as <- <-. simpl.
+  - simpl in HS. injection HS as <- <-. simpl.
     eapply TI_idx_cong; [..|exact HT]; reflexivity.
-  - split; [|exact HK]. simpl in HS. injection HS as <- <-. simpl.
+  - simpl in HS. injection HS as <- <-. simpl.
     eapply TI_idx_cong; [..|exact HT]; reflexivity.
   - (* import *)
-    split; [|exact HK]. simpl in HS.
+    simpl in HS.
     repeat case_match; simplify_eq; simpl; try exact HT;
       (eapply TI_idx_cong; [..|exact HT]; reflexivity).
   - (* read *)
-    split; [|exact HK]. simpl in HS.
+    simpl in HS.
     destruct (read q (t_disk t) (t_mem t)) as [m' x] eqn:ER. injection HS as <- <-. simpl.
     eapply TI_idx_ext; [exact HT|]. eapply read_ext; exact ER.
   - (* new watch-only account *)
-    split; [|exact HK]. simpl in HS. eapply new_account_TI_idx; eauto.
+    simpl in HS. eapply new_account_TI_idx; eauto.
+  - (* lock *)
+    simpl in HS. destruct (m_locked (t_mem t)); injection HS as <- <-; [exact HT|].
+    simpl. eapply TI_idx_cong; [..|exact HT]; reflexivity.
+  - (* unlock *)
+    simpl in HS. destruct (negb (m_locked (t_mem t))); [injection HS as <- <-; exact HT|].
+    destruct (load_all (t_disk t) (t_mem t) (m_pending (t_mem t))) as [m1 ok] eqn:EL.
+    apply load_all_ext in EL as [HE _].
+    pose proof (TI_idx_ext _ _ _ _ _ HT HE) as HT1.
+    destruct ok; injection HS as <- <-; simpl; [|exact HT1].
+    eapply TI_idx_cong; [..|exact HT1]; reflexivity.
+  - (* invalidate: no closure is pending for the account *)
+    apply orb_false_iff in HK as [HP HK].
+    simpl in HS. injection HS as <- <-. simpl.
+    destruct HT as (A & B & C). split; [exact A|split].
+    + eapply Forall_impl; [|exact B]. intros c [[ai' Hq1] Hq2]. split; [|exact Hq2].
+      unfold cached; simpl. rewrite lookup_delete_ne; [eauto|].
+      intros Heq. assert (HX : existsb (fun p : N * bool => (p.1 =? a)%N) pend = true); [|congruence].
+      apply existsb_exists. exists (cb_acct c, cb_branch c). split; [apply elem_of_list_In; exact Hq2|].
+      simpl. apply N.eqb_eq. congruence.
+    + simpl. intros a' ai' Ha'. apply lookup_delete_Some in Ha' as [_ Ha']. apply C; exact Ha'.
+Qed.
+
+(** Index part alone (holds whatever the other components look like). *)
+Lemma commit_ops_idx P ops : forall t t' outs pend,
+  commit_k_idx P pend ops = false ->
+  run_ops P ops t = (t', outs) ->
+  TI_idx (t_disk t) (t_mem t) (t_cbs t) pend ->
+  exists pend', TI_idx (t_disk t') (t_mem t') (t_cbs t') pend'.
+Proof.
+  induction ops as [|o ops IH]; simpl; intros t t' outs pend HK HR HI.
+  - injection HR as <- <-. eauto.
+  - destruct (step P o t) as [t1 x] eqn:ES.
+    destruct (run_ops P ops t1) as [t2 xs] eqn:ER. injection HR as <- <-.
+    pose proof (commit_idx_step P o ops t t1 x pend HK ES HI) as HI1.
+    eapply IH; [|exact ER|exact HI1]. apply commit_k_idx_next. exact HK.
 Qed.
 
 (** ** Committed transactions: names, address cache, sync state, birthday *)
 
-Definition TI_rest (d : disk) (m : mem) (cbs : list callback) : Prop :=
-  coh_name m d /\ coh_addr m d /\
-  Forall (fun c => forall x, x ∈ cb_addrs c -> x ∈ d_addrs d) cbs /\
-  wfA d /\ coh_sync m d /\ coh_bday m d.
+(** The cached name of account [a] once the pending rename closures have run. *)
+Definition eff_name (ncbs : list (N * N)) (a : N) (v : N) : N :=
+  fold_left (fun v c => if (c.1 =? a)%N then c.2 else v) ncbs v.
+
+Lemma eff_name_cons c l a v : eff_name (c :: l) a v = eff_name l a (if (c.1 =? a)%N then c.2 else v).
+Proof. reflexivity. Qed.
+Lemma eff_name_snoc c l a v : eff_name (l ++ [c]) a v = if (c.1 =? a)%N then c.2 else eff_name l a v.
+Proof. unfold eff_name. rewrite fold_left_app. reflexivity. Qed.
+Lemma eff_name_nomatch l a v : Forall (fun c : N * N => c.1 <> a) l -> eff_name l a v = v.
+Proof.
+  induction 1 as [|c l Hc _ IH]; [reflexivity|]. rewrite eff_name_cons.
+  apply N.eqb_neq in Hc. rewrite Hc. exact IH.
+Qed.
+Lemma eff_name_indep l a : forall v v', Exists (fun c : N * N => c.1 = a) l -> eff_name l a v = eff_name l a v'.
+Proof.
+  induction l as [|c l IH]; intros v v' H; [inversion H|].
+  rewrite !eff_name_cons. destruct (c.1 =? a)%N eqn:E; [reflexivity|].
+  apply IH. inversion H as [? ? Hc|? ? Hl]; subst; [|exact Hl]. apply N.eqb_neq in E. contradiction.
+Qed.
+Lemma eff_name_cases l a : Forall (fun c : N * N => c.1 <> a) l \/ Exists (fun c : N * N => c.1 = a) l.
+Proof.
+  induction l as [|c l [IH|IH]]; [left; constructor| |right; constructor 2; exact IH].
+  destruct (decide (c.1 = a)) as [E|E]; [right; constructor; exact E|left; constructor; assumption].
+Qed.
+
+Definition TI_rest (P : params) (d : disk) (m : mem) (cbs : list callback) (ncbs : list (N * N)) : Prop :=
+  (forall a ai r, m_accts m !! a = Some ai -> d_accts d !! a = Some r ->
+     (eff_name ncbs a (ai_name ai), ai_kind ai) = (r_name r, r_kind r)) /\
+  (forall a r v, d_accts d !! a = Some r -> Exists (fun c : N * N => c.1 = a) ncbs -> eff_name ncbs a v = r_name r) /\
+  Forall (fun c : N * N => is_Some (d_accts d !! c.1)) ncbs /\
+  (p_re P = true -> ncbs = []) /\
+  coh_addr m d /\ Forall (cb_ok d) cbs /\ wfA d /\ coh_sync m d /\ coh_bday m d.
 
 Definition is_synced_nil (o : op) : bool := match o with OSetSyncedNil => true | _ => false end.
 
-Lemma TI_rest_ext d m m' cbs : TI_rest d m cbs -> mem_ext d m m' -> TI_rest d m' cbs.
+Lemma TI_kinds P d m cbs pend cbs' ncbs :
+  TI_idx d m cbs pend -> TI_rest P d m cbs' ncbs -> kinds_ok m d.
 Proof.
-  intros (A & B & C & D & E & F) HE. repeat split; auto.
-  - eapply coh_name_ext; eauto.
+  intros (_ & _ & C) (A & _) a ai Hai. destruct (C a ai Hai) as (r & Hr & _). exists r. split; [exact Hr|].
+  pose proof (A a ai r Hai Hr) as Hp. injection Hp as _ Hk. exact Hk.
+Qed.
+
+Lemma TI_rest_ext P d m m' cbs ncbs :
+  TI_rest P d m cbs ncbs -> mem_ext d m m' -> kinds_ok m' d -> TI_rest P d m' cbs ncbs.
+Proof.
+  intros (A & A2 & A3 & A4 & B & C & D & E & F) HE Hk.
+  split; [|split; [exact A2|split; [exact A3|split; [exact A4|split; [|split; [exact C|split; [exact D|split]]]]]]].
+  - intros a ai r Ha Hr. destruct HE as (_ & E2 & _).
+    destruct (E2 a ai Ha) as [H|(H & r' & Hr' & ->)]; [eapply A; eauto|].
+    assert (r' = r) by congruence. subst r'. simpl. f_equal.
+    destruct (eff_name_cases ncbs a) as [Hn|Hx]; [apply eff_name_nomatch; exact Hn|eapply A2; eauto].
   - eapply coh_addr_ext; eauto.
   - eapply coh_sync_ext; eauto.
-  - eapply coh_sync_ext; eauto.
   - eapply coh_bday_ext; eauto.
+Qed.
+
+Lemma TI_rest_cong P d m m' cbs ncbs :
+  m_accts m' = m_accts m -> (forall x mt, m_addrs m' !! x = Some mt -> m_addrs m !! x = Some mt) ->
+  m_synced m' = m_synced m -> m_start m' = m_start m -> m_birthday m' = m_birthday m ->
+  TI_rest P d m cbs ncbs -> TI_rest P d m' cbs ncbs.
+Proof.
+  intros E1 E2 E3 E4 E5 (A & A2 & A3 & A4 & B & C & D & E & F).
+  unfold TI_rest, coh_sync, coh_bday. rewrite E1, E3, E4, E5.
+  split; [exact A|split; [exact A2|split; [exact A3|split; [exact A4|split; [|split; [exact C|split; [exact D|split; [exact E|exact F]]]]]]]].
+  intros x mt Hx. apply B, E2, Hx.
 Qed.
 
 Lemma elem_of_chain_range a b i n x :
@@ -784,358 +1272,596 @@ Proof.
   apply elem_of_list_to_set in H. destruct (Hxs _ H) as [j Hj]. congruence.
 Qed.
 
-Lemma r_name_set_next b nx r : r_name (row_set_next b nx r) = r_name r.
-Proof. destruct b; reflexivity. Qed.
-Lemma ai_name_set_branch b nx la ai : ai_name (set_branch b nx la ai) = ai_name ai.
-Proof. destruct b; reflexivity. Qed.
-Lemma r_kind_set_next b nx r : r_kind (row_set_next b nx r) = r_kind r.
-Proof. destruct b; reflexivity. Qed.
-Lemma ai_kind_set_branch b nx la ai : ai_kind (set_branch b nx la ai) = ai_kind ai.
-Proof. destruct b; reflexivity. Qed.
-
 Lemma wrap32_small t : (0 <=? t)%Z && (t <? 4294967296)%Z = true -> wrap32 t = t.
 Proof. intros H. apply andb_true_iff in H as [H1 H2]. unfold wrap32. apply Z.mod_small. lia. Qed.
 
-Lemma TI_rest_put d m m' cbs a b xs r0 nx newcbs :
-  TI_rest d m cbs -> d_accts d !! a = Some r0 ->
+Lemma cache_all_lookup l m x mt :
+  m_addrs (cache_all l m) !! x = Some mt -> (x, mt) ∈ l \/ m_addrs m !! x = Some mt.
+Proof.
+  unfold cache_all. simpl. intros H. apply lookup_union_Some_raw in H as [H|[_ H]]; [|auto].
+  left. apply elem_of_list_to_map_2. exact H.
+Qed.
+
+(** The rows after [put_chain] on an existing account: names and kinds stay,
+    the new address rows belong to the account. *)
+Lemma put_rows_TI_rest P d m m' cbs ncbs a b xs r0 nx newcbs mt :
+  TI_rest P d m cbs ncbs -> d_accts d !! a = Some r0 ->
   (forall x, x ∈ xs -> exists j, x = Chain a b j) ->
+  mt = meta_of_kind (d_schema d) (r_kind r0) b ->
   (forall a' ai', m_accts m' !! a' = Some ai' ->
      exists ai0, m_accts m !! a' = Some ai0 /\ ai_name ai' = ai_name ai0 /\ ai_kind ai' = ai_kind ai0) ->
-  m_addrs m' ⊆ list_to_set xs ∪ m_addrs m ->
+  (forall x v, m_addrs m' !! x = Some v -> (x ∈ xs /\ v = mt) \/ m_addrs m !! x = Some v) ->
   m_synced m' = m_synced m -> m_start m' = m_start m -> m_birthday m' = m_birthday m ->
-  Forall (fun c => forall x, x ∈ cb_addrs c -> x ∈ xs) newcbs ->
-  TI_rest (set_d_accts (<[a := row_set_next b nx r0]> (d_accts d))
-             (set_d_addrs (list_to_set xs ∪ d_addrs d) d)) m' (cbs ++ newcbs).
+  Forall (fun c => forall x v, (x, v) ∈ cb_addrs c -> x ∈ xs /\ v = mt) newcbs ->
+  TI_rest P (set_d_accts (<[a := row_set_next b nx r0]> (d_accts d))
+               (set_d_addrs (list_to_set xs ∪ d_addrs d) d)) m' (cbs ++ newcbs) ncbs.
 Proof.
-  intros (A & B & C & D & [E1 E2] & F) Hr0 Hxs Hacc Hadd Hs1 Hs2 Hs3 Hnew.
-  unfold TI_rest, coh_sync, coh_bday. simpl. rewrite Hs1, Hs2, Hs3.
-  repeat split; auto.
-  - intros a' ai' r' Ha' Hr'. simpl in Hr'. destruct (Hacc a' ai' Ha') as (ai0 & Hai0 & -> & ->).
-    destruct (decide (a' = a)) as [->|Hne].
+  intros (A & A2 & A3 & A4 & B & C & D & [E1 E2] & F) Hr0 Hxs Hmt Hacc Hadd Hs1 Hs2 Hs3 Hnew.
+  set (d' := set_d_accts _ _).
+  assert (HK : kinds_kept d d').
+  { split; [reflexivity|]. intros a' r Hr. subst d'. simpl. destruct (decide (a' = a)) as [->|Hne].
+    - rewrite lookup_insert. eexists. split; [reflexivity|]. rewrite r_kind_set_next. congruence.
+    - rewrite lookup_insert_ne by congruence. eauto. }
+  assert (HS : d_addrs d ⊆ d_addrs d') by (subst d'; simpl; set_solver).
+  assert (HN : forall x, x ∈ xs -> x ∈ d_addrs d' /\ mt = meta_of d' x).
+  { intros x Hx. split; [subst d'; simpl; apply elem_of_union; left; apply elem_of_list_to_set; exact Hx|].
+    destruct (Hxs x Hx) as [j ->]. subst d'. simpl. unfold kind_row. simpl. rewrite lookup_insert.
+    rewrite r_kind_set_next. exact Hmt. }
+  unfold TI_rest, coh_sync, coh_bday. rewrite Hs1, Hs2, Hs3.
+  split; [|split; [|split; [|split; [exact A4|split; [|split; [|split; [|split; [split; [exact E1|exact E2]|exact F]]]]]]]].
+  - intros a' ai' r' Ha' Hr'. destruct (Hacc a' ai' Ha') as (ai0 & Hai0 & -> & ->).
+    subst d'. simpl in Hr'. destruct (decide (a' = a)) as [->|Hne].
     + rewrite lookup_insert in Hr'. injection Hr' as <-. rewrite r_name_set_next, r_kind_set_next. eapply A; eauto.
     + rewrite lookup_insert_ne in Hr' by congruence. eapply A; eauto.
-  - intros y Hy. simpl. apply Hadd in Hy. apply elem_of_union in Hy as [Hy|Hy]; [set_solver|].
-    apply B in Hy. set_solver.
-  - apply Forall_app. split.
-    + eapply Forall_impl; [|exact C]. intros c Hc y Hy. simpl. specialize (Hc y Hy). set_solver.
-    + eapply Forall_impl; [|exact Hnew]. intros c Hc y Hy. simpl. apply elem_of_union. left.
-      apply elem_of_list_to_set. apply Hc, Hy.
+  - intros a' r' v Hr' Hx. subst d'. simpl in Hr'. destruct (decide (a' = a)) as [->|Hne].
+    + rewrite lookup_insert in Hr'. injection Hr' as <-. rewrite r_name_set_next. eapply A2; eauto.
+    + rewrite lookup_insert_ne in Hr' by congruence. eapply A2; eauto.
+  - eapply Forall_impl; [|exact A3]. intros c [r Hr]. subst d'. simpl.
+    destruct (decide (c.1 = a)) as [->|Hne]; [rewrite lookup_insert; eauto|].
+    rewrite lookup_insert_ne by congruence. eauto.
+  - intros x v Hx. destruct (Hadd x v Hx) as [[H1 ->]|H1]; [apply HN, H1|].
+    eapply coh_addr_transfer; eauto.
+  - apply Forall_app. split; [eapply cbs_transfer; eauto|].
+    eapply Forall_impl; [|exact Hnew]. intros c Hc x v Hx. destruct (Hc x v Hx) as [H1 ->]. apply HN, H1.
   - apply (wfA_put _ a b); eauto.
 Qed.
 
-Lemma set_synced_rest s t t' r :
-  (0 <=? s_time s)%Z && (s_time s <? 4294967296)%Z = true ->
-  set_synced s t = (t', r) ->
-  TI_rest (t_disk t) (t_mem t) (t_cbs t) -> TI_rest (t_disk t') (t_mem t') (t_cbs t').
+Lemma elem_of_ents (xs : list addr) (mt : ameta) (x : addr) (v : ameta) :
+  (x, v) ∈ (fun y : addr => (y, mt)) <$> xs -> x ∈ xs /\ v = mt.
+Proof. intros H. apply elem_of_list_fmap in H as (y & [= -> ->] & Hy). auto. Qed.
+
+Lemma issue_TI_rest P rbf a b i cnt ai ok t t' r pend :
+  issue rbf a b i cnt ai ok t = (t', r) ->
+  m_accts (t_mem t) !! a = Some ai ->
+  TI_idx (t_disk t) (t_mem t) (t_cbs t) pend ->
+  TI_rest P (t_disk t) (t_mem t) (t_cbs t) (t_ncbs t) ->
+  TI_rest P (t_disk t') (t_mem t') (t_cbs t') (t_ncbs t').
 Proof.
-  intros Ht HS HR. unfold set_synced in HS. case_match; injection HS as <- <-; [exact HR|].
-  destruct HR as (A & B & C & D & [E1 E2] & F). simpl. repeat split; auto.
-  simpl. rewrite (wrap32_small _ Ht). destruct s; reflexivity.
+  intros HS Ho (IA & IB & IC) HR.
+  destruct (IC a ai Ho) as (r0 & Hr0 & _).
+  assert (Hk : ai_kind ai = r_kind r0).
+  { destruct HR as (A & _). pose proof (A a ai r0 Ho Hr0) as Hp. injection Hp as _ Hk. exact Hk. }
+  unfold issue, put_chain in HS. rewrite Hr0 in HS. injection HS as <- <-. simpl.
+  eapply put_rows_TI_rest; [exact HR|exact Hr0|..].
+  - intros y Hy. eapply elem_of_chain_range; exact Hy.
+  - rewrite <- Hk. reflexivity.
+  - intros a' ai' Ha'. exists ai'. split; [|auto]. destruct rbf; [np_in Ha'|]; exact Ha'.
+  - intros x v Hx. destruct rbf; [|auto]. np_in Hx. apply cache_all_lookup in Hx as [Hx|Hx]; [|auto].
+    left. apply elem_of_ents in Hx. exact Hx.
+  - destruct rbf; [np|]; reflexivity.
+  - destruct rbf; [np|]; reflexivity.
+  - destruct rbf; [np|]; reflexivity.
+  - constructor; [|constructor]. simpl. intros x v Hx. apply elem_of_ents in Hx. exact Hx.
 Qed.
 
-Lemma new_account_TI_rest k nm t t' r pend :
+Lemma set_synced_rest P s t t' r :
+  (0 <=? s_time s)%Z && (s_time s <? 4294967296)%Z = true ->
+  set_synced s t = (t', r) ->
+  TI_rest P (t_disk t) (t_mem t) (t_cbs t) (t_ncbs t) -> TI_rest P (t_disk t') (t_mem t') (t_cbs t') (t_ncbs t').
+Proof.
+  intros Ht HS HR. unfold set_synced in HS. case_match; injection HS as <- <-; [exact HR|].
+  destruct HR as (A & A2 & A3 & A4 & B & C & D & [E1 E2] & F). simpl.
+  split; [exact A|split; [exact A2|split; [exact A3|split; [exact A4|split; [exact B|split; [exact C|split; [exact D|split; [|exact F]]]]]]]].
+  split; [|exact E2]. simpl. rewrite (wrap32_small _ Ht). destruct s; reflexivity.
+Qed.
+
+Lemma new_account_TI_rest P k nm t t' r pend :
   new_account k nm t = (t', r) ->
   TI_idx (t_disk t) (t_mem t) (t_cbs t) pend ->
-  TI_rest (t_disk t) (t_mem t) (t_cbs t) -> TI_rest (t_disk t') (t_mem t') (t_cbs t').
+  TI_rest P (t_disk t) (t_mem t) (t_cbs t) (t_ncbs t) -> TI_rest P (t_disk t') (t_mem t') (t_cbs t') (t_ncbs t').
 Proof.
-  intros HS HI HR. unfold new_account in HS.
+  intros HS HI HR. pose proof (new_account_kinds k nm t t' r (proj1 HI) HS) as HK.
+  unfold new_account in HS.
   repeat case_match; simplify_eq; simpl; try exact HR.
-  destruct HR as (A & B & C & D & E & F). destruct HI as (IA & IB & IC).
-  repeat split; auto; try apply E.
+  destruct HR as (A & A2 & A3 & A4 & B & C & D & E & F). destruct HI as (IA & IB & IC).
+  set (n := (d_lastacct (t_disk t) + 1)%N) in *.
+  assert (Hnew : forall a, is_Some (d_accts (t_disk t) !! a) -> a <> n) by (intros a Ha; specialize (IA a Ha); lia).
+  split; [|split; [|split; [|split; [exact A4|split; [|split; [|split; [|split; [exact E|exact F]]]]]]]].
   - intros a ai r0 Ha Hr0. simpl in Hr0.
     destruct (IC a ai Ha) as (r1 & Hr1 & _).
-    assert (a <= d_lastacct (t_disk t))%N by (apply IA; eauto).
-    rewrite lookup_insert_ne in Hr0 by lia. eapply A; eauto.
+    rewrite lookup_insert_ne in Hr0 by (intros <-; eapply Hnew; eauto). eapply A; eauto.
+  - intros a r0 v Hr0 Hx. simpl in Hr0. destruct (decide (a = n)) as [->|Hne].
+    + exfalso. apply Exists_exists in Hx as (c & Hc & Hc1).
+      rewrite Forall_forall in A3. specialize (A3 c Hc). simpl in Hc1. exact (Hnew c.1 A3 Hc1).
+    + rewrite lookup_insert_ne in Hr0 by congruence. eapply A2; eauto.
+  - eapply Forall_impl; [|exact A3]. intros c Hc. simpl.
+    rewrite lookup_insert_ne by (intros Heq; apply (Hnew c.1 Hc); congruence). exact Hc.
+  - eapply coh_addr_transfer; eauto.
+  - eapply cbs_transfer; eauto.
   - intros a b i Hx. simpl in *. specialize (D a b i Hx).
-    destruct (decide (a = d_lastacct (t_disk t) + 1)%N) as [->|Hne]; [rewrite lookup_insert; eauto|].
+    destruct (decide (a = n)) as [->|Hne]; [rewrite lookup_insert; eauto|].
     rewrite lookup_insert_ne by congruence. exact D.
 Qed.
 
-Lemma commit_rest_step rb o t t' r pend :
+Lemma TI_both_ext P d m m' cbs ncbs pend :
+  TI_idx d m cbs pend -> TI_rest P d m cbs ncbs -> mem_ext d m m' ->
+  TI_idx d m' cbs pend /\ TI_rest P d m' cbs ncbs.
+Proof.
+  intros HI HR HE. pose proof (TI_idx_ext _ _ _ _ _ HI HE) as HI1. split; [exact HI1|].
+  eapply TI_rest_ext; [exact HR|exact HE|]. destruct HI1 as (_ & _ & C1).
+  intros a' ai' Ha'. destruct (C1 a' ai' Ha') as (r1 & Hr1 & _). exists r1. split; [exact Hr1|].
+  destruct HE as (_ & E2 & _). destruct (E2 a' ai' Ha') as [H|(H & r' & Hr' & ->)].
+  - destruct HR as (A & _). pose proof (A a' ai' r1 H Hr1) as Hp. injection Hp as _ Hk. exact Hk.
+  - simpl. congruence.
+Qed.
+
+Lemma commit_rest_step P o t t' r pend :
   op_times_ok o = true -> is_synced_nil o = false ->
-  step rb o t = (t', r) ->
+  step P o t = (t', r) ->
   TI_idx (t_disk t) (t_mem t) (t_cbs t) pend ->
-  TI_rest (t_disk t) (t_mem t) (t_cbs t) ->
-  TI_rest (t_disk t') (t_mem t') (t_cbs t').
+  TI_rest P (t_disk t) (t_mem t) (t_cbs t) (t_ncbs t) ->
+  TI_rest P (t_disk t') (t_mem t') (t_cbs t') (t_ncbs t').
 Proof.
   intros HT HN HS HI HR.
-  destruct o as [nm|a nm|a b n|a b last|x|s| |tm|s v|x bs|q|nm wk]; simpl in HN; try discriminate.
+  assert (HLD : forall a m1 oo, load_acct (t_disk t) (t_mem t) a = (m1, oo) ->
+            TI_idx (t_disk t) m1 (t_cbs t) pend /\ TI_rest P (t_disk t) m1 (t_cbs t) (t_ncbs t)).
+  { intros a m1 oo EL. apply load_acct_ext in EL as (HE & _ & _). eapply TI_both_ext; eauto. }
+  destruct o as [nm|a nm|a b n|a b last|x|s| |tm|s v|x bs pv|q|nm wk| | |a]; simpl in HN; try discriminate.
   - (* new account *)
-    simpl in HS. eapply new_account_TI_rest; eauto.
+    simpl in HS. destruct (m_locked (t_mem t)); [injection HS as <- <-; exact HR|].
+    eapply new_account_TI_rest; eauto.
   - (* rename *)
-    simpl in HS. repeat case_match; simplify_eq; simpl; try exact HR.
-    all: rewrite rename_switch_eq; unfold rename_rows; simpl.
-    + destruct HR as (A & B & C & D & E & F). repeat split; auto; try apply E.
-      * intros a' ai' r' Ha' Hr'. simpl in *. destruct (decide (a' = a)) as [->|Hne].
-        -- rewrite lookup_insert in Ha'; rewrite lookup_insert in Hr'. simplify_eq. simpl.
-           match goal with Hm : m_accts (t_mem t) !! a = Some ?ai0, Hd : d_accts (t_disk t) !! a = Some ?r0 |- _ =>
-             pose proof (A a ai0 r0 Hm Hd) as Hp end.
-           injection Hp as _ Hk. rewrite Hk. reflexivity.
-        -- rewrite lookup_insert_ne in Ha' by congruence; rewrite lookup_insert_ne in Hr' by congruence. eapply A; eauto.
-      * intros a' b' i' Hx. simpl in *. specialize (D a' b' i' Hx).
-        destruct (decide (a' = a)) as [->|Hne]; [rewrite lookup_insert; eauto|].
-        rewrite lookup_insert_ne by congruence. exact D.
-    + destruct HR as (A & B & C & D & E & F). repeat split; auto; try apply E.
-      * intros a' ai' r' Ha' Hr'. simpl in *. assert (a' <> a) by congruence.
-        rewrite lookup_insert_ne in Hr' by congruence. eapply A; eauto.
-      * intros a' b' i' Hx. simpl in *. specialize (D a' b' i' Hx).
-        destruct (decide (a' = a)) as [->|Hne]; [rewrite lookup_insert; eauto|].
-        rewrite lookup_insert_ne by congruence. exact D.
+    simpl in HS.
+    destruct (a =? imported_acct)%N; [injection HS as <- <-; exact HR|].
+    destruct (bool_decide (is_Some (d_nameidx (t_disk t) !! nm))); [injection HS as <- <-; exact HR|].
+    destruct (bad_name nm); [injection HS as <- <-; exact HR|].
+    destruct (d_accts (t_disk t) !! a) as [r0|] eqn:Er0; [|injection HS as <- <-; exact HR].
+    rewrite rename_switch_eq in HS.
+    pose proof (rename_rows_kinds a nm r0 (t_disk t) Er0) as HK.
+    destruct HR as (A & A2 & A3 & A4 & B & C & D & E & F).
+    assert (HB : coh_addr (t_mem t) (rename_rows a nm r0 (t_disk t))) by (eapply coh_addr_transfer; eauto; reflexivity).
+    assert (HC : Forall (cb_ok (rename_rows a nm r0 (t_disk t))) (t_cbs t)) by (eapply cbs_transfer; eauto; reflexivity).
+    assert (HD : wfA (rename_rows a nm r0 (t_disk t))).
+    { intros a' b' i' Hx. simpl in *. specialize (D a' b' i' Hx).
+      destruct (decide (a' = a)) as [->|Hne]; [rewrite lookup_insert; eauto|].
+      rewrite lookup_insert_ne by congruence. exact D. }
+    destruct (p_re P) eqn:Ere; injection HS as <- <-; simpl.
+    + (* eager: no closure is ever registered *)
+      specialize (A4 eq_refl). rewrite A4 in *.
+      split; [|split; [|split; [constructor|split; [auto|split; [|split; [exact HC|split; [exact HD|split; [|]]]]]]]].
+      * intros a' ai' r' Ha' Hr'. simpl in Hr'. simpl. destruct (decide (a' = a)) as [->|Hne].
+        -- rewrite lookup_insert in Hr'. injection Hr' as <-. simpl.
+           destruct (m_accts (t_mem t) !! a) as [ai|] eqn:Eai; [|congruence].
+           simpl in Ha'. rewrite lookup_insert in Ha'. injection Ha' as <-. simpl.
+           pose proof (A a ai r0 Eai Er0) as Hp. injection Hp as _ Hk. rewrite Hk. reflexivity.
+        -- rewrite lookup_insert_ne in Hr' by congruence.
+           destruct (m_accts (t_mem t) !! a) as [ai|] eqn:Eai; [simpl in Ha'; rewrite lookup_insert_ne in Ha' by congruence|];
+             eapply A; eauto.
+      * intros a' r' v _ Hx. inversion Hx.
+      * destruct (m_accts (t_mem t) !! a); exact HB.
+      * destruct (m_accts (t_mem t) !! a); exact E.
+      * destruct (m_accts (t_mem t) !! a); exact F.
+    + (* deferred: the closure holds the name the row now has *)
+      split; [|split; [|split; [|split; [intros Hre; congruence|split; [exact HB|split; [exact HC|split; [exact HD|split; [exact E|exact F]]]]]]]].
+      * intros a' ai' r' Ha' Hr'. simpl in Hr'. rewrite eff_name_snoc. simpl. destruct (decide (a' = a)) as [->|Hne].
+        -- rewrite lookup_insert in Hr'. injection Hr' as <-. rewrite N.eqb_refl. simpl.
+           pose proof (A a ai' r0 Ha' Er0) as Hp. injection Hp as _ Hk. rewrite Hk. reflexivity.
+        -- rewrite lookup_insert_ne in Hr' by congruence.
+           assert (Hq : (a =? a')%N = false) by (apply N.eqb_neq; congruence). rewrite Hq. eapply A; eauto.
+      * intros a' r' v Hr' Hx. simpl in Hr'. rewrite eff_name_snoc. simpl. destruct (decide (a' = a)) as [->|Hne].
+        -- rewrite lookup_insert in Hr'. injection Hr' as <-. rewrite N.eqb_refl. reflexivity.
+        -- rewrite lookup_insert_ne in Hr' by congruence.
+           assert (Hq : (a =? a')%N = false) by (apply N.eqb_neq; congruence). rewrite Hq.
+           eapply A2; eauto. apply Exists_app in Hx as [Hx|Hx]; [exact Hx|].
+           apply Exists_cons in Hx as [Hx|Hx]; [simpl in Hx; congruence|inversion Hx].
+      * apply Forall_app. split.
+        -- eapply Forall_impl; [|exact A3]. intros c [rc Hc]. simpl.
+           destruct (decide (c.1 = a)) as [->|Hne]; [rewrite lookup_insert; eauto|].
+           rewrite lookup_insert_ne by congruence. eauto.
+        -- constructor; [|constructor]. simpl. rewrite lookup_insert. eauto.
   - (* next *)
     simpl in HS.
     destruct (load_acct (t_disk t) (t_mem t) a) as [m1 o] eqn:EL.
-    apply load_acct_ext in EL as (HE & HAd & Ho).
-    pose proof (TI_idx_ext _ _ _ _ _ HI HE) as HI1.
-    pose proof (TI_rest_ext _ _ _ _ HR HE) as HR1.
+    destruct (HLD _ _ _ EL) as [HI1 HR1]. apply load_acct_ext in EL as (_ & _ & Ho).
     destruct o as [ai|]; [|injection HS as <- <-; exact HR1].
     destruct ((max_addrs <? n)%N || (max_addrs <? next_of ai b + n)%N); [injection HS as <- <-; exact HR1|].
     destruct (n =? 0)%N; [injection HS as <- <-; exact HR1|].
-    destruct HI1 as (IA & IB & IC). destruct (IC a ai Ho) as (r0 & Hr0 & _).
-    unfold put_chain in HS. rewrite Hr0 in HS. injection HS as <- <-. simpl.
-    eapply TI_rest_put; [exact HR1|exact Hr0|..].
-    + intros y Hy. eapply elem_of_chain_range; exact Hy.
-    + intros a' ai' Ha'. exists ai'. split; [|auto]. destruct rb; exact Ha'.
-    + destruct rb; simpl; set_solver.
-    + destruct rb; reflexivity.
-    + destruct rb; reflexivity.
-    + destruct rb; reflexivity.
-    + constructor; [|constructor]. simpl. auto.
+    eapply issue_TI_rest in HS; [exact HS|exact Ho|exact HI1|exact HR1].
   - (* extend *)
     simpl in HS.
     destruct (load_acct (t_disk t) (t_mem t) a) as [m1 o] eqn:EL.
-    apply load_acct_ext in EL as (HE & HAd & Ho).
-    pose proof (TI_idx_ext _ _ _ _ _ HI HE) as HI1.
-    pose proof (TI_rest_ext _ _ _ _ HR HE) as HR1.
+    destruct (HLD _ _ _ EL) as [HI1 HR1]. apply load_acct_ext in EL as (_ & _ & Ho).
     destruct o as [ai|]; [|injection HS as <- <-; exact HR1].
     destruct (last <? next_of ai b)%N; [injection HS as <- <-; exact HR1|].
     destruct (max_addrs <? last)%N; [injection HS as <- <-; exact HR1|].
-    destruct (bool_decide (is_Some (ai_kind ai))); [injection HS as <- <-; exact HR1|].
+    destruct (p_ee P).
+    2:{ eapply issue_TI_rest in HS; [exact HS|exact Ho|exact HI1|exact HR1]. }
     destruct HI1 as (IA & IB & IC). destruct (IC a ai Ho) as (r0 & Hr0 & _).
+    assert (Hk : ai_kind ai = r_kind r0).
+    { destruct HR1 as (A & _). pose proof (A a ai r0 Ho Hr0) as Hp. injection Hp as _ Hk. exact Hk. }
     unfold put_chain in HS. rewrite Hr0 in HS. injection HS as <- <-. simpl.
     rewrite <- (app_nil_r (t_cbs t)).
-    eapply TI_rest_put; [exact HR1|exact Hr0|..].
+    eapply put_rows_TI_rest; [exact HR1|exact Hr0|..].
     + intros y Hy. eapply elem_of_chain_range; exact Hy.
-    + intros a' ai' Ha'. simpl in Ha'. destruct (decide (a' = a)) as [->|Hne].
+    + rewrite <- Hk. reflexivity.
+    + intros a' ai' Ha'. simpl in Ha'. np_in Ha'. simpl in Ha'. destruct (decide (a' = a)) as [->|Hne].
       * rewrite lookup_insert in Ha'. injection Ha' as <-. exists ai. split; [exact Ho|].
         split; [apply ai_name_set_branch|apply ai_kind_set_branch].
       * rewrite lookup_insert_ne in Ha' by congruence. eauto.
-    + simpl. set_solver.
-    + reflexivity.
-    + reflexivity.
-    + reflexivity.
+    + intros y v Hy. simpl in Hy. np_in Hy. apply cache_all_lookup in Hy as [Hy|Hy]; [|auto].
+      left. apply elem_of_ents in Hy. exact Hy.
+    + simpl. np. reflexivity.
+    + simpl. np. reflexivity.
+    + simpl. np. reflexivity.
     + constructor.
   - (* mark used *)
     simpl in HS. injection HS as <- <-. simpl.
-    destruct HR as (A & B & C & D & E & F). repeat split; auto; try apply E.
-    intros y Hy. simpl in *. apply B. set_solver.
+    destruct HR as (A & A2 & A3 & A4 & B & C & D & E & F).
+    split; [exact A|split; [exact A2|split; [exact A3|split; [exact A4|split; [|split; [exact C|split; [exact D|split; [exact E|exact F]]]]]]]].
+    intros y mt Hy. simpl in Hy. apply lookup_delete_Some in Hy as [_ Hy]. apply B, Hy.
   - (* set synced *)
     simpl in HS, HT. eapply set_synced_rest; eauto.
   - (* birthday *)
     simpl in HS. injection HS as <- <-. simpl.
-    destruct HR as (A & B & C & D & E & F). repeat split; auto; apply E.
+    destruct HR as (A & A2 & A3 & A4 & B & C & D & E & F).
+    split; [exact A|split; [exact A2|split; [exact A3|split; [exact A4|split; [exact B|split; [exact C|split; [exact D|split; [exact E|reflexivity]]]]]]]].
   - (* birthday block *)
     simpl in HS. injection HS as <- <-. simpl.
-    destruct HR as (A & B & C & D & E & F). repeat split; auto; apply E.
+    destruct HR as (A & A2 & A3 & A4 & B & C & D & E & F).
+    split; [exact A|split; [exact A2|split; [exact A3|split; [exact A4|split; [exact B|split; [exact C|split; [exact D|split; [exact E|exact F]]]]]]]].
   - (* import *)
-    simpl in HS. destruct HR as (A & B & C & D & [E1 E2] & F).
-    destruct (negb (addr_imported x)) eqn:Eimp; [injection HS as <- <-; repeat split; auto|].
-    destruct (bool_decide (x ∈ m_addrs (t_mem t)) || bool_decide (x ∈ d_addrs (t_disk t)));
-      [injection HS as <- <-; repeat split; auto|].
-    assert (HwfA : forall d', d_accts d' = d_accts (t_disk t) -> d_addrs d' = {[x]} ∪ d_addrs (t_disk t) -> wfA d').
-    { intros d' Hd1 Hd2 a' b' i' Hx. rewrite Hd1. rewrite Hd2 in Hx.
-      apply elem_of_union in Hx as [Hx|Hx]; [|eapply D; exact Hx].
-      apply elem_of_singleton in Hx. subst x. discriminate. }
-    assert (HC' : Forall (fun c => forall y, y ∈ cb_addrs c -> y ∈ {[x]} ∪ d_addrs (t_disk t)) (t_cbs t)).
-    { eapply Forall_impl; [|exact C]. intros c Hc y Hy. specialize (Hc y Hy). set_solver. }
-    repeat case_match; simplify_eq; simpl; repeat split; auto;
-      try (apply HwfA; reflexivity);
-      try (intros y Hy; simpl in *; apply elem_of_union in Hy as [Hy|Hy]; [set_solver|apply B in Hy; set_solver]).
+    simpl in HS. destruct HR as (A & A2 & A3 & A4 & B & C & D & [E1 E2] & F).
+    destruct (negb (addr_imported x)) eqn:Eimp;
+      [injection HS as <- <-; split; [exact A|split; [exact A2|split; [exact A3|split; [exact A4|split; [exact B|split; [exact C|split; [exact D|split; [split; assumption|exact F]]]]]]]]|].
+    destruct (import_needs_unlock x pv && m_locked (t_mem t));
+      [injection HS as <- <-; split; [exact A|split; [exact A2|split; [exact A3|split; [exact A4|split; [exact B|split; [exact C|split; [exact D|split; [split; assumption|exact F]]]]]]]]|].
+    destruct (bool_decide (is_Some (m_addrs (t_mem t) !! x)) || bool_decide (x ∈ d_addrs (t_disk t)));
+      [injection HS as <- <-; split; [exact A|split; [exact A2|split; [exact A3|split; [exact A4|split; [exact B|split; [exact C|split; [exact D|split; [split; assumption|exact F]]]]]]]]|].
+    apply negb_false_iff in Eimp.
+    (* whatever the start block does: the address joins the database and the cache *)
+    assert (G : forall d' m', d_accts d' = d_accts (t_disk t) -> d_schema d' = d_schema (t_disk t) ->
+                d_addrs d' = {[x]} ∪ d_addrs (t_disk t) ->
+                m_accts m' = m_accts (t_mem t) ->
+                m_addrs m' = <[x := meta_imp (d_schema (t_disk t)) x]> (m_addrs (t_mem t)) ->
+                coh_sync m' d' -> coh_bday m' d' ->
+                TI_rest P d' m' (t_cbs t) (t_ncbs t)).
+    { intros d' m' Hd1 Hd2 Hd3 Hm1 Hm2 Hs Hb.
+      assert (HK : kinds_kept (t_disk t) d') by (split; [exact Hd2|rewrite Hd1; eauto]).
+      assert (HSub : d_addrs (t_disk t) ⊆ d_addrs d') by (rewrite Hd3; set_solver).
+      unfold TI_rest. rewrite Hd1, Hm1.
+      split; [exact A|split; [exact A2|split; [exact A3|split; [exact A4|split; [|split; [|split; [|split; [exact Hs|exact Hb]]]]]]]].
+      - intros y mt Hy. rewrite Hm2 in Hy. destruct (decide (y = x)) as [->|Hne].
+        + rewrite lookup_insert in Hy. injection Hy as <-. split; [rewrite Hd3; set_solver|].
+          destruct x; [discriminate|simpl; rewrite ?Hd2; reflexivity..].
+        + rewrite lookup_insert_ne in Hy by congruence. eapply coh_addr_transfer; eauto.
+      - eapply cbs_transfer; eauto.
+      - intros a' b' i' Hx. rewrite Hd1. rewrite Hd3 in Hx.
+        apply elem_of_union in Hx as [Hx|Hx]; [|eapply D; exact Hx].
+        apply elem_of_singleton in Hx. subst x. discriminate. }
+    destruct bs as [s|]; [destruct (s_height s <? s_height (m_start (t_mem t)))%Z|];
+      injection HS as <- <-; apply G; simpl; auto; try (split; assumption).
+    split; [exact E1|reflexivity].
   - (* read *)
     simpl in HS. destruct (read q (t_disk t) (t_mem t)) as [m' x] eqn:ER. injection HS as <- <-. simpl.
-    eapply TI_rest_ext; [exact HR|]. eapply read_ext; exact ER.
+    eapply TI_both_ext; [exact HI|exact HR|]. eapply read_ext; exact ER.
   - (* new watch-only account *)
     simpl in HS. eapply new_account_TI_rest; eauto.
+  - (* lock *)
+    simpl in HS. destruct (m_locked (t_mem t)); injection HS as <- <-; [exact HR|].
+    simpl. eapply TI_rest_cong; [..|exact HR]; auto.
+  - (* unlock *)
+    simpl in HS. destruct (negb (m_locked (t_mem t))); [injection HS as <- <-; exact HR|].
+    destruct (load_all (t_disk t) (t_mem t) (m_pending (t_mem t))) as [m1 ok] eqn:EL.
+    apply load_all_ext in EL as [HE _].
+    destruct (TI_both_ext _ _ _ _ _ _ _ HI HR HE) as [_ HR1].
+    destruct ok; injection HS as <- <-; simpl; [|exact HR1].
+    eapply TI_rest_cong; [..|exact HR1]; auto.
+  - (* invalidate *)
+    simpl in HS. injection HS as <- <-. simpl.
+    destruct HR as (A & A2 & A3 & A4 & B & C & D & E & F).
+    split; [|split; [exact A2|split; [exact A3|split; [exact A4|split; [exact B|split; [exact C|split; [exact D|split; [exact E|exact F]]]]]]]].
+    intros a' ai' r' Ha' Hr'. simpl in Ha'. apply lookup_delete_Some in Ha' as [_ Ha']. eapply A; eauto.
 Qed.
 
-Lemma TI_rest_run_cb d m c cbs :
-  TI_rest d m (c :: cbs) -> TI_rest d (run_cb c m) cbs.
+Lemma cb_ok_lookup d c x mt : cb_ok d c -> (x, mt) ∈ cb_addrs c -> x ∈ d_addrs d /\ mt = meta_of d x.
+Proof. intros H. apply H. Qed.
+
+Lemma run_cb_fields c m :
+  m_addrs (run_cb c m) = m_addrs (cache_all (cb_addrs c) m) /\
+  m_synced (run_cb c m) = m_synced m /\ m_start (run_cb c m) = m_start m /\ m_birthday (run_cb c m) = m_birthday m.
 Proof.
-  intros (A & B & C & D & E & F). inversion C as [|c0 l Hc C']; subst.
-  unfold run_cb. simpl.
-  assert (HB : m_addrs m ⊆ d_addrs d) by exact B.
-  destruct (m_accts m !! cb_acct c) as [ai|] eqn:Eai; simpl.
-  - repeat split; auto; try apply E.
-    + intros a ai' r Ha Hr. simpl in Ha. destruct (decide (a = cb_acct c)) as [->|Hne].
-      * rewrite lookup_insert in Ha. injection Ha as <-. rewrite ai_name_set_branch, ai_kind_set_branch. eapply A; eauto.
-      * rewrite lookup_insert_ne in Ha by congruence. eapply A; eauto.
-    + intros y Hy. simpl in Hy. apply elem_of_union in Hy as [Hy|Hy]; [|auto].
-      apply elem_of_list_to_set in Hy. auto.
-  - repeat split; auto; try apply E.
-    intros y Hy. simpl in Hy. apply elem_of_union in Hy as [Hy|Hy]; [|auto].
-    apply elem_of_list_to_set in Hy. auto.
+  unfold run_cb. destruct (m_locked m && cb_priv c); simpl; destruct (m_accts m !! cb_acct c); simpl; auto.
 Qed.
 
-Lemma TI_rest_settle cbs : forall d m, TI_rest d m cbs -> TI_rest d (settle cbs m) [].
+Lemma TI_rest_run_cb P d m c cbs ncbs :
+  TI_rest P d m (c :: cbs) ncbs -> TI_rest P d (run_cb c m) cbs ncbs.
 Proof.
-  induction cbs as [|c cbs IH]; intros d m H; [exact H|].
-  simpl. apply IH. apply TI_rest_run_cb. exact H.
+  intros (A & A2 & A3 & A4 & B & C & D & E & F). inversion C as [|c0 l Hc C']; subst.
+  assert (HB : coh_addr (cache_all (cb_addrs c) m) d).
+  { intros y mt Hy. apply cache_all_lookup in Hy as [Hy|Hy]; [apply Hc, Hy|apply B, Hy]. }
+  destruct (run_cb_fields c m) as (E2 & E3 & E4 & E5).
+  unfold TI_rest, coh_sync, coh_bday, coh_addr. rewrite run_cb_accts, E2, E3, E4, E5.
+  split; [|split; [exact A2|split; [exact A3|split; [exact A4|split; [exact HB|split; [exact C'|split; [exact D|split; [exact E|exact F]]]]]]]].
+  destruct (m_accts m !! cb_acct c) as [ai|] eqn:Eai; [|exact A].
+  intros a ai' r Ha Hr. destruct (decide (a = cb_acct c)) as [->|Hne].
+  - rewrite lookup_insert in Ha. injection Ha as <-. rewrite ai_name_set_branch, ai_kind_set_branch. eapply A; eauto.
+  - rewrite lookup_insert_ne in Ha by congruence. eapply A; eauto.
 Qed.
 
-Lemma commit_ops rb ops : forall t t' outs pend,
-  commit_k_idx pend ops = false ->
+Lemma TI_rest_run_ncb P d m c ncbs :
+  TI_rest P d m [] (c :: ncbs) -> TI_rest P d (run_ncb c m) [] ncbs.
+Proof.
+  intros (A & A2 & A3 & A4 & B & C & D & E & F). inversion A3 as [|c0 l Hc A3']; subst.
+  assert (HA2 : forall a r v, d_accts d !! a = Some r -> Exists (fun c0 : N * N => c0.1 = a) ncbs -> eff_name ncbs a v = r_name r).
+  { intros a r v Hr Hx. rewrite <- (A2 a r v Hr) by (constructor 2; exact Hx). rewrite eff_name_cons.
+    apply eff_name_indep. exact Hx. }
+  assert (HA4 : p_re P = true -> ncbs = []) by (intros H; specialize (A4 H); discriminate).
+  unfold run_ncb. destruct (m_accts m !! c.1) as [ai|] eqn:Eai.
+  - split; [|split; [exact HA2|split; [exact A3'|split; [exact HA4|split; [exact B|split; [exact C|split; [exact D|split; [exact E|exact F]]]]]]]].
+    simpl. intros a ai' r Ha Hr. destruct (decide (a = c.1)) as [->|Hne].
+    + rewrite lookup_insert in Ha. injection Ha as <-. simpl.
+      pose proof (A c.1 ai r Eai Hr) as Hp. rewrite eff_name_cons, N.eqb_refl in Hp. exact Hp.
+    + rewrite lookup_insert_ne in Ha by congruence.
+      pose proof (A a ai' r Ha Hr) as Hp. rewrite eff_name_cons in Hp.
+      assert (Hq : (c.1 =? a)%N = false) by (apply N.eqb_neq; congruence). rewrite Hq in Hp. exact Hp.
+  - split; [|split; [exact HA2|split; [exact A3'|split; [exact HA4|split; [exact B|split; [exact C|split; [exact D|split; [exact E|exact F]]]]]]]].
+    intros a ai' r Ha Hr. pose proof (A a ai' r Ha Hr) as Hp. rewrite eff_name_cons in Hp.
+    assert (Hq : (c.1 =? a)%N = false) by (apply N.eqb_neq; congruence). rewrite Hq in Hp. exact Hp.
+Qed.
+
+Lemma TI_rest_settle P cbs : forall ncbs d m,
+  TI_rest P d m cbs ncbs -> TI_rest P d (settle cbs ncbs m) [] [].
+Proof.
+  induction cbs as [|c cbs IH]; intros ncbs d m H.
+  - unfold settle. simpl. revert m H. induction ncbs as [|n ncbs IHn]; intros m H; [exact H|].
+    simpl. apply IHn. apply TI_rest_run_ncb. exact H.
+  - unfold settle. simpl. apply (IH ncbs). apply TI_rest_run_cb. exact H.
+Qed.
+
+Lemma TI_rest_nil P d m : TI_rest P d m [] [] -> coh_name m d /\ coh_addr m d /\ wfA d /\ coh_sync m d /\ coh_bday m d.
+Proof. intros (A & _ & _ & _ & B & _ & D & E & F). split; [exact A|split; [exact B|split; [exact D|split; [exact E|exact F]]]]. Qed.
+
+Lemma commit_ops P ops : forall t t' outs pend,
+  commit_k_idx P pend ops = false ->
   existsb is_synced_nil ops = false ->
   forallb op_times_ok ops = true ->
-  run_ops rb ops t = (t', outs) ->
+  run_ops P ops t = (t', outs) ->
   TI_idx (t_disk t) (t_mem t) (t_cbs t) pend ->
-  TI_rest (t_disk t) (t_mem t) (t_cbs t) ->
+  TI_rest P (t_disk t) (t_mem t) (t_cbs t) (t_ncbs t) ->
   exists pend', TI_idx (t_disk t') (t_mem t') (t_cbs t') pend' /\
-                TI_rest (t_disk t') (t_mem t') (t_cbs t').
+                TI_rest P (t_disk t') (t_mem t') (t_cbs t') (t_ncbs t').
 Proof.
   induction ops as [|o ops IH]; simpl; intros t t' outs pend HK HN HT HR HI HRest.
   - injection HR as <- <-. eauto.
-  - destruct (step rb o t) as [t1 x] eqn:ES.
-    destruct (run_ops rb ops t1) as [t2 xs] eqn:ER. injection HR as <- <-.
+  - destruct (step P o t) as [t1 x] eqn:ES.
+    destruct (run_ops P ops t1) as [t2 xs] eqn:ER. injection HR as <- <-.
     apply orb_false_iff in HN as [HN1 HN2]. apply andb_true_iff in HT as [HT1 HT2].
-    destruct (commit_idx_step rb o ops t t1 x pend HK ES HI) as [HI1 HK1].
-    pose proof (commit_rest_step rb o t t1 x pend HT1 HN1 ES HI HRest) as HR1.
-    eapply IH; eauto.
-Qed.
-
-(** Index part alone (holds whatever the other components look like). *)
-Lemma commit_ops_idx rb ops : forall t t' outs pend,
-  commit_k_idx pend ops = false ->
-  run_ops rb ops t = (t', outs) ->
-  TI_idx (t_disk t) (t_mem t) (t_cbs t) pend ->
-  exists pend', TI_idx (t_disk t') (t_mem t') (t_cbs t') pend'.
-Proof.
-  induction ops as [|o ops IH]; simpl; intros t t' outs pend HK HR HI.
-  - injection HR as <- <-. eauto.
-  - destruct (step rb o t) as [t1 x] eqn:ES.
-    destruct (run_ops rb ops t1) as [t2 xs] eqn:ER. injection HR as <- <-.
-    destruct (commit_idx_step rb o ops t t1 x pend HK ES HI) as [HI1 HK1].
-    eapply IH; eauto.
+    pose proof (commit_idx_step P o ops t t1 x pend HK ES HI) as HI1.
+    pose proof (commit_rest_step P o t t1 x pend HT1 HN1 ES HI HRest) as HR1.
+    eapply IH; [|exact HN2|exact HT2|exact ER|exact HI1|exact HR1]. apply commit_k_idx_next. exact HK.
 Qed.
 
 (** ** Rolled-back transactions and the next indices *)
 
-Definition AI_idx (d0 d : disk) (m : mem) (armed : bool) : Prop :=
-  coh_idx m d0 /\
-  (armed = false -> forall a, m_accts m !! a = None -> idxp (d_accts d !! a) = idxp (d_accts d0 !! a)).
+Definition AI_idx (d0 d : disk) (m : mem) (armed : bool) (T : list N) : Prop :=
+  coh_idx_ex T m d0 /\
+  (armed = false -> T = [] /\
+     forall a, m_accts m !! a = None -> idxp (d_accts d !! a) = idxp (d_accts d0 !! a)).
 
-Lemma AI_idx_cong d0 d m armed d' m' :
-  d_accts d' = d_accts d -> m_accts m' = m_accts m -> AI_idx d0 d m armed -> AI_idx d0 d' m' armed.
-Proof. intros E1 E2 [A B]. unfold AI_idx, coh_idx in *. rewrite E1, E2. auto. Qed.
+Definition arm_idx (o : op) (armed : bool) : bool :=
+  match o with ONewAccount _ | ONewAccountWO _ _ | OInvalidate _ => true | _ => armed end.
+Definition tnt_idx (o : op) (armed : bool) (T : list N) : list N :=
+  match o with
+  | OExtend a _ _ | ONext a _ _ | ORead (QLast a _) | ORead (QLookup (Chain a _ _)) => taint_if armed a T
+  | ORead (QProps a) => if (a =? imported_acct)%N then T else taint_if armed a T
+  | OInvalidate a => rm_taint a T
+  | _ => T
+  end.
 
-Lemma AI_idx_ext d0 d m m' :
-  AI_idx d0 d m false -> mem_ext d m m' -> AI_idx d0 d m' false.
+Lemma abort_k_idx_next P o ops armed T :
+  abort_k_idx P armed T (o :: ops) = false ->
+  abort_k_idx P (arm_idx o armed) (tnt_idx o armed T) ops = false.
 Proof.
-  intros [A B] HE. specialize (B eq_refl). split.
-  - eapply coh_idx_ext; eauto.
-  - intros _ a Ha. apply B. destruct HE as (E1 & _).
-    destruct (m_accts m !! a) as [ai|] eqn:E; [|reflexivity]. apply E1 in E. congruence.
+  destruct o as [nm|a nm|a b n|a b last|x|s| |tm|s v|x bs pv|q|nm wk| | |a]; simpl; auto.
+  - intros H. apply orb_false_iff in H as [_ H]. exact H.
+  - destruct q as [[a b i|k|k]|a b|a|nm|a| | |h| | ]; simpl; auto.
+  - intros H. apply orb_false_iff in H as [_ H]. exact H.
 Qed.
 
-Lemma AI_idx_weaken d0 d m armed : AI_idx d0 d m armed -> AI_idx d0 d m true.
+Lemma AI_idx_cong d0 d m armed T d' m' :
+  d_accts d' = d_accts d -> m_accts m' = m_accts m -> AI_idx d0 d m armed T -> AI_idx d0 d' m' armed T.
+Proof. intros E1 E2 [A B]. unfold AI_idx, coh_idx_ex in *. rewrite E1, E2. auto. Qed.
+
+Lemma AI_idx_ext d0 d m m' :
+  AI_idx d0 d m false [] -> mem_ext d m m' -> AI_idx d0 d m' false [].
+Proof.
+  intros [A B] HE. destruct (B eq_refl) as [_ B']. apply coh_idx_ex_nil in A. split.
+  - apply coh_idx_ex_nil. eapply coh_idx_ext; eauto.
+  - intros _. split; [reflexivity|]. intros a Ha. apply B'. eapply mem_ext_uncached; eauto.
+Qed.
+
+Lemma AI_idx_weaken d0 d m armed T : AI_idx d0 d m armed T -> AI_idx d0 d m true T.
 Proof. intros [A _]. split; [exact A|discriminate]. Qed.
 
-Lemma new_account_AI_idx d0 k nm t t' r armed :
-  new_account k nm t = (t', r) ->
-  AI_idx d0 (t_disk t) (t_mem t) armed -> AI_idx d0 (t_disk t') (t_mem t') true.
+Definition accts_but (a : N) (m m' : mem) : Prop :=
+  forall a', a' <> a -> m_accts m' !! a' = m_accts m !! a'.
+
+Lemma AI_idx_taint d0 d m m' T a :
+  AI_idx d0 d m true T -> accts_but a m m' -> AI_idx d0 d m' true (a :: T).
 Proof.
-  intros HS HI. unfold new_account in HS.
-  repeat case_match; simplify_eq; simpl; apply AI_idx_weaken in HI;
-    (eapply AI_idx_cong; [..|exact HI]; reflexivity) || exact HI || idtac.
+  intros [A _] S1. split; [|discriminate].
+  intros a' ai Hn Ha'. apply not_elem_of_cons in Hn as [Hne Hn]. rewrite S1 in Ha' by exact Hne. eapply A; eauto.
+Qed.
+
+Lemma AI_idx_more d0 d m armed T a : AI_idx d0 d m armed T -> AI_idx d0 d m armed (taint_if armed a T).
+Proof.
+  destruct armed; simpl; [|auto]. intros [A _]. split; [|discriminate].
+  intros a' ai Hn Ha'. apply not_elem_of_cons in Hn as [_ Hn]. eapply A; eauto.
+Qed.
+
+Lemma AI_idx_load d0 d m m' o a armed T :
+  load_acct d m a = (m', o) -> AI_idx d0 d m armed T -> AI_idx d0 d m' armed (taint_if armed a T).
+Proof.
+  intros HL HI. apply load_acct_ext in HL as (HE & (HS & _) & _).
+  destruct armed; simpl.
+  - eapply AI_idx_taint; eauto.
+  - assert (T = []) as -> by (apply HI; reflexivity). eapply AI_idx_ext; eauto.
+Qed.
+
+Lemma new_account_AI_idx d0 k nm t t' r armed T :
+  new_account k nm t = (t', r) ->
+  AI_idx d0 (t_disk t) (t_mem t) armed T -> AI_idx d0 (t_disk t') (t_mem t') true T.
+Proof.
+  intros HS HI. apply AI_idx_weaken in HI. unfold new_account in HS.
+  repeat case_match; simplify_eq; simpl; try exact HI.
   destruct HI as [A _]. split; [exact A|discriminate].
 Qed.
 
-Lemma abort_idx_step rb d0 o ops t t' r armed :
-  abort_k_idx armed (o :: ops) = false ->
-  step rb o t = (t', r) ->
-  AI_idx d0 (t_disk t) (t_mem t) armed ->
-  AI_idx d0 (t_disk t') (t_mem t') (arm o armed) /\ abort_k_idx (arm o armed) ops = false.
+Lemma issue_AI_idx rbf d0 a b i cnt ai ok t t' r armed T :
+  issue rbf a b i cnt ai ok t = (t', r) ->
+  m_accts (t_mem t) !! a = Some ai ->
+  AI_idx d0 (t_disk t) (t_mem t) armed T -> AI_idx d0 (t_disk t') (t_mem t') armed T.
+Proof.
+  intros HS Ha HI. unfold issue, put_chain in HS.
+  destruct (d_accts (t_disk t) !! a) as [r0|] eqn:Er0; injection HS as <- <-; simpl.
+  - match goal with |- AI_idx _ ?d' _ _ _ => assert (G : AI_idx d0 d' (t_mem t) armed T) end.
+    2:{ eapply AI_idx_cong; [..|exact G]; try reflexivity. destruct rbf; [np|]; reflexivity. }
+    destruct HI as [A B]. split; [exact A|].
+    intros Harm. destruct (B Harm) as [HT B']. split; [exact HT|].
+    intros a' Ha'. simpl in *. assert (a' <> a) by congruence.
+    rewrite lookup_insert_ne by congruence. apply B'; auto.
+  - eapply AI_idx_cong; [..|exact HI]; reflexivity.
+Qed.
+
+Lemma abort_idx_step P d0 o ops t t' r armed T :
+  abort_k_idx P armed T (o :: ops) = false ->
+  step P o t = (t', r) ->
+  AI_idx d0 (t_disk t) (t_mem t) armed T ->
+  AI_idx d0 (t_disk t') (t_mem t') (arm_idx o armed) (tnt_idx o armed T).
 Proof.
   intros HK HS HI.
-  destruct o as [nm|a nm|a b n|a b last|x|s| |tm|s v|x bs|q|nm wk]; simpl in HK; try discriminate.
+  destruct o as [nm|a nm|a b n|a b last|x|s| |tm|s v|x bs pv|q|nm wk| | |a]; simpl in HK.
   - (* new account *)
-    split; [|exact HK]. simpl in HS. eapply new_account_AI_idx; eauto.
-  - (* rename *)
-    apply orb_false_iff in HK as [_ HK]. split; [|exact HK]. simpl in HS.
-    repeat case_match; simplify_eq; simpl; try exact HI.
-    all: rewrite rename_switch_eq; unfold rename_rows; simpl.
-    + destruct HI as [A B]. split.
-      * intros a' ai' Ha'. simpl in Ha'. destruct (decide (a' = a)) as [->|Hne].
-        -- rewrite lookup_insert in Ha'. injection Ha' as <-.
-           match goal with H : m_accts (t_mem t) !! a = Some ?ai0 |- _ =>
-             destruct (A a ai0 H) as (r0 & Hr0 & Hb) end.
-           exists r0. split; [exact Hr0|]. intros b0.
-           rewrite next_of_set_name, last_of_set_name. apply Hb.
-        -- rewrite lookup_insert_ne in Ha' by congruence. apply A; exact Ha'.
-      * intros Harm a' Ha'. simpl in *. destruct (decide (a' = a)) as [->|Hne].
-        -- rewrite lookup_insert in Ha'. discriminate.
-        -- rewrite lookup_insert_ne in Ha' by congruence. rewrite lookup_insert_ne by congruence.
-           apply B; auto.
-    + destruct HI as [A B]. split; [exact A|].
-      intros Harm a' Ha'. simpl in *. destruct (decide (a' = a)) as [->|Hne].
-      * rewrite lookup_insert. rewrite <- (B Harm a Ha').
-        match goal with H : d_accts (t_disk t) !! a = Some _ |- _ => rewrite H end. reflexivity.
-      * rewrite lookup_insert_ne by congruence. apply B; auto.
+    simpl in HS. destruct (m_locked (t_mem t)); [injection HS as <- <-; eapply AI_idx_weaken; exact HI|].
+    eapply new_account_AI_idx; eauto.
+  - (* rename: the rows keep their indices, the cached entry too *)
+    simpl in HS.
+    destruct (a =? imported_acct)%N; [injection HS as <- <-; exact HI|].
+    destruct (bool_decide (is_Some (d_nameidx (t_disk t) !! nm))); [injection HS as <- <-; exact HI|].
+    destruct (bad_name nm); [injection HS as <- <-; exact HI|].
+    destruct (d_accts (t_disk t) !! a) as [r0|] eqn:Er0; [|injection HS as <- <-; exact HI].
+    rewrite rename_switch_eq in HS.
+    assert (HD : AI_idx d0 (rename_rows a nm r0 (t_disk t)) (t_mem t) armed T).
+    { destruct HI as [A B]. split; [exact A|].
+      intros Harm. destruct (B Harm) as [HT B']. split; [exact HT|].
+      intros a' Ha'. simpl. destruct (decide (a' = a)) as [->|Hne].
+      - rewrite lookup_insert. rewrite <- (B' a Ha'), Er0. reflexivity.
+      - rewrite lookup_insert_ne by congruence. apply B'; auto. }
+    destruct (p_re P); injection HS as <- <-; simpl; [|exact HD].
+    destruct (m_accts (t_mem t) !! a) as [ai|] eqn:Eai; [|exact HD].
+    destruct HD as [A B]. split.
+    + intros a' ai' Hn Ha'. simpl in Ha'. destruct (decide (a' = a)) as [->|Hne].
+      * rewrite lookup_insert in Ha'. injection Ha' as <-.
+        destruct (A a ai Hn Eai) as (r1 & Hr1 & Hb). exists r1. split; [exact Hr1|]. intros b0.
+        rewrite next_of_set_name, last_of_set_name. apply Hb.
+      * rewrite lookup_insert_ne in Ha' by congruence. eapply A; eauto.
+    + intros Harm. destruct (B Harm) as [HT B']. split; [exact HT|].
+      intros a' Ha'. simpl in Ha'. destruct (decide (a' = a)) as [->|Hne].
+      * rewrite lookup_insert in Ha'. discriminate.
+      * rewrite lookup_insert_ne in Ha' by congruence. apply B'; auto.
   - (* next *)
-    apply orb_false_iff in HK as [-> HK]. split; [|exact HK].
     simpl in HS.
     destruct (load_acct (t_disk t) (t_mem t) a) as [m1 o] eqn:EL.
-    apply load_acct_ext in EL as (HE & HAd & Ho).
-    pose proof (AI_idx_ext _ _ _ _ HI HE) as HI1.
+    pose proof (AI_idx_load _ _ _ _ _ _ _ _ EL HI) as HI1.
+    apply load_acct_ext in EL as (_ & _ & Ho).
     destruct o as [ai|]; [|injection HS as <- <-; exact HI1].
     destruct ((max_addrs <? n)%N || (max_addrs <? next_of ai b + n)%N); [injection HS as <- <-; exact HI1|].
     destruct (n =? 0)%N; [injection HS as <- <-; exact HI1|].
-    unfold put_chain in HS.
-    destruct (d_accts (t_disk t) !! a) as [r0|] eqn:Er0; injection HS as <- <-; simpl.
-    + match goal with |- AI_idx _ ?d' _ _ => assert (G : AI_idx d0 d' m1 false) end.
-      2:{ eapply AI_idx_cong; [..|exact G]; try reflexivity. destruct rb; reflexivity. }
-      destruct HI1 as [A B]. split; [exact A|].
-      intros Harm a' Ha'. simpl in *. assert (a' <> a) by congruence.
-      rewrite lookup_insert_ne by congruence. apply B; auto.
-    + eapply AI_idx_cong; [..|exact HI1]; reflexivity.
+    eapply issue_AI_idx in HS; [exact HS|exact Ho|exact HI1].
+  - (* extend, deferred *)
+    apply orb_false_iff in HK as [Hee HK]. simpl in HS. rewrite Hee in HS.
+    destruct (load_acct (t_disk t) (t_mem t) a) as [m1 o] eqn:EL.
+    pose proof (AI_idx_load _ _ _ _ _ _ _ _ EL HI) as HI1.
+    apply load_acct_ext in EL as (_ & _ & Ho).
+    destruct o as [ai|]; [|injection HS as <- <-; exact HI1].
+    destruct (last <? next_of ai b)%N; [injection HS as <- <-; exact HI1|].
+    destruct (max_addrs <? last)%N; [injection HS as <- <-; exact HI1|].
+    eapply issue_AI_idx in HS; [exact HS|exact Ho|exact HI1].
   - (* mark used *)
-    apply orb_false_iff in HK as [_ HK]. split; [|exact HK].
     simpl in HS. injection HS as <- <-. simpl. eapply AI_idx_cong; [..|exact HI]; reflexivity.
-  - apply orb_false_iff in HK as [_ HK]. split; [|exact HK].
-    simpl in HS. apply set_synced_accts in HS as (E1 & _ & E3 & _).
+  - simpl in HS. apply set_synced_fields in HS as (E1 & _ & E3 & _).
     eapply AI_idx_cong; [..|exact HI]; assumption.
-  - apply orb_false_iff in HK as [_ HK]. split; [|exact HK].
-    simpl in HS. apply set_synced_accts in HS as (E1 & _ & E3 & _).
+  - simpl in HS. apply set_synced_fields in HS as (E1 & _ & E3 & _).
     eapply AI_idx_cong; [..|exact HI]; assumption.
-  - apply orb_false_iff in HK as [_ HK]. split; [|exact HK].
-    simpl in HS. injection HS as <- <-. simpl. eapply AI_idx_cong; [..|exact HI]; reflexivity.
-  - apply orb_false_iff in HK as [_ HK]. split; [|exact HK].
-    simpl in HS. injection HS as <- <-. simpl. eapply AI_idx_cong; [..|exact HI]; reflexivity.
+  - simpl in HS. injection HS as <- <-. simpl. eapply AI_idx_cong; [..|exact HI]; reflexivity.
+  - simpl in HS. injection HS as <- <-. simpl. eapply AI_idx_cong; [..|exact HI]; reflexivity.
   - (* import *)
-    apply orb_false_iff in HK as [_ HK]. split; [|exact HK].
     simpl in HS. repeat case_match; simplify_eq; simpl; try exact HI;
       (eapply AI_idx_cong; [..|exact HI]; reflexivity).
   - (* read *)
-    apply orb_false_iff in HK as [HL HK]. split; [|exact HK].
     simpl in HS. destruct (read q (t_disk t) (t_mem t)) as [m' x] eqn:ER. injection HS as <- <-. simpl.
-    destruct armed.
-    + simpl in HL. pose proof (read_nonloading q (t_disk t) (t_mem t) HL) as HN.
-      rewrite ER in HN. simpl in HN. subst. exact HI.
-    + eapply AI_idx_ext; [exact HI|]. eapply read_ext; exact ER.
+    destruct q as [y|a b|a|nm|a| | |h| | ]; simpl tnt_idx;
+      try (simpl in ER; injection ER as <- <-; exact HI).
+    + (* lookup *)
+      destruct y as [a b i|k|k]; simpl tnt_idx; simpl in ER.
+      * destruct (m_addrs (t_mem t) !! Chain a b i); [injection ER as <- <-; apply AI_idx_more; exact HI|].
+        destruct (bool_decide (Chain a b i ∈ d_addrs (t_disk t))); [|injection ER as <- <-; apply AI_idx_more; exact HI].
+        destruct (load_acct (t_disk t) (t_mem t) a) as [m1 o] eqn:EL.
+        pose proof (AI_idx_load _ _ _ _ _ _ _ _ EL HI) as HI1.
+        destruct o; injection ER as <- <-; [|exact HI1].
+        eapply AI_idx_cong; [..|exact HI1]; [reflexivity|np; reflexivity].
+      * repeat case_match; simplify_eq; try exact HI; (eapply AI_idx_cong; [..|exact HI]; reflexivity).
+      * repeat case_match; simplify_eq; try exact HI; (eapply AI_idx_cong; [..|exact HI]; reflexivity).
+    + simpl in ER. destruct (load_acct (t_disk t) (t_mem t) a) as [m1 o] eqn:EL.
+      pose proof (AI_idx_load _ _ _ _ _ _ _ _ EL HI) as HI1.
+      destruct o; injection ER as <- <-; exact HI1.
+    + simpl in ER. destruct (a =? imported_acct)%N; [injection ER as <- <-; exact HI|].
+      destruct (load_acct (t_disk t) (t_mem t) a) as [m1 o] eqn:EL.
+      pose proof (AI_idx_load _ _ _ _ _ _ _ _ EL HI) as HI1.
+      destruct o; injection ER as <- <-; exact HI1.
   - (* new watch-only account *)
-    split; [|exact HK]. simpl in HS. eapply new_account_AI_idx; eauto.
+    simpl in HS. eapply new_account_AI_idx; eauto.
+  - (* lock *)
+    simpl in HS. destruct (m_locked (t_mem t)); injection HS as <- <-; [exact HI|].
+    simpl. eapply AI_idx_cong; [..|exact HI]; reflexivity.
+  - (* unlock *)
+    apply orb_false_iff in HK as [-> HK]. simpl in HS.
+    destruct (negb (m_locked (t_mem t))); [injection HS as <- <-; exact HI|].
+    destruct (load_all (t_disk t) (t_mem t) (m_pending (t_mem t))) as [m1 ok] eqn:EL.
+    apply load_all_ext in EL as [HE _].
+    assert (T = []) as -> by (apply HI; reflexivity).
+    pose proof (AI_idx_ext _ _ _ _ HI HE) as HI1.
+    destruct ok; injection HS as <- <-; simpl; [|exact HI1].
+    eapply AI_idx_cong; [..|exact HI1]; reflexivity.
+  - (* invalidate *)
+    simpl in HS. injection HS as <- <-. simpl.
+    destruct HI as [A _]. split; [|discriminate].
+    intros a' ai Hn Ha'. simpl in Ha'. apply lookup_delete_Some in Ha' as [Hne Ha'].
+    eapply A; eauto. intros Hin. apply Hn, rm_taint_spec. auto.
 Qed.
 
-Lemma abort_idx_ops rb d0 ops : forall t t' outs armed,
-  abort_k_idx armed ops = false ->
-  run_ops rb ops t = (t', outs) ->
-  AI_idx d0 (t_disk t) (t_mem t) armed ->
+Lemma abort_idx_ops P d0 ops : forall t t' outs armed T,
+  abort_k_idx P armed T ops = false ->
+  run_ops P ops t = (t', outs) ->
+  AI_idx d0 (t_disk t) (t_mem t) armed T ->
   coh_idx (t_mem t') d0.
 Proof.
-  induction ops as [|o ops IH]; simpl; intros t t' outs armed HK HR HI.
-  - injection HR as <- <-. apply HI.
-  - destruct (step rb o t) as [t1 x] eqn:ES.
-    destruct (run_ops rb ops t1) as [t2 xs] eqn:ER. injection HR as <- <-.
-    destruct (abort_idx_step rb d0 o ops t t1 x armed HK ES HI) as [HI1 HK1].
-    eapply IH; eauto.
+  induction ops as [|o ops IH]; simpl; intros t t' outs armed T HK HR HI.
+  - injection HR as <- <-. destruct T; [|discriminate]. apply coh_idx_ex_nil, HI.
+  - destruct (step P o t) as [t1 x] eqn:ES.
+    destruct (run_ops P ops t1) as [t2 xs] eqn:ER. injection HR as <- <-.
+    pose proof (abort_idx_step P d0 o ops t t1 x armed T HK ES HI) as HI1.
+    eapply IH; [|exact ER|exact HI1]. apply abort_k_idx_next. exact HK.
 Qed.
 
 (** ** Whole transactions and histories *)
@@ -1143,85 +1869,91 @@ Qed.
 Definition Inv (s : state) : Prop := coherent (mem_of s) (disk_of s) /\ wf_disk (disk_of s).
 Definition Inv_idx (s : state) : Prop := coh_idx (mem_of s) (disk_of s) /\ wfL (disk_of s).
 
-Lemma run_tx_unfold rb x s :
-  run_tx rb x s =
-  let '(t, outs) := run_ops rb (tx_ops x) {| t_disk := disk_of s; t_mem := mem_of s; t_cbs := [] |} in
+Lemma run_tx_unfold P x s :
+  run_tx P x s =
+  let '(t, outs) := run_ops P (tx_ops x) (begin_tx s) in
   let s1 := end_tx (tx_fate x) s t in
   let '(m2, qa) := run_queries (tx_queries x) (disk_of s1) (mem_of s1) in
   ({| disk_of := disk_of s1; mem_of := m2 |}, (outs, qa)).
 Proof. reflexivity. Qed.
 
-Lemma tx_preserves_Inv rb x s :
-  tx_k rb x = false -> forallb op_times_ok (tx_ops x) = true -> Inv s -> Inv (run_tx rb x s).1.
+Lemma AIK_begin s : Inv s -> AIK (disk_of s) (disk_of s) (mem_of s) false false [].
 Proof.
-  intros HK HT [HC [HL HA]]. rewrite run_tx_unfold.
-  destruct (run_ops rb (tx_ops x) _) as [t outs] eqn:ER.
+  intros [(A & B & C & D & E) _]. unfold AIK. rewrite coh_idx_ex_nil, coh_name_ex_nil.
+  split; [exact A|split; [exact B|split; [exact C|split; [exact D|split; [exact E|split; [reflexivity|split; [auto|auto]]]]]]].
+Qed.
+
+Lemma tx_preserves_Inv P x s :
+  tx_k P x = false -> forallb op_times_ok (tx_ops x) = true -> Inv s -> Inv (run_tx P x s).1.
+Proof.
+  intros HK HT HInv. pose proof HInv as [HC [HL HA]]. rewrite run_tx_unfold.
+  destruct (run_ops P (tx_ops x) _) as [t outs] eqn:ER.
   cbv zeta. set (s1 := end_tx (tx_fate x) s t).
   assert (HI1 : Inv s1).
   { subst s1. unfold tx_k in HK. destruct (tx_fate x) eqn:EF; simpl.
     - apply orb_false_iff in HK as [HK1 HK2].
       destruct HC as (C1 & C2 & C3 & C4 & C5).
-      destruct (commit_ops rb (tx_ops x) _ t outs [] HK1 HK2 HT ER) as (pend' & HI' & HR').
+      destruct (commit_ops P (tx_ops x) _ t outs [] HK1 HK2 HT ER) as (pend' & HI' & HR').
       + simpl. apply TI_idx_init; assumption.
-      + simpl. repeat split; auto; apply C4.
-      + apply TI_idx_settle in HI'. apply TI_rest_settle in HR'.
-        destruct HR' as (R1 & R2 & _ & R4 & R5 & R6).
+      + simpl. split; [exact C2|split; [intros a r v _ Hx; inversion Hx|split; [constructor|split; [auto|
+          split; [exact C3|split; [constructor|split; [exact HA|split; [exact C4|exact C5]]]]]]]].
+      + apply (TI_idx_settle _ (t_ncbs t)) in HI'. apply TI_rest_settle in HR'.
+        apply TI_rest_nil in HR' as (R1 & R2 & R4 & R5 & R6).
         split; [|split; [apply HI'|exact R4]].
         split; [eapply TI_idx_nil; exact HI'|]. auto.
     - split; [|split; assumption].
-      eapply (abort_k_ops rb (disk_of s)); [exact HK|exact ER|]. simpl. split; [exact HC|]. auto.
+      eapply (abort_k_ops P (disk_of s)); [exact HK|exact ER|]. simpl. apply AIK_begin. exact HInv.
     - split; [|split; assumption].
-      eapply (abort_k_ops rb (disk_of s)); [exact HK|exact ER|]. simpl. split; [exact HC|]. auto.
+      eapply (abort_k_ops P (disk_of s)); [exact HK|exact ER|]. simpl. apply AIK_begin. exact HInv.
     - split; [|split; assumption].
-      eapply (abort_k_ops rb (disk_of s)); [exact HK|exact ER|]. simpl. split; [exact HC|]. auto. }
+      eapply (abort_k_ops P (disk_of s)); [exact HK|exact ER|]. simpl. apply AIK_begin. exact HInv. }
   destruct (run_queries (tx_queries x) (disk_of s1) (mem_of s1)) as [m2 qa] eqn:EQ. simpl.
   destruct HI1 as [HC1 HW1]. split; [|exact HW1].
   eapply coherent_ext; [exact HC1|]. eapply run_queries_ext; exact EQ.
 Qed.
 
-Lemma tx_preserves_Inv_idx rb x s :
-  tx_k_idx x = false -> Inv_idx s -> Inv_idx (run_tx rb x s).1.
+Lemma tx_preserves_Inv_idx P x s :
+  tx_k_idx P x = false -> Inv_idx s -> Inv_idx (run_tx P x s).1.
 Proof.
   intros HK [HC HL]. rewrite run_tx_unfold.
-  destruct (run_ops rb (tx_ops x) _) as [t outs] eqn:ER.
+  destruct (run_ops P (tx_ops x) _) as [t outs] eqn:ER.
   cbv zeta. set (s1 := end_tx (tx_fate x) s t).
+  assert (HA : AI_idx (disk_of s) (disk_of s) (mem_of s) false []).
+  { split; [apply coh_idx_ex_nil; exact HC|auto]. }
   assert (HI1 : Inv_idx s1).
   { subst s1. unfold tx_k_idx in HK. destruct (tx_fate x) eqn:EF; simpl.
-    - destruct (commit_ops_idx rb (tx_ops x) _ t outs [] HK ER) as (pend' & HI').
+    - destruct (commit_ops_idx P (tx_ops x) _ t outs [] HK ER) as (pend' & HI').
       + simpl. apply TI_idx_init; assumption.
-      + apply TI_idx_settle in HI'. split; [eapply TI_idx_nil; exact HI'|apply HI'].
-    - split; [|exact HL]. eapply (abort_idx_ops rb (disk_of s)); [exact HK|exact ER|].
-      simpl. split; [exact HC|auto].
-    - split; [|exact HL]. eapply (abort_idx_ops rb (disk_of s)); [exact HK|exact ER|].
-      simpl. split; [exact HC|auto].
-    - split; [|exact HL]. eapply (abort_idx_ops rb (disk_of s)); [exact HK|exact ER|].
-      simpl. split; [exact HC|auto]. }
+      + apply (TI_idx_settle _ (t_ncbs t)) in HI'. split; [eapply TI_idx_nil; exact HI'|apply HI'].
+    - split; [|exact HL]. eapply (abort_idx_ops P (disk_of s)); [exact HK|exact ER|exact HA].
+    - split; [|exact HL]. eapply (abort_idx_ops P (disk_of s)); [exact HK|exact ER|exact HA].
+    - split; [|exact HL]. eapply (abort_idx_ops P (disk_of s)); [exact HK|exact ER|exact HA]. }
   destruct (run_queries (tx_queries x) (disk_of s1) (mem_of s1)) as [m2 qa] eqn:EQ. simpl.
   destruct HI1 as [HC1 HW1]. split; [|exact HW1].
   eapply coh_idx_ext; [exact HC1|eapply run_queries_ext; exact EQ|reflexivity].
 Qed.
 
-Lemma final_cons rb x h s : final rb (x :: h) s = final rb h (run_tx rb x s).1.
+Lemma final_cons P x h s : final P (x :: h) s = final P h (run_tx P x s).1.
 Proof.
-  unfold final. simpl. destruct (run_tx rb x s) as [s1 o]. simpl. destruct (run_hist rb h s1). reflexivity.
+  unfold final. simpl. destruct (run_tx P x s) as [s1 o]. simpl. destruct (run_hist P h s1). reflexivity.
 Qed.
 
-Lemma final_app rb h1 : forall h2 s, final rb (h1 ++ h2) s = final rb h2 (final rb h1 s).
+Lemma final_app P h1 : forall h2 s, final P (h1 ++ h2) s = final P h2 (final P h1 s).
 Proof.
   induction h1 as [|x h1 IH]; intros h2 s; [reflexivity|].
   simpl. rewrite !final_cons. apply IH.
 Qed.
 
-Lemma hist_preserves_Inv rb h : forall s,
-  in_K rb h = false -> times_ok h = true -> Inv s -> Inv (final rb h s).
+Lemma hist_preserves_Inv P h : forall s,
+  in_K P h = false -> times_ok h = true -> Inv s -> Inv (final P h s).
 Proof.
   induction h as [|x h IH]; intros s HK HT HI; [exact HI|].
   simpl in HK, HT. apply orb_false_iff in HK as [HK1 HK2]. apply andb_true_iff in HT as [HT1 HT2].
   rewrite final_cons. apply IH; auto. apply tx_preserves_Inv; auto.
 Qed.
 
-Lemma hist_preserves_Inv_idx rb h : forall s,
-  in_K_idx h = false -> Inv_idx s -> Inv_idx (final rb h s).
+Lemma hist_preserves_Inv_idx P h : forall s,
+  in_K_idx P h = false -> Inv_idx s -> Inv_idx (final P h s).
 Proof.
   induction h as [|x h IH]; intros s HK HI; [exact HI|].
   simpl in HK. apply orb_false_iff in HK as [HK1 HK2].
@@ -1235,30 +1967,43 @@ Lemma Inv_idx_opened d : wfL d -> Inv_idx (opened d).
 Proof. intros H. split; [apply coherent_reopen|exact H]. Qed.
 
 (** The statement of C08 outside K. *)
-Lemma memory_equals_restart rb d0 h :
-  wf_disk d0 -> times_ok h = true -> in_K rb h = false ->
-  forall q, observe (mem_of (final rb h (opened d0))) (disk_of (final rb h (opened d0))) q
-          = observe (reopen (disk_of (final rb h (opened d0)))) (disk_of (final rb h (opened d0))) q.
+Lemma memory_equals_restart P d0 h :
+  wf_disk d0 -> times_ok h = true -> in_K P h = false ->
+  let s := final P h (opened d0) in
+  forall q, observe (mem_of s) (disk_of s) q = observe (restart (mem_of s) (disk_of s)) (disk_of s) q.
 Proof.
-  intros HW HT HK q.
-  destruct (hist_preserves_Inv rb h (opened d0) HK HT (Inv_opened d0 HW)) as [HC [_ HA]].
+  intros HW HT HK s q.
+  destruct (hist_preserves_Inv P h (opened d0) HK HT (Inv_opened d0 HW)) as [HC [_ HA]].
   apply observe_coherent; assumption.
 Qed.
 
-Lemma in_K_app rb h1 h2 : in_K rb (h1 ++ h2) = in_K rb h1 || in_K rb h2.
+Lemma in_K_app P h1 h2 : in_K P (h1 ++ h2) = in_K P h1 || in_K P h2.
 Proof. unfold in_K. apply existsb_app. Qed.
 Lemma times_ok_app h1 h2 : times_ok (h1 ++ h2) = times_ok h1 && times_ok h2.
 Proof. unfold times_ok. apply forallb_app. Qed.
 
 (** ... at every transaction boundary of the history. *)
-Lemma memory_equals_restart_everywhere rb d0 h1 h2 :
-  wf_disk d0 -> times_ok (h1 ++ h2) = true -> in_K rb (h1 ++ h2) = false ->
-  forall q, observe (mem_of (final rb h1 (opened d0))) (disk_of (final rb h1 (opened d0))) q
-          = observe (reopen (disk_of (final rb h1 (opened d0)))) (disk_of (final rb h1 (opened d0))) q.
+Lemma memory_equals_restart_everywhere P d0 h1 h2 :
+  wf_disk d0 -> times_ok (h1 ++ h2) = true -> in_K P (h1 ++ h2) = false ->
+  let s := final P h1 (opened d0) in
+  forall q, observe (mem_of s) (disk_of s) q = observe (restart (mem_of s) (disk_of s)) (disk_of s) q.
 Proof.
   intros HW HT HK. rewrite times_ok_app in HT. rewrite in_K_app in HK.
   apply andb_true_iff in HT as [HT _]. apply orb_false_iff in HK as [HK _].
   apply memory_equals_restart; assumption.
+Qed.
+
+(** Outside K, every address the running manager knows is reported with the
+    type and the master-key fingerprint of its account's database row. *)
+Lemma derivation_info_is_the_rows P d0 h x y a i im u ty fp :
+  wf_disk d0 -> times_ok h = true -> in_K P h = false ->
+  let s := final P h (opened d0) in
+  observe (mem_of s) (disk_of s) (QLookup x) = AAddr y a i im u ty fp ->
+  (ty, fp) = meta_of (disk_of s) x.
+Proof.
+  intros HW HT HK s.
+  destruct (hist_preserves_Inv P h (opened d0) HK HT (Inv_opened d0 HW)) as [HC [_ HA]].
+  eapply lookup_reports_row_meta; eassumption.
 Qed.
 
 (** ** The next committed issuance *)
@@ -1266,62 +2011,72 @@ Qed.
 Definition issue_tx (a : N) (b : bool) (n : N) : txn :=
   {| tx_ops := [ONext a b n]; tx_fate := Commit; tx_queries := [] |}.
 
-Lemma issue_same rb d m a b n :
-  coh_idx m d ->
-  (run_tx rb (issue_tx a b n) {| disk_of := d; mem_of := m |}).2.1
-    = (run_tx rb (issue_tx a b n) (opened d)).2.1 /\
-  disk_of (run_tx rb (issue_tx a b n) {| disk_of := d; mem_of := m |}).1
-    = disk_of (run_tx rb (issue_tx a b n) (opened d)).1.
+(** The state a restart gives: same database, fresh memory in the same lock state. *)
+Definition restarted (s : state) : state :=
+  {| disk_of := disk_of s; mem_of := restart (mem_of s) (disk_of s) |}.
+
+Lemma issue_same P d m m' a b n :
+  coh_idx m d -> m_accts m' = ∅ ->
+  (run_tx P (issue_tx a b n) {| disk_of := d; mem_of := m |}).2.1
+    = (run_tx P (issue_tx a b n) {| disk_of := d; mem_of := m' |}).2.1 /\
+  disk_of (run_tx P (issue_tx a b n) {| disk_of := d; mem_of := m |}).1
+    = disk_of (run_tx P (issue_tx a b n) {| disk_of := d; mem_of := m' |}).1.
 Proof.
-  intros HC. unfold run_tx, issue_tx, opened. simpl.
-  pose proof (load_acct_spec d m a) as S1. pose proof (load_acct_spec d (reopen d) a) as S2.
-  simpl in S2. rewrite lookup_empty in S2.
+  intros HC HE. unfold run_tx, issue_tx, begin_tx. simpl.
+  unfold load_acct. rewrite HE, lookup_empty.
   destruct (m_accts m !! a) as [ai|] eqn:E1.
-  - destruct (HC a ai E1) as (r & Hr & Hb). rewrite Hr in S2. rewrite S1, S2.
+  - destruct (HC a ai E1) as (r & Hr & Hb). rewrite Hr.
     destruct (Hb b) as [Hn _]. destruct (info_of_row_idx r b) as [Hn' _].
     rewrite Hn, Hn'.
     destruct ((max_addrs <? n)%N || (max_addrs <? row_next r b + n)%N); [simpl; auto|].
     destruct (n =? 0)%N; [simpl; auto|].
-    unfold put_chain. simpl. rewrite Hr. simpl. auto.
-  - destruct (d_accts d !! a) as [r|] eqn:E2; rewrite S1, S2; [|simpl; auto].
+    unfold issue, put_chain. simpl. rewrite Hr. simpl. auto.
+  - destruct (d_accts d !! a) as [r|] eqn:E2; [|simpl; auto].
     destruct ((max_addrs <? n)%N || (max_addrs <? next_of (info_of_row r) b + n)%N); [simpl; auto|].
     destruct (n =? 0)%N; [simpl; auto|].
-    unfold put_chain. simpl. rewrite E2. simpl. auto.
+    unfold issue, put_chain. simpl. rewrite E2. simpl. auto.
 Qed.
 
-Lemma next_issue_equals_restart rb d0 h a b n :
-  wfL d0 -> in_K_idx h = false ->
-  let s := final rb h (opened d0) in
-  (run_tx rb (issue_tx a b n) s).2.1 = (run_tx rb (issue_tx a b n) (opened (disk_of s))).2.1 /\
-  disk_of (run_tx rb (issue_tx a b n) s).1 = disk_of (run_tx rb (issue_tx a b n) (opened (disk_of s))).1.
+Lemma next_issue_equals_restart P d0 h a b n :
+  wfL d0 -> in_K_idx P h = false ->
+  let s := final P h (opened d0) in
+  (run_tx P (issue_tx a b n) s).2.1 = (run_tx P (issue_tx a b n) (restarted s)).2.1 /\
+  disk_of (run_tx P (issue_tx a b n) s).1 = disk_of (run_tx P (issue_tx a b n) (restarted s)).1.
 Proof.
   intros HW HK s.
-  destruct (hist_preserves_Inv_idx rb h (opened d0) HK (Inv_idx_opened d0 HW)) as [HC _].
-  fold s in HC. destruct s as [d m]. apply issue_same. exact HC.
+  destruct (hist_preserves_Inv_idx P h (opened d0) HK (Inv_idx_opened d0 HW)) as [HC _].
+  fold s in HC. destruct s as [d m]. apply issue_same; [exact HC|reflexivity].
 Qed.
 
 (** Index-related queries agree outside [in_K_idx] (whatever else diverged). *)
-Lemma index_queries_equal_restart rb d0 h a :
-  wfL d0 -> in_K_idx h = false ->
-  let s := final rb h (opened d0) in
-  (forall b, observe (mem_of s) (disk_of s) (QLast a b) = observe (reopen (disk_of s)) (disk_of s) (QLast a b)) /\
-  match observe (mem_of s) (disk_of s) (QProps a), observe (reopen (disk_of s)) (disk_of s) (QProps a) with
-  | AProps _ e i _ _, AProps _ e' i' _ _ => e = e' /\ i = i'
+Lemma index_queries_equal_restart P d0 h a :
+  wfL d0 -> in_K_idx P h = false ->
+  let s := final P h (opened d0) in
+  (forall b, match observe (mem_of s) (disk_of s) (QLast a b),
+                   observe (restart (mem_of s) (disk_of s)) (disk_of s) (QLast a b) with
+             | ALast x _ _, ALast x' _ _ => x = x'
+             | AErr e, AErr e' => e = e'
+             | _, _ => False
+             end) /\
+  match observe (mem_of s) (disk_of s) (QProps a), observe (restart (mem_of s) (disk_of s)) (disk_of s) (QProps a) with
+  | AProps _ e i _ _ _, AProps _ e' i' _ _ _ => e = e' /\ i = i'
   | AErr e, AErr e' => e = e'
   | _, _ => False
   end.
 Proof.
   intros HW HK s.
-  destruct (hist_preserves_Inv_idx rb h (opened d0) HK (Inv_idx_opened d0 HW)) as [HC _].
-  fold s in HC. destruct s as [d m]. simpl in *. unfold observe. simpl. split.
-  - intros b. unfold load_acct; simpl. rewrite lookup_empty.
+  destruct (hist_preserves_Inv_idx P h (opened d0) HK (Inv_idx_opened d0 HW)) as [HC _].
+  fold s in HC. destruct s as [d m]. simpl in *. unfold observe.
+  split.
+  - intros b. rewrite 2!read_ans_load, 2!load_acct_ans. simpl. rewrite lookup_empty.
     destruct (m_accts m !! a) as [ai|] eqn:E.
     + destruct (HC a ai E) as (r & Hr & Hf). rewrite Hr. simpl.
       destruct (Hf b) as [H1 H2]. destruct (info_of_row_idx r b) as [H3 H4].
-      rewrite H1, H2, H3, H4. reflexivity.
-    + destruct (d_accts d !! a); reflexivity.
-  - destruct (a =? imported_acct)%N; [simpl; auto|].
-    unfold load_acct; simpl. rewrite lookup_empty.
+      rewrite H1, H2, H3, H4. destruct (0 <? row_next r b)%N; reflexivity.
+    + destruct (d_accts d !! a) as [r|]; simpl; [|reflexivity].
+      destruct (0 <? next_of (info_of_row r) b)%N; reflexivity.
+  - rewrite 2!read_ans_load, 2!load_acct_ans. simpl. rewrite lookup_empty.
+    destruct (a =? imported_acct)%N; [simpl; auto|].
     destruct (m_accts m !! a) as [ai|] eqn:E.
     + destruct (HC a ai E) as (r & Hr & Hf). rewrite Hr. simpl.
       destruct (Hf true) as [H1 _]. destruct (Hf false) as [H2 _]. simpl in H1, H2. auto.
@@ -1358,22 +2113,22 @@ Lemma J_cong d0 m0 d m d' m' :
   d_accts d' = d_accts d -> m_accts m' = m_accts m -> J d0 m0 d m -> J d0 m0 d' m'.
 Proof. intros E1 E2 H. unfold J in *. rewrite E1, E2. exact H. Qed.
 
-Lemma issue_step_J rb d0 m0 o t t' r :
-  issue_or_read o = true -> step rb o t = (t', r) ->
+Lemma issue_step_J P d0 m0 o t t' r :
+  issue_or_read o = true -> step P o t = (t', r) ->
   J d0 m0 (t_disk t) (t_mem t) -> J d0 m0 (t_disk t') (t_mem t').
 Proof.
-  intros HO HS HJ. destruct o as [| |a b n| | | | | | | |q|]; try discriminate.
+  intros HO HS HJ. destruct o as [| |a b n| | | | | | | |q| | | |]; try discriminate.
   - simpl in HS.
     destruct (load_acct (t_disk t) (t_mem t) a) as [m1 o] eqn:EL.
-    apply load_acct_ext in EL as (HE & HAd & Ho).
+    apply load_acct_ext in EL as (HE & _ & Ho).
     pose proof (J_ext _ _ _ _ _ HJ HE) as HJ1.
     destruct o as [ai|]; [|injection HS as <- <-; exact HJ1].
     destruct ((max_addrs <? n)%N || (max_addrs <? next_of ai b + n)%N); [injection HS as <- <-; exact HJ1|].
     destruct (n =? 0)%N; [injection HS as <- <-; exact HJ1|].
-    unfold put_chain in HS.
+    unfold issue, put_chain in HS. simpl in HS.
     destruct (d_accts (t_disk t) !! a) as [r0|] eqn:Er0; injection HS as <- <-; simpl.
     + match goal with |- J _ _ ?d' _ => assert (G : J d0 m0 d' m1) end.
-      2:{ eapply J_cong; [..|exact G]; try reflexivity. destruct rb; reflexivity. }
+      2:{ eapply J_cong; [..|exact G]; try reflexivity. destruct (p_rb P); [np|]; reflexivity. }
       destruct HJ1 as (A0 & A & B). split; [exact A0|split; [exact A|]].
       intros a' Ha'. simpl in *. assert (a' <> a) by congruence.
       rewrite lookup_insert_ne by congruence. apply B; auto.
@@ -1382,21 +2137,21 @@ Proof.
     eapply J_ext; [exact HJ|]. eapply read_ext; exact ER.
 Qed.
 
-Lemma issue_ops_J rb d0 m0 ops : forall t t' outs,
-  forallb issue_or_read ops = true -> run_ops rb ops t = (t', outs) ->
+Lemma issue_ops_J P d0 m0 ops : forall t t' outs,
+  forallb issue_or_read ops = true -> run_ops P ops t = (t', outs) ->
   J d0 m0 (t_disk t) (t_mem t) -> J d0 m0 (t_disk t') (t_mem t').
 Proof.
   induction ops as [|o ops IH]; simpl; intros t t' outs HO HR HJ.
   - injection HR as <- <-. exact HJ.
-  - destruct (step rb o t) as [t1 x] eqn:ES.
-    destruct (run_ops rb ops t1) as [t2 xs] eqn:ER. injection HR as <- <-.
+  - destruct (step P o t) as [t1 x] eqn:ES.
+    destruct (run_ops P ops t1) as [t2 xs] eqn:ER. injection HR as <- <-.
     apply andb_true_iff in HO as [HO1 HO2].
     eapply IH; eauto. eapply issue_step_J; eauto.
 Qed.
 
-Lemma rolled_back_issuance_keeps_indices rb s ops f qs :
+Lemma rolled_back_issuance_keeps_indices P s ops f qs :
   f <> Commit -> forallb issue_or_read ops = true ->
-  let s' := (run_tx rb {| tx_ops := ops; tx_fate := f; tx_queries := qs |} s).1 in
+  let s' := (run_tx P {| tx_ops := ops; tx_fate := f; tx_queries := qs |} s).1 in
   disk_of s' = disk_of s /\
   forall a ai, m_accts (mem_of s') !! a = Some ai ->
     m_accts (mem_of s) !! a = Some ai \/
@@ -1404,10 +2159,10 @@ Lemma rolled_back_issuance_keeps_indices rb s ops f qs :
      exists r, d_accts (disk_of s) !! a = Some r /\ ai = info_of_row r).
 Proof.
   intros Hf HO. rewrite run_tx_unfold. simpl.
-  destruct (run_ops rb ops _) as [t outs] eqn:ER.
+  destruct (run_ops P ops _) as [t outs] eqn:ER.
   assert (HJ0 : J (disk_of s) (mem_of s) (disk_of s) (mem_of s)).
   { split; [auto|split; [auto|auto]]. }
-  pose proof (issue_ops_J rb (disk_of s) (mem_of s) ops _ t outs HO ER HJ0) as HJ1.
+  pose proof (issue_ops_J P (disk_of s) (mem_of s) ops _ t outs HO ER HJ0) as HJ1.
   assert (HE : end_tx f s t = {| disk_of := disk_of s; mem_of := t_mem t |}) by (destruct f; [contradiction|reflexivity..]).
   rewrite HE. simpl.
   destruct (run_queries qs (disk_of s) (t_mem t)) as [m2 qa] eqn:EQ. simpl.
@@ -1420,32 +2175,64 @@ Qed.
 
 (** ** K_idx is part of K *)
 
-Lemma abort_k_idx_sub rb ops : forall armed issued,
-  abort_k_idx armed ops = true -> abort_k rb armed issued ops = true.
+Lemma taint_if_sub a armed1 armed2 T1 T2 :
+  (armed1 = true -> armed2 = true) -> (forall x, x ∈ T1 -> x ∈ T2) ->
+  forall x, x ∈ taint_if armed1 a T1 -> x ∈ taint_if armed2 a T2.
 Proof.
-  induction ops as [|o ops IH]; intros armed issued H; [discriminate|].
-  destruct o as [nm|a nm|a b n|a b last|x|s| |tm|s v|x bs|q|nm wk]; simpl in *; auto.
-  - apply orb_true_iff in H as [H|H]; [subst; apply orb_true_iff; left; apply orb_true_r|].
-    apply orb_true_iff. right. auto.
-  - apply orb_true_iff in H as [H|H]; apply orb_true_iff; auto.
-  - apply orb_true_iff in H as [H|H]; apply orb_true_iff; auto.
-  - destruct q; simpl in *;
-      try (apply orb_true_iff in H as [H|H]; apply orb_true_iff; auto; fail).
-    apply orb_true_iff in H as [H|H].
-    + rewrite andb_true_r in H. subst. apply orb_true_iff. left. apply orb_true_r.
-    + apply orb_true_iff. right. auto.
+  intros HA HT x. destruct armed1; simpl.
+  - rewrite (HA eq_refl). simpl. intros H. apply elem_of_cons in H as [->|H]; [left|right; auto].
+  - intros H. destruct armed2; simpl; [right|]; auto.
 Qed.
 
-Lemma tx_k_idx_sub rb x : tx_k_idx x = true -> tx_k rb x = true.
+Lemma tainted_sub T1 T2 : (forall x, x ∈ T1 -> x ∈ T2) -> tainted T1 = true -> tainted T2 = true.
+Proof.
+  destruct T1 as [|a T1]; [discriminate|]. intros H _. destruct T2; [|reflexivity].
+  exfalso. specialize (H a (elem_of_list_here _ _)). inversion H.
+Qed.
+
+Lemma rm_taint_sub a T1 T2 : (forall x, x ∈ T1 -> x ∈ T2) -> forall x, x ∈ rm_taint a T1 -> x ∈ rm_taint a T2.
+Proof. intros H x Hx. apply rm_taint_spec in Hx as [H1 H2]. apply rm_taint_spec. auto. Qed.
+
+Lemma abort_k_idx_sub P ops : forall armed1 armed2 issued T1 T2,
+  (armed1 = true -> armed2 = true) -> (forall x, x ∈ T1 -> x ∈ T2) ->
+  abort_k_idx P armed1 T1 ops = true -> abort_k P armed2 issued T2 ops = true.
+Proof.
+  induction ops as [|o ops IH]; intros armed1 armed2 issued T1 T2 HA HT H.
+  - simpl in *. eapply tainted_sub; eauto.
+  - destruct o as [nm|a nm|a b n|a b last|x|s| |tm|s v|x bs pv|q|nm wk| | |a]; simpl in *; auto.
+    + eapply IH; [| |exact H]; auto.
+    + apply orb_true_iff. right. eapply IH; [| |exact H]; auto.
+    + apply orb_true_iff. right. eapply IH; [| |exact H]; try (apply taint_if_sub); auto.
+    + apply orb_true_iff in H as [H|H]; apply orb_true_iff; [left; exact H|right].
+      eapply IH; [| |exact H]; try (apply taint_if_sub); auto.
+    + eapply IH; [| |exact H]; auto.
+    + eapply IH; [| |exact H]; auto.
+    + destruct q as [[a b i|k|k]|a b|a|nm|a| | |h| | ]; simpl in *;
+        try (eapply IH; [| |exact H]; try (apply taint_if_sub); auto; fail).
+      * destruct armed2; [apply orb_true_iff; left; apply orb_true_r|].
+        apply orb_true_iff. right.
+        assert (armed1 = false) by (destruct armed1; [specialize (HA eq_refl); discriminate|reflexivity]). subst armed1.
+        simpl in H. eapply IH; [| |exact H]; auto.
+      * apply orb_true_iff. right. eapply IH; [| |exact H]; auto.
+      * apply orb_true_iff. right. eapply IH; [| |exact H]; auto.
+      * destruct (a =? imported_acct)%N; eapply IH; [| |exact H| | |exact H]; try (apply taint_if_sub); auto.
+    + eapply IH; [| |exact H]; auto.
+    + eapply IH; [| |exact H]; auto.
+    + apply orb_true_iff in H as [H|H]; apply orb_true_iff; [left; subst; auto|right].
+      eapply IH; [| |exact H]; auto.
+    + eapply IH; [| |exact H]; try (apply rm_taint_sub); auto.
+Qed.
+
+Lemma tx_k_idx_sub P x : tx_k_idx P x = true -> tx_k P x = true.
 Proof.
   unfold tx_k_idx, tx_k. destruct (tx_fate x); intros H.
   - rewrite H. reflexivity.
-  - apply abort_k_idx_sub; exact H.
-  - apply abort_k_idx_sub; exact H.
-  - apply abort_k_idx_sub; exact H.
+  - eapply abort_k_idx_sub; [| |exact H]; auto.
+  - eapply abort_k_idx_sub; [| |exact H]; auto.
+  - eapply abort_k_idx_sub; [| |exact H]; auto.
 Qed.
 
-Lemma in_K_idx_sub rb h : in_K_idx h = true -> in_K rb h = true.
+Lemma in_K_idx_sub P h : in_K_idx P h = true -> in_K P h = true.
 Proof.
   unfold in_K_idx, in_K. rewrite !existsb_exists. intros (x & Hx & Hk). exists x. split; [exact Hx|].
   apply tx_k_idx_sub; exact Hk.
@@ -1460,73 +2247,113 @@ Proof.
   - intros a b0 i H. simpl in H. exfalso. revert H. apply not_elem_of_empty.
 Qed.
 
+(** ** What wallet.ImportAccountDryRun does is outside K (when issuance does
+    not cache its read-back): the account it creates, reads and issues from is
+    evicted before the transaction rolls back. *)
+
+Definition dry_import_ops (n nm : N) (w : wo) (k : N) : list op :=
+  [ONewAccountWO nm w; ORead (QProps n); ONext n false k; ONext n true k; ORead (QProps n); OInvalidate n].
+
+Lemma rm_taint_all a l : Forall (fun x => x = a) l -> rm_taint a l = [].
+Proof.
+  intros H. apply elem_of_nil_inv. intros x Hx. apply rm_taint_spec in Hx as [H1 H2].
+  rewrite Forall_forall in H. apply H2, H, elem_of_list_In, H1.
+Qed.
+
+Lemma dry_import_outside_K P n nm w k qs :
+  tx_k P {| tx_ops := dry_import_ops n nm w k; tx_fate := AbortDryRun; tx_queries := qs |} = p_rb P.
+Proof.
+  unfold tx_k, dry_import_ops. simpl.
+  destruct (p_rb P); [reflexivity|]. simpl.
+  destruct (n =? imported_acct)%N; simpl; rewrite rm_taint_all; auto; repeat constructor.
+Qed.
+
 (** ** Witnesses inside K (all from the database [Create] leaves) *)
 
 Definition d_wit : disk := created (4%N, 4%N) 0 1231006505 1599827200.
 Definition tx (ops : list op) (f : fate) : txn := {| tx_ops := ops; tx_fate := f; tx_queries := [] |}.
-Definition diverges (rb : bool) (h : list txn) (q : query) : bool :=
-  let s := final rb h (opened d_wit) in
-  negb (bool_decide (observe (mem_of s) (disk_of s) q = observe (reopen (disk_of s)) (disk_of s) q)).
-Definition issue_differs (rb : bool) (h : list txn) (a : N) (b : bool) (n : N) : bool :=
-  let s := final rb h (opened d_wit) in
-  negb (bool_decide ((run_tx rb (issue_tx a b n) s).2.1
-                     = (run_tx rb (issue_tx a b n) (opened (disk_of s))).2.1)).
+Definition diverges (P : params) (h : list txn) (q : query) : bool :=
+  let s := final P h (opened d_wit) in
+  negb (bool_decide (observe (mem_of s) (disk_of s) q = observe (restart (mem_of s) (disk_of s)) (disk_of s) q)).
+Definition issue_differs (P : params) (h : list txn) (a : N) (b : bool) (n : N) : bool :=
+  let s := final P h (opened d_wit) in
+  negb (bool_decide ((run_tx P (issue_tx a b n) s).2.1
+                     = (run_tx P (issue_tx a b n) (restarted s)).2.1)).
 
 Definition stamp1 : stamp := {| s_height := 1; s_hash := 5; s_time := 1600000600 |}.
+Definition wo1 : wo := {| w_key := 3; w_fp := 287454020; w_schema := Some (3%N, 4%N) |}.
 Definition w_rename := [tx [ORead (QProps 0)] Commit; tx [ORename 0 7] AbortCaller].
+Definition w_rename_reload := [tx [ORename 0 7; ORead (QProps 0)] AbortCaller].
 Definition w_synced := [tx [OSetSynced stamp1] CommitFails].
 Definition w_extend := [tx [OExtend 0 false 4] AbortDryRun].
 Definition w_phantom := [tx [ONext 0 true 1] AbortDryRun].
 Definition w_issue_lookup := [tx [ONext 0 true 1; ORead (QLookup (Chain 0 true 0))] AbortDryRun].
 Definition w_birthday := [tx [OSetBirthday 1500003600] AbortCaller].
-Definition w_import := [tx [OImport (ImpKey 0) None] CommitFails].
+Definition w_import := [tx [OImport (ImpKey 0) None false] CommitFails].
 Definition w_newacct_read := [tx [ONewAccount 5; ORead (QProps 1)] AbortCaller].
+Definition w_evict_reload := [tx [ONext 0 false 2; OInvalidate 0; ORead (QProps 0)] AbortCaller].
+Definition w_dry_import := [tx (dry_import_ops 1 5 wo1 2) AbortDryRun].
+Definition w_dry_import_kept :=
+  [tx [ONewAccountWO 5 wo1; ORead (QProps 1); ONext 1 false 2; ONext 1 true 2; ORead (QProps 1)] AbortDryRun].
 Definition w_stale_callback := [tx [ONext 0 false 1; OExtend 0 false 4] Commit].
 Definition w_synced_nil := [tx [OSetSyncedNil] Commit].
 
-Lemma witnesses_in_K rb :
-  forallb (fun h => in_K rb h && times_ok h)
-    [w_rename; w_synced; w_extend; w_issue_lookup; w_birthday; w_import; w_newacct_read;
-     w_stale_callback; w_synced_nil] = true.
-Proof. destruct rb; vm_compute; reflexivity. Qed.
+(** Which witnesses are inside K depends on the source ([params]): the
+    rolled-back rename only while rename is eager, the rolled-back extension and
+    the extension after an issuance only while extension is eager. *)
+Lemma witnesses_in_K P :
+  in_K P w_rename = p_re P /\ in_K P w_extend = p_ee P /\ in_K P w_stale_callback = p_ee P /\
+  in_K P w_dry_import = p_rb P /\
+  forallb (fun h => in_K P h)
+    [w_rename_reload; w_synced; w_issue_lookup; w_birthday; w_import; w_newacct_read;
+     w_evict_reload; w_dry_import_kept; w_synced_nil] = true /\
+  forallb times_ok
+    [w_rename; w_rename_reload; w_synced; w_extend; w_issue_lookup; w_birthday; w_import; w_newacct_read;
+     w_evict_reload; w_dry_import; w_dry_import_kept; w_stale_callback; w_synced_nil] = true.
+Proof. destruct P as [[] [] []]; vm_compute; repeat split. Qed.
 
-Lemma witnesses_diverge rb :
-  diverges rb w_rename (QProps 0) = true /\
-  diverges rb w_synced QSynced = true /\
-  diverges rb w_extend (QProps 0) = true /\
-  diverges rb w_extend (QLast 0 false) = true /\
-  diverges rb w_issue_lookup (QLookup (Chain 0 true 0)) = true /\
-  diverges rb w_birthday QBirthday = true /\
-  diverges rb w_import (QLookup (ImpKey 0)) = true /\
-  diverges rb w_newacct_read (QProps 1) = true /\
-  diverges rb w_stale_callback (QProps 0) = true /\
-  diverges rb w_synced_nil QSynced = true.
-Proof. destruct rb; vm_compute; repeat split. Qed.
+Lemma witnesses_diverge P :
+  diverges P w_rename (QProps 0) = p_re P /\
+  diverges P w_rename_reload (QProps 0) = true /\
+  diverges P w_synced QSynced = true /\
+  diverges P w_extend (QProps 0) = p_ee P /\
+  diverges P w_extend (QLast 0 false) = p_ee P /\
+  diverges P w_issue_lookup (QLookup (Chain 0 true 0)) = true /\
+  diverges P w_birthday QBirthday = true /\
+  diverges P w_import (QLookup (ImpKey 0)) = true /\
+  diverges P w_newacct_read (QProps 1) = true /\
+  diverges P w_evict_reload (QProps 0) = true /\
+  diverges P w_dry_import_kept (QProps 1) = true /\
+  diverges P w_dry_import (QProps 1) = false /\
+  diverges P w_stale_callback (QProps 0) = p_ee P /\
+  diverges P w_synced_nil QSynced = true.
+Proof. destruct P as [[] [] []]; vm_compute; repeat split. Qed.
 
 (** The plain dry-run issuance: inside K, and diverging, exactly when the
     read-back is cached before commit. *)
-Lemma dry_run_issuance_phantom rb :
-  in_K rb w_phantom = rb /\ times_ok w_phantom = true /\ in_K_idx w_phantom = false /\
-  diverges rb w_phantom (QLookup (Chain 0 true 0)) = rb.
-Proof. destruct rb; vm_compute; repeat split. Qed.
+Lemma dry_run_issuance_phantom P :
+  in_K P w_phantom = p_rb P /\ times_ok w_phantom = true /\ in_K_idx P w_phantom = false /\
+  diverges P w_phantom (QLookup (Chain 0 true 0)) = p_rb P.
+Proof. destruct P as [[] [] []]; vm_compute; repeat split. Qed.
 
-Lemma witnesses_issue_differs rb :
-  in_K_idx w_extend = true /\ issue_differs rb w_extend 0 false 1 = true /\
-  in_K_idx w_stale_callback = true /\ issue_differs rb w_stale_callback 0 false 1 = true.
-Proof. destruct rb; vm_compute; repeat split. Qed.
+Lemma witnesses_issue_differs P :
+  in_K_idx P w_extend = p_ee P /\ issue_differs P w_extend 0 false 1 = p_ee P /\
+  in_K_idx P w_stale_callback = p_ee P /\ issue_differs P w_stale_callback 0 false 1 = p_ee P /\
+  in_K_idx P w_evict_reload = true /\ issue_differs P w_evict_reload 0 false 1 = true.
+Proof. destruct P as [[] [] []]; vm_compute; repeat split. Qed.
 
-Lemma diverges_spec rb h q :
-  diverges rb h q = true ->
-  let s := final rb h (opened d_wit) in
-  observe (mem_of s) (disk_of s) q <> observe (reopen (disk_of s)) (disk_of s) q.
+Lemma diverges_spec P h q :
+  diverges P h q = true ->
+  let s := final P h (opened d_wit) in
+  observe (mem_of s) (disk_of s) q <> observe (restart (mem_of s) (disk_of s)) (disk_of s) q.
 Proof.
   unfold diverges. cbv zeta. intros H. apply negb_true_iff, bool_decide_eq_false in H. exact H.
 Qed.
 
-Lemma issue_differs_spec rb h a b n :
-  issue_differs rb h a b n = true ->
-  let s := final rb h (opened d_wit) in
-  (run_tx rb (issue_tx a b n) s).2.1 <> (run_tx rb (issue_tx a b n) (opened (disk_of s))).2.1.
+Lemma issue_differs_spec P h a b n :
+  issue_differs P h a b n = true ->
+  let s := final P h (opened d_wit) in
+  (run_tx P (issue_tx a b n) s).2.1 <> (run_tx P (issue_tx a b n) (restarted s)).2.1.
 Proof.
   unfold issue_differs. cbv zeta. intros H. apply negb_true_iff, bool_decide_eq_false in H. exact H.
 Qed.
